@@ -16,1619 +16,1615 @@ Definition terms (ts : list tok) (t : pt) : string :=
   digest (show_toks (Some ts)) ++ " " ++ digest (show_pt (Some t)) ++ " " ++ digest (show_pt (parse ts)).
 Definition terms_full (ts : list tok) (t : pt) : string :=
   show_toks (Some ts) ++ nl ++ show_pt (Some t) ++ nl ++ show_pt (parse ts).
-Eval vm_compute in ("<<<M11>>>" ++ check (runes_of_ascii "options { falsey
-= false}")).
-Eval vm_compute in ("<<<M43>>>" ++ check (runes_of_ascii "packet	BodyLength { repeat f32a Pad`// not a comment` ,
-// " ++ [128512]%N ++ runes_of_ascii " emoji
-// c
-}
-MetaData As { }options { crc
-    // packet A { u8 x, }
-    =
-""a\\""
-float= '\x00'
-    a1 // c
-= ' ';i8i8 =
-    4294967296
-}	packet u128 {
+Eval vm_compute in ("<<<M11>>>" ++ check (runes_of_ascii "  MetaData //	t
+len { char[ 007 ] T
+, }packet
+    chars {
+@tag( 0
+)
+char[] stringy @calculatedFrom( ""a\""b"" //x
+) `" ++ [233]%N ++ runes_of_ascii "`	,@tag( // trailing space 
+65535
+)	repeat
+o MetaDataX
+,
+    crc@lengthOf( i8i8 ),
+@calculatedFrom(
+/// triple
 // `tick` ""quote"" 'q'
-//
-match //x
-stringy as o{ ""`tick`""  : Foo  , [ 4294967296 ]	: x_y_z ,} ,zchar[ /// triple
-10 ] // `tick` ""quote"" 'q'
-Packet@lengthOf(u8x
-),
-@lengthOf(
-roots) // " ++ [27880; 37322]%N ++ runes_of_ascii "
-x
-    `// not a comment` , i64
-    asx @lengthOf( rootA ) , metadata ,
-i64_ @calculatedFrom(  ""\" ++ [233]%N ++ runes_of_ascii """ ) ,	@lengthOf(u128
-) repeat o `two words` , }
-")).
-Eval vm_compute in ("<<<M75>>>" ++ check (runes_of_ascii "packet MetaDataX
-{ @calculatedFrom(
-    ""CRC32""
-    ) @tag(	255 //
-) zchar[ 007
-// c
-// trailing space 
-] Logon , } MetaData
-// " ++ [27880; 37322]%N ++ runes_of_ascii "
-// `tick` ""quote"" 'q'
-u8x{ char[0123456789
+""x y""
+    ) roots@lengthOf(packetx ) , @calculatedFrom(  ""1"" )
+@lengthOf( Logon
+) @lengthOf( x ) repeat
+    T pack, @lengthOf( lengthOf)@tag(  42 ) i64 crc // c
+@calculatedFrom( ""packet"" ) `
+` ,
+i8i8
+    `` , }  packet len
+    {
+match u128	as string_ { 65535 :u128 ,
+    }
+, As ,
+    Header ,// " ++ [27880; 37322]%N ++ runes_of_ascii "
+@rightPad
+('\x00'
+)
+    @leftPad
+    (
+    '\x00' ) asx
+    {
+    /// triple
+    repeat
+BodyLength { asx {	repeat
+u32
     // @lengthOf(
-    ]	Foo , i64 x_y_z , o msg_type
-    , }
+    Header , repeat
+    i64  i64_,
+// 50% %s
+// `tick` ""quote"" 'q'
+match rootA as float
+    // c
+    { [ 007 , ""CRC32"",
+    7 ,
+""it's"" , 7	, 3 ] : x_y_z , 007 : pack , } , char[]
+metadata @lengthOf( BodyLength )
+// " ++ [128512]%N ++ runes_of_ascii " emoji
+// `tick` ""quote"" 'q'
+,}
+,
+repeat
+    char[00
+] u `{ , }` // " ++ [27880; 37322]%N ++ runes_of_ascii "
+,  repeat
+zchar[
+    3 ]	tag ,repeat crc
+    int `line1
+line2` ,} ,// `tick` ""quote"" 'q'
+char[255 ] asx @lengthOf(chars)  ,int64
+Foo
+    ``
+, _x{ T
+{ string_	`" ++ [28040; 24687; 31867; 22411]%N ++ runes_of_ascii "` , char[] chars
+    , }, repeat
+    a1 { repeatCount
+@lengthOf( o )
+,i64 leftPad
+,	zchar[
+255// `tick` ""quote"" 'q'
+]  float@calculatedFrom(  ""\" ++ [233]%N ++ runes_of_ascii """
+), repeat string i8i8
+,
+// trailing space 
+// `tick` ""quote"" 'q'
+}  ,}, } , @calculatedFrom(
+""abc""
+) repeat f32a trueish `u8 x,`	, match calculatedFrom as
 // packet A { u8 x, }
+// @lengthOf(
+stringy { [ 1, 65535
+    ]
+:u , } , } packet options1
+    {
+string calculatedFrom// a // b
+`" ++ [233]%N ++ runes_of_ascii "`// c
+,
+    @lengthOf( x_y_z
+    ) zchar[0123456789]
+x_y_z// trailing space 
+@lengthOf(
+falsey ) `a\`
+    ,	}
+")).
+Eval vm_compute in ("<<<M43>>>" ++ check (runes_of_ascii "
+packet body{ @lengthOf(  zchar
+)
+f32
+    i8i8 , uint8x zchar `u8 x,` ,/// triple
+}packet pack
+{ @lengthOf( u ) /// triple
+char[]
+    charz// a // b
+@lengthOf(
+    o) , f32a @calculatedFrom( ""packet"") ,@lengthOf( metadata
+    )repeat int32 repeatCount
+    ,@leftPad(
+'\x00' ) char[] chars	@lengthOf( roots )
+, @calculatedFrom(""\n"" ) matchKey
+    //	t
+    ,
+    }
+packet
+u8x { @calculatedFrom( ""{,}"" )uint8 string_ @lengthOf( trueish ) , Header {  char[] lengthOf
+`u8 x,` , }
+    // " ++ [128512]%N ++ runes_of_ascii " emoji
+    ,// 50% %s
+i16 u `say ""hi""`	, }
+// " ++ [27880; 37322]%N ++ runes_of_ascii "
+")).
+Eval vm_compute in ("<<<M75>>>" ++ check (runes_of_ascii "// `tick` ""quote"" 'q'
+packet
+u { }  MetaData Packet { int64 u128//
+, x crc `
+` ,
+    float64 len ,
+f32
+// @lengthOf(
+//
+A `
+`, // 50% %s
+}
+//x
+// `tick` ""quote"" 'q'
+root
+packet
+crc { body {
+    f64
+leftPad , a1  , }
+    , repeat uint8x{ repeat f32 string_ `
+` ,
+int8
+    // " ++ [27880; 37322]%N ++ runes_of_ascii "
+    T @calculatedFrom(
+"""" ) `say ""hi""` ,
+uint8 repeatCount ,} , }
 ")).
 Eval vm_compute in ("<<<M107>>>" ++ check (runes_of_ascii "
-packet float {
-} MetaData As { char[]
-    trueish , }
-// " ++ [27880; 37322]%N ++ runes_of_ascii "
+options { options1 =
+i64 matchKey// `tick` ""quote"" 'q'
+= true ;
+matchKey// c
+=
+    i16 ;
+    u8x =
+    ""{,}""; }
 ")).
-Eval vm_compute in ("<<<M139>>>" ++ check (runes_of_ascii "root packet x_y_z { match Z9_ as  u{ 255:pack , 255 : u128
-, 007 : float ""\n"" :options1 , [	""" ++ [28040; 24687]%N ++ runes_of_ascii """ , 1 ]
-: Z9_""" ++ [28040; 24687]%N ++ runes_of_ascii """:	chars
-, }, u8 _x @calculatedFrom(
+Eval vm_compute in ("<<<M139>>>" ++ check (runes_of_ascii "packet As{ trueish @lengthOf( roots ) , }
+packet charz{}	options  { charz
+= ""a	b"" uint8x=
     // a // b
-    """ ++ [28040; 24687]%N ++ runes_of_ascii """ )`say ""hi""` ,@tag( 3 ) match a1 as msg_type { [ ""\n"" // a // b
-, 255//x
-, 0 ] :crc	,} , }
-root packet o
-{  match tag as _x
-    { 007 :
-    x ,	10 :charz,
-""{,}""
-:body	,""" ++ [233]%N ++ runes_of_ascii "t" ++ [233]%N ++ runes_of_ascii """ : len
-""" ++ [128512]%N ++ runes_of_ascii """
-    :
-    u , }
-    ,
-    u64 u @calculatedFrom( ""x y""
-// c
-// " ++ [27880; 37322]%N ++ runes_of_ascii "
-)
-`it's`, @lengthOf( trueish ) repeat // packet A { u8 x, }
-uint8 u8x
-`" ++ [28040; 24687; 31867; 22411]%N ++ runes_of_ascii "` // a // b
-, @calculatedFrom(	""\n"" )
-    @rightPad() @leftPad (
-    '\x00')
-    repeat uint32 float, @lengthOf(	A )
-    @tag(//	t
-0123456789 ) @rightPad ( ' '
-    ) zchar[ 10	]
-    // " ++ [128512]%N ++ runes_of_ascii " emoji
-    o// packet A { u8 x, }
-,
-    uint8x
-    @calculatedFrom( ""a\\"" // " ++ [27880; 37322]%N ++ runes_of_ascii "
-) `
-`
-,body
-, repeat //	t
-char[10 ]
-    string_ `tab	here`
-    , } root packet
-    roots {  } packet u {@calculatedFrom(	""" ++ [128512]%N ++ runes_of_ascii """ )	f64 Logon// `tick` ""quote"" 'q'
-@calculatedFrom( ""1""
-)
-    `a\` ,  int16 trueish `line1
-line2`
-,//
-zchar[  0123456789 ]
-    // a // b
-    BodyLength `two words`, float32 i8i8 @lengthOf( metadata ) `// not a comment`
-, i32 leftPad,	}
-
+    4294967296 ; uint8x
+= '\x00' tag = string }
 ")).
-Eval vm_compute in ("<<<T139>>>" ++ terms [mkTok 34 "root" 1 0 false; mkTok 35 "packet" 1 5 false; mkTok 42 "x_y_z" 1 12 false; mkTok 2 "{" 1 18 false; mkTok 38 "match" 1 20 false; mkTok 42 "Z9_" 1 26 false; mkTok 17 "as" 1 30 false; mkTok 42 "u" 1 34 false; mkTok 2 "{" 1 35 false; mkTok 30 "255" 1 37 false; mkTok 39 ":" 1 40 false; mkTok 42 "pack" 1 41 false; mkTok 40 "," 1 46 false; mkTok 30 "255" 1 48 false; mkTok 39 ":" 1 52 false; mkTok 42 "u128" 1 54 false; mkTok 40 "," 2 0 false; mkTok 30 "007" 2 2 false; mkTok 39 ":" 2 6 false; mkTok 42 "float" 2 8 false; mkTok 31 """\n""" 2 14 false; mkTok 39 ":" 2 19 false; mkTok 42 "options1" 2 20 false; mkTok 40 "," 2 29 false; mkTok 18 "[" 2 31 false; mkTok 31 (string_of_bytes [34; 230; 182; 136; 230; 129; 175; 34]%N) 2 33 false; mkTok 40 "," 2 38 false; mkTok 30 "1" 2 40 false; mkTok 13 "]" 2 42 false; mkTok 39 ":" 3 0 false; mkTok 42 "Z9_" 3 2 false; mkTok 31 (string_of_bytes [34; 230; 182; 136; 230; 129; 175; 34]%N) 3 5 false; mkTok 39 ":" 3 9 false; mkTok 42 "chars" 3 11 false; mkTok 40 "," 4 0 false; mkTok 3 "}" 4 2 false; mkTok 40 "," 4 3 false; mkTok 20 "u8" 4 5 false; mkTok 42 "_x" 4 8 false; mkTok 5 "@calculatedFrom(" 4 11 false; mkTok 44 "// a // b" 5 4 true; mkTok 31 (string_of_bytes [34; 230; 182; 136; 230; 129; 175; 34]%N) 6 4 false; mkTok 6 ")" 6 9 false; mkTok 43 "`say ""hi""`" 6 10 false; mkTok 40 "," 6 21 false; mkTok 9 "@tag(" 6 22 false; mkTok 30 "3" 6 28 false; mkTok 6 ")" 6 30 false; mkTok 38 "match" 6 32 false; mkTok 42 "a1" 6 38 false; mkTok 17 "as" 6 41 false; mkTok 42 "msg_type" 6 44 false; mkTok 2 "{" 6 53 false; mkTok 18 "[" 6 55 false; mkTok 31 """\n""" 6 57 false; mkTok 44 "// a // b" 6 62 true; mkTok 40 "," 7 0 false; mkTok 30 "255" 7 2 false; mkTok 44 "//x" 7 5 true; mkTok 40 "," 8 0 false; mkTok 30 "0" 8 2 false; mkTok 13 "]" 8 4 false; mkTok 39 ":" 8 6 false; mkTok 42 "crc" 8 7 false; mkTok 40 "," 8 11 false; mkTok 3 "}" 8 12 false; mkTok 40 "," 8 14 false; mkTok 3 "}" 8 16 false; mkTok 34 "root" 9 0 false; mkTok 35 "packet" 9 5 false; mkTok 42 "o" 9 12 false; mkTok 2 "{" 10 0 false; mkTok 38 "match" 10 3 false; mkTok 42 "tag" 10 9 false; mkTok 17 "as" 10 13 false; mkTok 42 "_x" 10 16 false; mkTok 2 "{" 11 4 false; mkTok 30 "007" 11 6 false; mkTok 39 ":" 11 10 false; mkTok 42 "x" 12 4 false; mkTok 40 "," 12 6 false; mkTok 30 "10" 12 8 false; mkTok 39 ":" 12 11 false; mkTok 42 "charz" 12 12 false; mkTok 40 "," 12 17 false; mkTok 31 """{,}""" 13 0 false; mkTok 39 ":" 14 0 false; mkTok 42 "body" 14 1 false; mkTok 40 "," 14 6 false; mkTok 31 (string_of_bytes [34; 195; 169; 116; 195; 169; 34]%N) 14 7 false; mkTok 39 ":" 14 13 false; mkTok 42 "len" 14 15 false; mkTok 31 (string_of_bytes [34; 240; 159; 152; 128; 34]%N) 15 0 false; mkTok 39 ":" 16 4 false; mkTok 42 "u" 17 4 false; mkTok 40 "," 17 6 false; mkTok 3 "}" 17 8 false; mkTok 40 "," 18 4 false; mkTok 23 "u64" 19 4 false; mkTok 42 "u" 19 8 false; mkTok 5 "@calculatedFrom(" 19 10 false; mkTok 31 """x y""" 19 27 false; mkTok 44 "// c" 20 0 true; mkTok 44 (string_of_bytes [47; 47; 32; 230; 179; 168; 233; 135; 138]%N) 21 0 true; mkTok 6 ")" 22 0 false; mkTok 43 "`it's`" 23 0 false; mkTok 40 "," 23 6 false; mkTok 7 "@lengthOf(" 23 8 false; mkTok 42 "trueish" 23 19 false; mkTok 6 ")" 23 27 false; mkTok 36 "repeat" 23 29 false; mkTok 44 "// packet A { u8 x, }" 23 36 true; mkTok 20 "uint8" 24 0 false; mkTok 42 "u8x" 24 6 false; mkTok 43 (string_of_bytes [96; 230; 182; 136; 230; 129; 175; 231; 177; 187; 229; 158; 139; 96]%N) 25 0 false; mkTok 44 "// a // b" 25 7 true; mkTok 40 "," 26 0 false; mkTok 5 "@calculatedFrom(" 26 2 false; mkTok 31 """\n""" 26 19 false; mkTok 6 ")" 26 24 false; mkTok 32 "@rightPad" 27 4 false; mkTok 8 "(" 27 13 false; mkTok 6 ")" 27 14 false; mkTok 32 "@leftPad" 27 16 false; mkTok 8 "(" 27 25 false; mkTok 33 "'\x00'" 28 4 false; mkTok 6 ")" 28 10 false; mkTok 36 "repeat" 29 4 false; mkTok 22 "uint32" 29 11 false; mkTok 42 "float" 29 18 false; mkTok 40 "," 29 23 false; mkTok 7 "@lengthOf(" 29 25 false; mkTok 42 "A" 29 36 false; mkTok 6 ")" 29 38 false; mkTok 9 "@tag(" 30 4 false; mkTok 44 (string_of_bytes [47; 47; 9; 116]%N) 30 9 true; mkTok 30 "0123456789" 31 0 false; mkTok 6 ")" 31 11 false; mkTok 32 "@rightPad" 31 13 false; mkTok 8 "(" 31 23 false; mkTok 33 "' '" 31 25 false; mkTok 6 ")" 32 4 false; mkTok 14 "zchar[" 32 6 false; mkTok 30 "10" 32 13 false; mkTok 13 "]" 32 16 false; mkTok 44 (string_of_bytes [47; 47; 32; 240; 159; 152; 128; 32; 101; 109; 111; 106; 105]%N) 33 4 true; mkTok 42 "o" 34 4 false; mkTok 44 "// packet A { u8 x, }" 34 5 true; mkTok 40 "," 35 0 false; mkTok 42 "uint8x" 36 4 false; mkTok 5 "@calculatedFrom(" 37 4 false; mkTok 31 """a\\""" 37 21 false; mkTok 44 (string_of_bytes [47; 47; 32; 230; 179; 168; 233; 135; 138]%N) 37 27 true; mkTok 6 ")" 38 0 false; mkTok 43 (string_of_bytes [96; 10; 96]%N) 38 2 false; mkTok 40 "," 40 0 false; mkTok 42 "body" 40 1 false; mkTok 40 "," 41 0 false; mkTok 36 "repeat" 41 2 false; mkTok 44 (string_of_bytes [47; 47; 9; 116]%N) 41 9 true; mkTok 12 "char[" 42 0 false; mkTok 30 "10" 42 5 false; mkTok 13 "]" 42 8 false; mkTok 42 "string_" 43 4 false; mkTok 43 (string_of_bytes [96; 116; 97; 98; 9; 104; 101; 114; 101; 96]%N) 43 12 false; mkTok 40 "," 44 4 false; mkTok 3 "}" 44 6 false; mkTok 34 "root" 44 8 false; mkTok 35 "packet" 44 13 false; mkTok 42 "roots" 45 4 false; mkTok 2 "{" 45 10 false; mkTok 3 "}" 45 13 false; mkTok 35 "packet" 45 15 false; mkTok 42 "u" 45 22 false; mkTok 2 "{" 45 24 false; mkTok 5 "@calculatedFrom(" 45 25 false; mkTok 31 (string_of_bytes [34; 240; 159; 152; 128; 34]%N) 45 42 false; mkTok 6 ")" 45 46 false; mkTok 29 "f64" 45 48 false; mkTok 42 "Logon" 45 52 false; mkTok 44 "// `tick` ""quote"" 'q'" 45 57 true; mkTok 5 "@calculatedFrom(" 46 0 false; mkTok 31 """1""" 46 17 false; mkTok 6 ")" 47 0 false; mkTok 43 "`a\`" 48 4 false; mkTok 40 "," 48 9 false; mkTok 25 "int16" 48 12 false; mkTok 42 "trueish" 48 18 false; mkTok 43 (string_of_bytes [96; 108; 105; 110; 101; 49; 10; 108; 105; 110; 101; 50; 96]%N) 48 26 false; mkTok 40 "," 50 0 false; mkTok 44 "//" 50 1 true; mkTok 14 "zchar[" 51 0 false; mkTok 30 "0123456789" 51 8 false; mkTok 13 "]" 51 19 false; mkTok 44 "// a // b" 52 4 true; mkTok 42 "BodyLength" 53 4 false; mkTok 43 "`two words`" 53 15 false; mkTok 40 "," 53 26 false; mkTok 28 "float32" 53 28 false; mkTok 42 "i8i8" 53 36 false; mkTok 7 "@lengthOf(" 53 41 false; mkTok 42 "metadata" 53 52 false; mkTok 6 ")" 53 61 false; mkTok 43 "`// not a comment`" 53 63 false; mkTok 40 "," 54 0 false; mkTok 26 "i32" 54 2 false; mkTok 42 "leftPad" 54 6 false; mkTok 40 "," 54 13 false; mkTok 3 "}" 54 15 false; mkTok 0 "<EOF>" 56 0 false] (mkPacket (mkPtok 34 "root" 1 0 0) (Some (mkPtok 3 "}" 54 15 208)) [(DPacket (mkPacketDef (mkSpan (mkPtok 34 "root" 1 0 0) (mkPtok 3 "}" 8 16 67)) (Some (mkPtok 34 "root" 1 0 0)) (mkPtok 35 "packet" 1 5 1) (mkPtok 42 "x_y_z" 1 12 2) (mkPtok 2 "{" 1 18 3) [(mkFieldWithAttr (mkSpan (mkPtok 38 "match" 1 20 4) (mkPtok 40 "," 4 3 36)) [] (MatchField (mkSpan (mkPtok 38 "match" 1 20 4) (mkPtok 40 "," 4 3 36)) (mkMatchFieldDecl (mkSpan (mkPtok 38 "match" 1 20 4) (mkPtok 3 "}" 4 2 35)) (mkPtok 38 "match" 1 20 4) (mkPtok 42 "Z9_" 1 26 5) (mkPtok 17 "as" 1 30 6) (mkPtok 42 "u" 1 34 7) (mkPtok 2 "{" 1 35 8) [(mkMatchPair (mkSpan (mkPtok 30 "255" 1 37 9) (mkPtok 40 "," 1 46 12)) (MKDigits (mkPtok 30 "255" 1 37 9)) (mkPtok 39 ":" 1 40 10) (mkPtok 42 "pack" 1 41 11) (Some (mkPtok 40 "," 1 46 12))); (mkMatchPair (mkSpan (mkPtok 30 "255" 1 48 13) (mkPtok 40 "," 2 0 16)) (MKDigits (mkPtok 30 "255" 1 48 13)) (mkPtok 39 ":" 1 52 14) (mkPtok 42 "u128" 1 54 15) (Some (mkPtok 40 "," 2 0 16))); (mkMatchPair (mkSpan (mkPtok 30 "007" 2 2 17) (mkPtok 42 "float" 2 8 19)) (MKDigits (mkPtok 30 "007" 2 2 17)) (mkPtok 39 ":" 2 6 18) (mkPtok 42 "float" 2 8 19) None); (mkMatchPair (mkSpan (mkPtok 31 """\n""" 2 14 20) (mkPtok 40 "," 2 29 23)) (MKString (mkPtok 31 """\n""" 2 14 20)) (mkPtok 39 ":" 2 19 21) (mkPtok 42 "options1" 2 20 22) (Some (mkPtok 40 "," 2 29 23))); (mkMatchPair (mkSpan (mkPtok 18 "[" 2 31 24) (mkPtok 42 "Z9_" 3 2 30)) (MKList (mkKeyList (mkSpan (mkPtok 18 "[" 2 31 24) (mkPtok 13 "]" 2 42 28)) (mkPtok 18 "[" 2 31 24) (mkPtok 31 (string_of_bytes [34; 230; 182; 136; 230; 129; 175; 34]%N) 2 33 25) [((mkPtok 40 "," 2 38 26), (mkPtok 30 "1" 2 40 27))] (mkPtok 13 "]" 2 42 28))) (mkPtok 39 ":" 3 0 29) (mkPtok 42 "Z9_" 3 2 30) None); (mkMatchPair (mkSpan (mkPtok 31 (string_of_bytes [34; 230; 182; 136; 230; 129; 175; 34]%N) 3 5 31) (mkPtok 40 "," 4 0 34)) (MKString (mkPtok 31 (string_of_bytes [34; 230; 182; 136; 230; 129; 175; 34]%N) 3 5 31)) (mkPtok 39 ":" 3 9 32) (mkPtok 42 "chars" 3 11 33) (Some (mkPtok 40 "," 4 0 34)))] (mkPtok 3 "}" 4 2 35)) (mkPtok 40 "," 4 3 36))); (mkFieldWithAttr (mkSpan (mkPtok 20 "u8" 4 5 37) (mkPtok 40 "," 6 21 44)) [] (CheckSumField (mkSpan (mkPtok 20 "u8" 4 5 37) (mkPtok 40 "," 6 21 44)) (mkChecksumFieldDecl (mkSpan (mkPtok 20 "u8" 4 5 37) (mkPtok 40 "," 6 21 44)) (Some (TyBasic (mkSpan (mkPtok 20 "u8" 4 5 37) (mkPtok 20 "u8" 4 5 37)) (mkBasicType (mkSpan (mkPtok 20 "u8" 4 5 37) (mkPtok 20 "u8" 4 5 37)) (mkPtok 20 "u8" 4 5 37)))) (mkPtok 42 "_x" 4 8 38) (mkCalculatedFrom (mkSpan (mkPtok 5 "@calculatedFrom(" 4 11 39) (mkPtok 6 ")" 6 9 42)) (mkPtok 5 "@calculatedFrom(" 4 11 39) (mkPtok 31 (string_of_bytes [34; 230; 182; 136; 230; 129; 175; 34]%N) 6 4 41) (mkPtok 6 ")" 6 9 42)) (Some (mkPtok 43 "`say ""hi""`" 6 10 43)) (mkPtok 40 "," 6 21 44)))); (mkFieldWithAttr (mkSpan (mkPtok 9 "@tag(" 6 22 45) (mkPtok 40 "," 8 14 66)) [(FATag (mkSpan (mkPtok 9 "@tag(" 6 22 45) (mkPtok 6 ")" 6 30 47)) (mkTagAttr (mkSpan (mkPtok 9 "@tag(" 6 22 45) (mkPtok 6 ")" 6 30 47)) (mkPtok 9 "@tag(" 6 22 45) (mkPtok 30 "3" 6 28 46) (mkPtok 6 ")" 6 30 47)))] (MatchField (mkSpan (mkPtok 38 "match" 6 32 48) (mkPtok 40 "," 8 14 66)) (mkMatchFieldDecl (mkSpan (mkPtok 38 "match" 6 32 48) (mkPtok 3 "}" 8 12 65)) (mkPtok 38 "match" 6 32 48) (mkPtok 42 "a1" 6 38 49) (mkPtok 17 "as" 6 41 50) (mkPtok 42 "msg_type" 6 44 51) (mkPtok 2 "{" 6 53 52) [(mkMatchPair (mkSpan (mkPtok 18 "[" 6 55 53) (mkPtok 40 "," 8 11 64)) (MKList (mkKeyList (mkSpan (mkPtok 18 "[" 6 55 53) (mkPtok 13 "]" 8 4 61)) (mkPtok 18 "[" 6 55 53) (mkPtok 31 """\n""" 6 57 54) [((mkPtok 40 "," 7 0 56), (mkPtok 30 "255" 7 2 57)); ((mkPtok 40 "," 8 0 59), (mkPtok 30 "0" 8 2 60))] (mkPtok 13 "]" 8 4 61))) (mkPtok 39 ":" 8 6 62) (mkPtok 42 "crc" 8 7 63) (Some (mkPtok 40 "," 8 11 64)))] (mkPtok 3 "}" 8 12 65)) (mkPtok 40 "," 8 14 66)))] (mkPtok 3 "}" 8 16 67))); (DPacket (mkPacketDef (mkSpan (mkPtok 34 "root" 9 0 68) (mkPtok 3 "}" 44 6 166)) (Some (mkPtok 34 "root" 9 0 68)) (mkPtok 35 "packet" 9 5 69) (mkPtok 42 "o" 9 12 70) (mkPtok 2 "{" 10 0 71) [(mkFieldWithAttr (mkSpan (mkPtok 38 "match" 10 3 72) (mkPtok 40 "," 18 4 97)) [] (MatchField (mkSpan (mkPtok 38 "match" 10 3 72) (mkPtok 40 "," 18 4 97)) (mkMatchFieldDecl (mkSpan (mkPtok 38 "match" 10 3 72) (mkPtok 3 "}" 17 8 96)) (mkPtok 38 "match" 10 3 72) (mkPtok 42 "tag" 10 9 73) (mkPtok 17 "as" 10 13 74) (mkPtok 42 "_x" 10 16 75) (mkPtok 2 "{" 11 4 76) [(mkMatchPair (mkSpan (mkPtok 30 "007" 11 6 77) (mkPtok 40 "," 12 6 80)) (MKDigits (mkPtok 30 "007" 11 6 77)) (mkPtok 39 ":" 11 10 78) (mkPtok 42 "x" 12 4 79) (Some (mkPtok 40 "," 12 6 80))); (mkMatchPair (mkSpan (mkPtok 30 "10" 12 8 81) (mkPtok 40 "," 12 17 84)) (MKDigits (mkPtok 30 "10" 12 8 81)) (mkPtok 39 ":" 12 11 82) (mkPtok 42 "charz" 12 12 83) (Some (mkPtok 40 "," 12 17 84))); (mkMatchPair (mkSpan (mkPtok 31 """{,}""" 13 0 85) (mkPtok 40 "," 14 6 88)) (MKString (mkPtok 31 """{,}""" 13 0 85)) (mkPtok 39 ":" 14 0 86) (mkPtok 42 "body" 14 1 87) (Some (mkPtok 40 "," 14 6 88))); (mkMatchPair (mkSpan (mkPtok 31 (string_of_bytes [34; 195; 169; 116; 195; 169; 34]%N) 14 7 89) (mkPtok 42 "len" 14 15 91)) (MKString (mkPtok 31 (string_of_bytes [34; 195; 169; 116; 195; 169; 34]%N) 14 7 89)) (mkPtok 39 ":" 14 13 90) (mkPtok 42 "len" 14 15 91) None); (mkMatchPair (mkSpan (mkPtok 31 (string_of_bytes [34; 240; 159; 152; 128; 34]%N) 15 0 92) (mkPtok 40 "," 17 6 95)) (MKString (mkPtok 31 (string_of_bytes [34; 240; 159; 152; 128; 34]%N) 15 0 92)) (mkPtok 39 ":" 16 4 93) (mkPtok 42 "u" 17 4 94) (Some (mkPtok 40 "," 17 6 95)))] (mkPtok 3 "}" 17 8 96)) (mkPtok 40 "," 18 4 97))); (mkFieldWithAttr (mkSpan (mkPtok 23 "u64" 19 4 98) (mkPtok 40 "," 23 6 106)) [] (CheckSumField (mkSpan (mkPtok 23 "u64" 19 4 98) (mkPtok 40 "," 23 6 106)) (mkChecksumFieldDecl (mkSpan (mkPtok 23 "u64" 19 4 98) (mkPtok 40 "," 23 6 106)) (Some (TyBasic (mkSpan (mkPtok 23 "u64" 19 4 98) (mkPtok 23 "u64" 19 4 98)) (mkBasicType (mkSpan (mkPtok 23 "u64" 19 4 98) (mkPtok 23 "u64" 19 4 98)) (mkPtok 23 "u64" 19 4 98)))) (mkPtok 42 "u" 19 8 99) (mkCalculatedFrom (mkSpan (mkPtok 5 "@calculatedFrom(" 19 10 100) (mkPtok 6 ")" 22 0 104)) (mkPtok 5 "@calculatedFrom(" 19 10 100) (mkPtok 31 """x y""" 19 27 101) (mkPtok 6 ")" 22 0 104)) (Some (mkPtok 43 "`it's`" 23 0 105)) (mkPtok 40 "," 23 6 106)))); (mkFieldWithAttr (mkSpan (mkPtok 7 "@lengthOf(" 23 8 107) (mkPtok 40 "," 26 0 116)) [(FALengthOf (mkSpan (mkPtok 7 "@lengthOf(" 23 8 107) (mkPtok 6 ")" 23 27 109)) (mkLengthOf (mkSpan (mkPtok 7 "@lengthOf(" 23 8 107) (mkPtok 6 ")" 23 27 109)) (mkPtok 7 "@lengthOf(" 23 8 107) (mkPtok 42 "trueish" 23 19 108) (mkPtok 6 ")" 23 27 109)))] (MetaField (mkSpan (mkPtok 36 "repeat" 23 29 110) (mkPtok 40 "," 26 0 116)) (Some (mkPtok 36 "repeat" 23 29 110)) (mkMetaDecl (mkSpan (mkPtok 20 "uint8" 24 0 112) (mkPtok 40 "," 26 0 116)) (TyBasic (mkSpan (mkPtok 20 "uint8" 24 0 112) (mkPtok 20 "uint8" 24 0 112)) (mkBasicType (mkSpan (mkPtok 20 "uint8" 24 0 112) (mkPtok 20 "uint8" 24 0 112)) (mkPtok 20 "uint8" 24 0 112))) (mkPtok 42 "u8x" 24 6 113) (Some (mkPtok 43 (string_of_bytes [96; 230; 182; 136; 230; 129; 175; 231; 177; 187; 229; 158; 139; 96]%N) 25 0 114)) (mkPtok 40 "," 26 0 116)))); (mkFieldWithAttr (mkSpan (mkPtok 5 "@calculatedFrom(" 26 2 117) (mkPtok 40 "," 29 23 130)) [(FACalculatedFrom (mkSpan (mkPtok 5 "@calculatedFrom(" 26 2 117) (mkPtok 6 ")" 26 24 119)) (mkCalculatedFrom (mkSpan (mkPtok 5 "@calculatedFrom(" 26 2 117) (mkPtok 6 ")" 26 24 119)) (mkPtok 5 "@calculatedFrom(" 26 2 117) (mkPtok 31 """\n""" 26 19 118) (mkPtok 6 ")" 26 24 119))); (FAPadding (mkSpan (mkPtok 32 "@rightPad" 27 4 120) (mkPtok 6 ")" 27 14 122)) (mkPaddingAttr (mkSpan (mkPtok 32 "@rightPad" 27 4 120) (mkPtok 6 ")" 27 14 122)) (mkPtok 32 "@rightPad" 27 4 120) (mkPtok 8 "(" 27 13 121) None (mkPtok 6 ")" 27 14 122))); (FAPadding (mkSpan (mkPtok 32 "@leftPad" 27 16 123) (mkPtok 6 ")" 28 10 126)) (mkPaddingAttr (mkSpan (mkPtok 32 "@leftPad" 27 16 123) (mkPtok 6 ")" 28 10 126)) (mkPtok 32 "@leftPad" 27 16 123) (mkPtok 8 "(" 27 25 124) (Some (mkPtok 33 "'\x00'" 28 4 125)) (mkPtok 6 ")" 28 10 126)))] (MetaField (mkSpan (mkPtok 36 "repeat" 29 4 127) (mkPtok 40 "," 29 23 130)) (Some (mkPtok 36 "repeat" 29 4 127)) (mkMetaDecl (mkSpan (mkPtok 22 "uint32" 29 11 128) (mkPtok 40 "," 29 23 130)) (TyBasic (mkSpan (mkPtok 22 "uint32" 29 11 128) (mkPtok 22 "uint32" 29 11 128)) (mkBasicType (mkSpan (mkPtok 22 "uint32" 29 11 128) (mkPtok 22 "uint32" 29 11 128)) (mkPtok 22 "uint32" 29 11 128))) (mkPtok 42 "float" 29 18 129) None (mkPtok 40 "," 29 23 130)))); (mkFieldWithAttr (mkSpan (mkPtok 7 "@lengthOf(" 29 25 131) (mkPtok 40 "," 35 0 148)) [(FALengthOf (mkSpan (mkPtok 7 "@lengthOf(" 29 25 131) (mkPtok 6 ")" 29 38 133)) (mkLengthOf (mkSpan (mkPtok 7 "@lengthOf(" 29 25 131) (mkPtok 6 ")" 29 38 133)) (mkPtok 7 "@lengthOf(" 29 25 131) (mkPtok 42 "A" 29 36 132) (mkPtok 6 ")" 29 38 133))); (FATag (mkSpan (mkPtok 9 "@tag(" 30 4 134) (mkPtok 6 ")" 31 11 137)) (mkTagAttr (mkSpan (mkPtok 9 "@tag(" 30 4 134) (mkPtok 6 ")" 31 11 137)) (mkPtok 9 "@tag(" 30 4 134) (mkPtok 30 "0123456789" 31 0 136) (mkPtok 6 ")" 31 11 137))); (FAPadding (mkSpan (mkPtok 32 "@rightPad" 31 13 138) (mkPtok 6 ")" 32 4 141)) (mkPaddingAttr (mkSpan (mkPtok 32 "@rightPad" 31 13 138) (mkPtok 6 ")" 32 4 141)) (mkPtok 32 "@rightPad" 31 13 138) (mkPtok 8 "(" 31 23 139) (Some (mkPtok 33 "' '" 31 25 140)) (mkPtok 6 ")" 32 4 141)))] (MetaField (mkSpan (mkPtok 14 "zchar[" 32 6 142) (mkPtok 40 "," 35 0 148)) None (mkMetaDecl (mkSpan (mkPtok 14 "zchar[" 32 6 142) (mkPtok 40 "," 35 0 148)) (TyFixed (mkSpan (mkPtok 14 "zchar[" 32 6 142) (mkPtok 13 "]" 32 16 144)) (mkFixedString (mkSpan (mkPtok 14 "zchar[" 32 6 142) (mkPtok 13 "]" 32 16 144)) (mkPtok 14 "zchar[" 32 6 142) (mkPtok 30 "10" 32 13 143) (mkPtok 13 "]" 32 16 144))) (mkPtok 42 "o" 34 4 146) None (mkPtok 40 "," 35 0 148)))); (mkFieldWithAttr (mkSpan (mkPtok 42 "uint8x" 36 4 149) (mkPtok 40 "," 40 0 155)) [] (CheckSumField (mkSpan (mkPtok 42 "uint8x" 36 4 149) (mkPtok 40 "," 40 0 155)) (mkChecksumFieldDecl (mkSpan (mkPtok 42 "uint8x" 36 4 149) (mkPtok 40 "," 40 0 155)) None (mkPtok 42 "uint8x" 36 4 149) (mkCalculatedFrom (mkSpan (mkPtok 5 "@calculatedFrom(" 37 4 150) (mkPtok 6 ")" 38 0 153)) (mkPtok 5 "@calculatedFrom(" 37 4 150) (mkPtok 31 """a\\""" 37 21 151) (mkPtok 6 ")" 38 0 153)) (Some (mkPtok 43 (string_of_bytes [96; 10; 96]%N) 38 2 154)) (mkPtok 40 "," 40 0 155)))); (mkFieldWithAttr (mkSpan (mkPtok 42 "body" 40 1 156) (mkPtok 40 "," 41 0 157)) [] (ObjectField (mkSpan (mkPtok 42 "body" 40 1 156) (mkPtok 40 "," 41 0 157)) None (mkPtok 42 "body" 40 1 156) None None (mkPtok 40 "," 41 0 157))); (mkFieldWithAttr (mkSpan (mkPtok 36 "repeat" 41 2 158) (mkPtok 40 "," 44 4 165)) [] (MetaField (mkSpan (mkPtok 36 "repeat" 41 2 158) (mkPtok 40 "," 44 4 165)) (Some (mkPtok 36 "repeat" 41 2 158)) (mkMetaDecl (mkSpan (mkPtok 12 "char[" 42 0 160) (mkPtok 40 "," 44 4 165)) (TyFixed (mkSpan (mkPtok 12 "char[" 42 0 160) (mkPtok 13 "]" 42 8 162)) (mkFixedString (mkSpan (mkPtok 12 "char[" 42 0 160) (mkPtok 13 "]" 42 8 162)) (mkPtok 12 "char[" 42 0 160) (mkPtok 30 "10" 42 5 161) (mkPtok 13 "]" 42 8 162))) (mkPtok 42 "string_" 43 4 163) (Some (mkPtok 43 (string_of_bytes [96; 116; 97; 98; 9; 104; 101; 114; 101; 96]%N) 43 12 164)) (mkPtok 40 "," 44 4 165))))] (mkPtok 3 "}" 44 6 166))); (DPacket (mkPacketDef (mkSpan (mkPtok 34 "root" 44 8 167) (mkPtok 3 "}" 45 13 171)) (Some (mkPtok 34 "root" 44 8 167)) (mkPtok 35 "packet" 44 13 168) (mkPtok 42 "roots" 45 4 169) (mkPtok 2 "{" 45 10 170) [] (mkPtok 3 "}" 45 13 171))); (DPacket (mkPacketDef (mkSpan (mkPtok 35 "packet" 45 15 172) (mkPtok 3 "}" 54 15 208)) None (mkPtok 35 "packet" 45 15 172) (mkPtok 42 "u" 45 22 173) (mkPtok 2 "{" 45 24 174) [(mkFieldWithAttr (mkSpan (mkPtok 5 "@calculatedFrom(" 45 25 175) (mkPtok 40 "," 48 9 185)) [(FACalculatedFrom (mkSpan (mkPtok 5 "@calculatedFrom(" 45 25 175) (mkPtok 6 ")" 45 46 177)) (mkCalculatedFrom (mkSpan (mkPtok 5 "@calculatedFrom(" 45 25 175) (mkPtok 6 ")" 45 46 177)) (mkPtok 5 "@calculatedFrom(" 45 25 175) (mkPtok 31 (string_of_bytes [34; 240; 159; 152; 128; 34]%N) 45 42 176) (mkPtok 6 ")" 45 46 177)))] (CheckSumField (mkSpan (mkPtok 29 "f64" 45 48 178) (mkPtok 40 "," 48 9 185)) (mkChecksumFieldDecl (mkSpan (mkPtok 29 "f64" 45 48 178) (mkPtok 40 "," 48 9 185)) (Some (TyBasic (mkSpan (mkPtok 29 "f64" 45 48 178) (mkPtok 29 "f64" 45 48 178)) (mkBasicType (mkSpan (mkPtok 29 "f64" 45 48 178) (mkPtok 29 "f64" 45 48 178)) (mkPtok 29 "f64" 45 48 178)))) (mkPtok 42 "Logon" 45 52 179) (mkCalculatedFrom (mkSpan (mkPtok 5 "@calculatedFrom(" 46 0 181) (mkPtok 6 ")" 47 0 183)) (mkPtok 5 "@calculatedFrom(" 46 0 181) (mkPtok 31 """1""" 46 17 182) (mkPtok 6 ")" 47 0 183)) (Some (mkPtok 43 "`a\`" 48 4 184)) (mkPtok 40 "," 48 9 185)))); (mkFieldWithAttr (mkSpan (mkPtok 25 "int16" 48 12 186) (mkPtok 40 "," 50 0 189)) [] (MetaField (mkSpan (mkPtok 25 "int16" 48 12 186) (mkPtok 40 "," 50 0 189)) None (mkMetaDecl (mkSpan (mkPtok 25 "int16" 48 12 186) (mkPtok 40 "," 50 0 189)) (TyBasic (mkSpan (mkPtok 25 "int16" 48 12 186) (mkPtok 25 "int16" 48 12 186)) (mkBasicType (mkSpan (mkPtok 25 "int16" 48 12 186) (mkPtok 25 "int16" 48 12 186)) (mkPtok 25 "int16" 48 12 186))) (mkPtok 42 "trueish" 48 18 187) (Some (mkPtok 43 (string_of_bytes [96; 108; 105; 110; 101; 49; 10; 108; 105; 110; 101; 50; 96]%N) 48 26 188)) (mkPtok 40 "," 50 0 189)))); (mkFieldWithAttr (mkSpan (mkPtok 14 "zchar[" 51 0 191) (mkPtok 40 "," 53 26 197)) [] (MetaField (mkSpan (mkPtok 14 "zchar[" 51 0 191) (mkPtok 40 "," 53 26 197)) None (mkMetaDecl (mkSpan (mkPtok 14 "zchar[" 51 0 191) (mkPtok 40 "," 53 26 197)) (TyFixed (mkSpan (mkPtok 14 "zchar[" 51 0 191) (mkPtok 13 "]" 51 19 193)) (mkFixedString (mkSpan (mkPtok 14 "zchar[" 51 0 191) (mkPtok 13 "]" 51 19 193)) (mkPtok 14 "zchar[" 51 0 191) (mkPtok 30 "0123456789" 51 8 192) (mkPtok 13 "]" 51 19 193))) (mkPtok 42 "BodyLength" 53 4 195) (Some (mkPtok 43 "`two words`" 53 15 196)) (mkPtok 40 "," 53 26 197)))); (mkFieldWithAttr (mkSpan (mkPtok 28 "float32" 53 28 198) (mkPtok 40 "," 54 0 204)) [] (LengthField (mkSpan (mkPtok 28 "float32" 53 28 198) (mkPtok 40 "," 54 0 204)) (mkLengthFieldDecl (mkSpan (mkPtok 28 "float32" 53 28 198) (mkPtok 40 "," 54 0 204)) (Some (TyBasic (mkSpan (mkPtok 28 "float32" 53 28 198) (mkPtok 28 "float32" 53 28 198)) (mkBasicType (mkSpan (mkPtok 28 "float32" 53 28 198) (mkPtok 28 "float32" 53 28 198)) (mkPtok 28 "float32" 53 28 198)))) (mkPtok 42 "i8i8" 53 36 199) (mkLengthOf (mkSpan (mkPtok 7 "@lengthOf(" 53 41 200) (mkPtok 6 ")" 53 61 202)) (mkPtok 7 "@lengthOf(" 53 41 200) (mkPtok 42 "metadata" 53 52 201) (mkPtok 6 ")" 53 61 202)) (Some (mkPtok 43 "`// not a comment`" 53 63 203)) (mkPtok 40 "," 54 0 204)))); (mkFieldWithAttr (mkSpan (mkPtok 26 "i32" 54 2 205) (mkPtok 40 "," 54 13 207)) [] (MetaField (mkSpan (mkPtok 26 "i32" 54 2 205) (mkPtok 40 "," 54 13 207)) None (mkMetaDecl (mkSpan (mkPtok 26 "i32" 54 2 205) (mkPtok 40 "," 54 13 207)) (TyBasic (mkSpan (mkPtok 26 "i32" 54 2 205) (mkPtok 26 "i32" 54 2 205)) (mkBasicType (mkSpan (mkPtok 26 "i32" 54 2 205) (mkPtok 26 "i32" 54 2 205)) (mkPtok 26 "i32" 54 2 205))) (mkPtok 42 "leftPad" 54 6 206) None (mkPtok 40 "," 54 13 207))))] (mkPtok 3 "}" 54 15 208)))])).
-Eval vm_compute in ("<<<M171>>>" ++ check (runes_of_ascii "MetaData
-Packet {
-    float	Pad ,u32 // " ++ [128512]%N ++ runes_of_ascii " emoji
-Foo `it's`
-    ,uint16 stringy
-    , } packet
-    stringy // @lengthOf(
-{ @lengthOf(
-    chars
-) repeat f32 pack ,  @lengthOf(
-rootA
-)
-    // @lengthOf(
-    @calculatedFrom( ""CRC32""  ) char[] MetaDataX
-    // a // b
-    `" ++ [28040; 24687; 31867; 22411]%N ++ runes_of_ascii "` , @tag( 4294967296
-    ) len	@calculatedFrom(""a	b"")
-,
-} packet
-stringy { f32 leftPad/// triple
-,
-stringy { int	@calculatedFrom(""1"" ) `" ++ [233]%N ++ runes_of_ascii "`,	char[] o, zchar[ 0123456789  ]
-    matchKey @lengthOf(	lengthOf )
-`two words`
-, }
-,
-@leftPad ('\x00'
-) @lengthOf(
-// " ++ [128512]%N ++ runes_of_ascii " emoji
-/// triple
-falsey) repeat string falsey
-    `// not a comment` // trailing space 
-, //	t
-string Pad
-    , }
-
-")).
-Eval vm_compute in ("<<<M203>>>" ++ check (runes_of_ascii "/// triple
-MetaData roots
-    { string
-Z9_ `say ""hi""`
-    //
-    ,o
-    tag ,char[4294967296 // " ++ [128512]%N ++ runes_of_ascii " emoji
-] body `crlf
-line`
-,
-    _x lengthOf `tab	here` , } options { repeatCount	= ""x y"" ; T = """ ++ [28040; 24687]%N ++ runes_of_ascii """ }
-    /// triple
-    packet int{ @calculatedFrom( ""CRC32"" )int64 f32a, roots @calculatedFrom( ""it's"" )`` ,@calculatedFrom(""a\\"" )@tag( 007 ) char[ 255//	t
-] crc @lengthOf(packetx )
-    ,
-match
-    Pad as string_ { [""\" ++ [233]%N ++ runes_of_ascii """,3
-    // " ++ [27880; 37322]%N ++ runes_of_ascii "
-    ] : lengthOf  ,[ 42
-    ]:
-// packet A { u8 x, }
-// packet A { u8 x, }
-body ,
-7 : i8i8
-    ,0123456789:
-options1
-,//x
-[ 00 ] : Z9_ ,  }// @lengthOf(
-,float
-,// " ++ [27880; 37322]%N ++ runes_of_ascii "
-} MetaData zchar
-    {
-    zchar[
-3 ]
-    options1
-    `line1
-line2` ,}  packet asx
-{ zchar[
-    42// " ++ [128512]%N ++ runes_of_ascii " emoji
-]
-falsey ,	@calculatedFrom(
-""1""
-)
-repeat string As `" ++ [233]%N ++ runes_of_ascii "`, char[] trueish
-    , int32 Header , repeat  stringy
-`crlf
-line`, string
-x_y_z,
-f64 T
+Eval vm_compute in ("<<<T139>>>" ++ terms [mkTok 35 "packet" 1 0 false; mkTok 42 "As" 1 7 false; mkTok 2 "{" 1 9 false; mkTok 42 "trueish" 1 11 false; mkTok 7 "@lengthOf(" 1 19 false; mkTok 42 "roots" 1 30 false; mkTok 6 ")" 1 36 false; mkTok 40 "," 1 38 false; mkTok 3 "}" 1 40 false; mkTok 35 "packet" 2 0 false; mkTok 42 "charz" 2 7 false; mkTok 2 "{" 2 12 false; mkTok 3 "}" 2 13 false; mkTok 1 "options" 2 15 false; mkTok 2 "{" 2 24 false; mkTok 42 "charz" 2 26 false; mkTok 4 "=" 3 0 false; mkTok 31 (string_of_bytes [34; 97; 9; 98; 34]%N) 3 2 false; mkTok 42 "uint8x" 3 8 false; mkTok 4 "=" 3 14 false; mkTok 44 "// a // b" 4 4 true; mkTok 30 "4294967296" 5 4 false; mkTok 41 ";" 5 15 false; mkTok 42 "uint8x" 5 17 false; mkTok 4 "=" 6 0 false; mkTok 33 "'\x00'" 6 2 false; mkTok 42 "tag" 6 9 false; mkTok 4 "=" 6 13 false; mkTok 15 "string" 6 15 false; mkTok 3 "}" 6 22 false; mkTok 0 "<EOF>" 7 0 false] (mkPacket (mkPtok 35 "packet" 1 0 0) (Some (mkPtok 3 "}" 6 22 29)) [(DPacket (mkPacketDef (mkSpan (mkPtok 35 "packet" 1 0 0) (mkPtok 3 "}" 1 40 8)) None (mkPtok 35 "packet" 1 0 0) (mkPtok 42 "As" 1 7 1) (mkPtok 2 "{" 1 9 2) [(mkFieldWithAttr (mkSpan (mkPtok 42 "trueish" 1 11 3) (mkPtok 40 "," 1 38 7)) [] (LengthField (mkSpan (mkPtok 42 "trueish" 1 11 3) (mkPtok 40 "," 1 38 7)) (mkLengthFieldDecl (mkSpan (mkPtok 42 "trueish" 1 11 3) (mkPtok 40 "," 1 38 7)) None (mkPtok 42 "trueish" 1 11 3) (mkLengthOf (mkSpan (mkPtok 7 "@lengthOf(" 1 19 4) (mkPtok 6 ")" 1 36 6)) (mkPtok 7 "@lengthOf(" 1 19 4) (mkPtok 42 "roots" 1 30 5) (mkPtok 6 ")" 1 36 6)) None (mkPtok 40 "," 1 38 7))))] (mkPtok 3 "}" 1 40 8))); (DPacket (mkPacketDef (mkSpan (mkPtok 35 "packet" 2 0 9) (mkPtok 3 "}" 2 13 12)) None (mkPtok 35 "packet" 2 0 9) (mkPtok 42 "charz" 2 7 10) (mkPtok 2 "{" 2 12 11) [] (mkPtok 3 "}" 2 13 12))); (DOption (mkOptionDef (mkSpan (mkPtok 1 "options" 2 15 13) (mkPtok 3 "}" 6 22 29)) (mkPtok 1 "options" 2 15 13) (mkPtok 2 "{" 2 24 14) [(mkOptionDecl (mkSpan (mkPtok 42 "charz" 2 26 15) (mkPtok 31 (string_of_bytes [34; 97; 9; 98; 34]%N) 3 2 17)) (mkPtok 42 "charz" 2 26 15) (mkPtok 4 "=" 3 0 16) (VString (mkSpan (mkPtok 31 (string_of_bytes [34; 97; 9; 98; 34]%N) 3 2 17) (mkPtok 31 (string_of_bytes [34; 97; 9; 98; 34]%N) 3 2 17)) (mkPtok 31 (string_of_bytes [34; 97; 9; 98; 34]%N) 3 2 17)) None); (mkOptionDecl (mkSpan (mkPtok 42 "uint8x" 3 8 18) (mkPtok 41 ";" 5 15 22)) (mkPtok 42 "uint8x" 3 8 18) (mkPtok 4 "=" 3 14 19) (VDigits (mkSpan (mkPtok 30 "4294967296" 5 4 21) (mkPtok 30 "4294967296" 5 4 21)) (mkPtok 30 "4294967296" 5 4 21)) (Some (mkPtok 41 ";" 5 15 22))); (mkOptionDecl (mkSpan (mkPtok 42 "uint8x" 5 17 23) (mkPtok 33 "'\x00'" 6 2 25)) (mkPtok 42 "uint8x" 5 17 23) (mkPtok 4 "=" 6 0 24) (VPaddingChar (mkSpan (mkPtok 33 "'\x00'" 6 2 25) (mkPtok 33 "'\x00'" 6 2 25)) (mkPtok 33 "'\x00'" 6 2 25)) None); (mkOptionDecl (mkSpan (mkPtok 42 "tag" 6 9 26) (mkPtok 15 "string" 6 15 28)) (mkPtok 42 "tag" 6 9 26) (mkPtok 4 "=" 6 13 27) (VType (mkSpan (mkPtok 15 "string" 6 15 28) (mkPtok 15 "string" 6 15 28)) (TyDynamic (mkSpan (mkPtok 15 "string" 6 15 28) (mkPtok 15 "string" 6 15 28)) (mkDynamicString (mkSpan (mkPtok 15 "string" 6 15 28) (mkPtok 15 "string" 6 15 28)) (mkPtok 15 "string" 6 15 28)))) None)] (mkPtok 3 "}" 6 22 29)))])).
+Eval vm_compute in ("<<<M171>>>" ++ check (runes_of_ascii "packet Foo {  @calculatedFrom( """"	)
+@calculatedFrom( ""1"" ) @rightPad(
+) int32
+    As
+@calculatedFrom( """" )
+    `a\`
 //x
-// `tick` ""quote"" 'q'
-, uint8x
-@lengthOf( charz
+//	t
+,
+@calculatedFrom( ""\n"" )
+char[65535// @lengthOf(
+] asx ,repeat // a // b
+int8
+    // packet A { u8 x, }
+    trueish `` , } packet
+A { @tag(4294967296 ) uint16 Logon @calculatedFrom(
+    // `tick` ""quote"" 'q'
+    """ ++ [233]%N ++ runes_of_ascii "t" ++ [233]%N ++ runes_of_ascii """ ), // `tick` ""quote"" 'q'
+@lengthOf( As )
+repeat MetaDataX
+    falsey
+`u8 x,` ,@calculatedFrom(""\n""
+    )	match repeatCount
+as
+A {	4294967296 :
+zchar
+    } , match
+crc
+    // `tick` ""quote"" 'q'
+    as float { 255
+    :u , } ,} root
+/// triple
+//	t
+packet matchKey { string MetaDataX `a\`
+, BodyLength
+{ match repeatCount as
+len {//x
+""" ++ [28040; 24687]%N ++ runes_of_ascii """ : asx 3  :
+MetaDataX , """ ++ [28040; 24687]%N ++ runes_of_ascii """:// 50% %s
+len
+    ,  ""x y"":msg_type
+,  [
+    4294967296 ]
+: asx ,
+    ""it's""	: repeatCount ,}, zchar[ 0123456789
+] Z9_ @calculatedFrom( ""a\\""  ) ,	repeat  zchar[10 ] lengthOf `
+`,
+uint16 tag `u8 x,` , } // " ++ [27880; 37322]%N ++ runes_of_ascii "
+,@leftPad
+    ( ) u128 trueish,
+    // c
+    }")).
+Eval vm_compute in ("<<<M203>>>" ++ check (runes_of_ascii "packet  u128  {
+repeat
+string float `100% of %d`
+    , @tag( 1
+) @tag( // " ++ [27880; 37322]%N ++ runes_of_ascii "
+007	)
+    match pack as i8i8
+{  ""CRC32"" //	t
+:
+trueish 0123456789	: _x ,[00 ,""" ++ [128512]%N ++ runes_of_ascii """, /// triple
+255 , 255
+]	: // trailing space 
+uint8x
+    ,[  ""`tick`""	] :trueish , 7  :
+    i8i8 } , Logon
+, @calculatedFrom(""1"" // packet A { u8 x, }
+) zchar[ 0123456789 ]
+/// triple
+// trailing space 
+trueish @calculatedFrom(""1""// " ++ [128512]%N ++ runes_of_ascii " emoji
+) `u8 x,`	, @leftPad ( )@tag(	7) char[
+// trailing space 
+//	t
+0123456789] BodyLength
+//x
+// 50% %s
+@calculatedFrom( ""abc"" /// triple
 )
-    `a\` , }")).
-Eval vm_compute in ("<<<M235>>>" ++ check (runes_of_ascii "MetaData trueish { u64// trailing space 
-i8i8 , }")).
-Eval vm_compute in ("<<<M267>>>" ++ check (runes_of_ascii "options
-{ u // a // b
-=42 x_y_z
-    =' ' ;msg_type =
-    true ; u
-=10 ;  } options { zchar =
-uint8
-;  } // c")).
-Eval vm_compute in ("<<<M299>>>" ++ check (runes_of_ascii "MetaData leftPad {
-}
+    ,	T/// triple
+a1 ,}packet
+Packet {  }
 ")).
-Eval vm_compute in ("<<<M331>>>" ++ check (runes_of_ascii "options { falsey
-// " ++ [128512]%N ++ runes_of_ascii " emoji
-// " ++ [27880; 37322]%N ++ runes_of_ascii "
-= ""abc""; roots = // c
-'0'	;MetaDataX
+Eval vm_compute in ("<<<M235>>>" ++ check (runes_of_ascii "options // packet A { u8 x, }
+{ MetaDataX
 =
-// " ++ [128512]%N ++ runes_of_ascii " emoji
-// " ++ [128512]%N ++ runes_of_ascii " emoji
-'0' ; //
-crc= // " ++ [128512]%N ++ runes_of_ascii " emoji
-42 // a // b
-x	= '0'
-; } packet A {  repeat uint64 u128 , @tag(
-65535) int16
-options1
-    `line1
-line2` , } options { // packet A { u8 x, }
-int
-=
-""// no comment""msg_type  = zchar[ 0123456789
-    /// triple
-    ] ; calculatedFrom =// @lengthOf(
-u8	;
-    asx=
-""" ++ [28040; 24687]%N ++ runes_of_ascii """ ; body = 10 } options { charz = true	metadata = char[]
-; Packet// c
-=  true}
-packet Logon
-{
-@calculatedFrom( """ ++ [128512]%N ++ runes_of_ascii """ )
-    repeat packetx rootA,}
+00
+    // trailing space 
+    ; stringy = ""packet"" Header= char[ 42 ]} packet As  {
+} packet trueish{ BodyLength ,
+    @tag(
+42 )u8 msg_type @calculatedFrom(
+""a\""b"" ) ,
+repeat  u16 u128
+, @calculatedFrom(
+    ""abc"")
+// `tick` ""quote"" 'q'
+// packet A { u8 x, }
+match charz as x_y_z {3	:
+    //	t
+    Z9_, 7: repeatCount [ //x
+1 , ""a\\""// c
+] :
+    i64_
+    , ""it's"":
+    Logon },
+f32 // 50% %s
+int `it's`, @calculatedFrom( ""{,}""
+    )
+falsey @calculatedFrom( ""a\""b"" )
+, @lengthOf(A	)
+    Header
+// 50% %s
+/// triple
+@calculatedFrom( ""packet"" )
+    `tab	here`  ,char[3 // trailing space 
+] zchar@lengthOf( rootA ) , }
 
 ")).
-Eval vm_compute in ("<<<M363>>>" ++ check (runes_of_ascii "MetaData leftPad // `tick` ""quote"" 'q'
-{
-    }")).
-Eval vm_compute in ("<<<T363>>>" ++ terms [mkTok 37 "MetaData" 1 0 false; mkTok 42 "leftPad" 1 9 false; mkTok 44 "// `tick` ""quote"" 'q'" 1 17 true; mkTok 2 "{" 2 0 false; mkTok 3 "}" 3 4 false; mkTok 0 "<EOF>" 3 5 false] (mkPacket (mkPtok 37 "MetaData" 1 0 0) (Some (mkPtok 3 "}" 3 4 4)) [(DMeta (mkMetaDef (mkSpan (mkPtok 37 "MetaData" 1 0 0) (mkPtok 3 "}" 3 4 4)) (mkPtok 37 "MetaData" 1 0 0) (mkPtok 42 "leftPad" 1 9 1) (mkPtok 2 "{" 2 0 3) [] (mkPtok 3 "}" 3 4 4)))])).
-Eval vm_compute in ("<<<M395>>>" ++ check (runes_of_ascii "MetaData // " ++ [128512]%N ++ runes_of_ascii " emoji
-chars { int64 metadata	,
-char[00] stringy
-//
+Eval vm_compute in ("<<<M267>>>" ++ check (runes_of_ascii "packet packetx{} packet
+    zchar //	t
+{}
+")).
+Eval vm_compute in ("<<<M299>>>" ++ check (runes_of_ascii "MetaData Packet
+{ }")).
+Eval vm_compute in ("<<<M331>>>" ++ check (runes_of_ascii "options {
+//x
+//	t
+}MetaData crc
+    { //
+uint32 packetx`line1
+line2`	, }	options
+    {// packet A { u8 x, }
+trueish=
 // c
-,
-    f64 Foo ,} options {	} options {As = char[ 4294967296
-]A =
-""x y""options1=	float32 Logon =  '\x00' ;	}
-")).
-Eval vm_compute in ("<<<M427>>>" ++ check (runes_of_ascii "options { // @lengthOf(
-} options{metadata = ' ' }packet
-    Packet
-{ @leftPad (
-    ' ' ) pack @calculatedFrom( ""`tick`"" ),}
-packet// " ++ [27880; 37322]%N ++ runes_of_ascii "
-T
-{@tag( 255
-)@tag(// `tick` ""quote"" 'q'
-7 )
-@calculatedFrom( ""CRC32"" ) metadata	@calculatedFrom( """" )// trailing space 
-, repeat string falsey `` , match crc as roots { 255
-    : As ,
-    42 : MetaDataX }, // @lengthOf(
-@tag( 0 )@calculatedFrom(
-    //	t
-    ""it's"")@calculatedFrom(""" ++ [233]%N ++ runes_of_ascii "t" ++ [233]%N ++ runes_of_ascii """) match string_ as a1
-{ """ ++ [233]%N ++ runes_of_ascii "t" ++ [233]%N ++ runes_of_ascii """ : body//	t
-, 7
-    : Packet,
-    // `tick` ""quote"" 'q'
-    } //
-, string options1,
-calculatedFrom MetaDataX
-,zchar[42]	i8i8
-    `` , }")).
-Eval vm_compute in ("<<<M459>>>" ++ check (@nil rune)).
-Eval vm_compute in ("<<<M491>>>" ++ check (runes_of_ascii "
-root
-packet string_ {	@tag(	65535)  u8  u8x@calculatedFrom( ""it's"" // packet A { u8 x, }
-) , zchar[	10
-// " ++ [27880; 37322]%N ++ runes_of_ascii "
-//
-] pack,  string
-f32a  ,
-Pad x`say ""hi""`
-,@calculatedFrom(
-""`tick`""	) // c
-@rightPad ( ' ') @calculatedFrom(
-""" ++ [128512]%N ++ runes_of_ascii """ )
-    match tag as  u128 {
-    [
-255 ,	""packet""
-,	4294967296 , ""// no comment"" , ""\n"" , // a // b
-65535 ,""""
-    // c
-    , """ ++ [28040; 24687]%N ++ runes_of_ascii """] : falsey ""CRC32"" : uint8x , [ 007 , 3 , """ ++ [28040; 24687]%N ++ runes_of_ascii """
-] : As , }	,
-} 	 ")).
-Eval vm_compute in ("<<<M523>>>" ++ check (runes_of_ascii "root packet
-    options1 {
-    // a // b
-    zchar[
-    // `tick` ""quote"" 'q'
-    1 ] a1 `u8 x,` ,
-    }MetaData calculatedFrom {}
-    root  packet i64_	{@tag( 10 ) @leftPad	( // c
-' '
-// a // b
-// a // b
-) int32 Packet@calculatedFrom( // packet A { u8 x, }
-""1"")
-,}
-")).
-Eval vm_compute in ("<<<M555>>>" ++ check (runes_of_ascii "root packet i64_
-// " ++ [27880; 37322]%N ++ runes_of_ascii "
-// a // b
-{/// triple
-lengthOf {// c
-T	{/// triple
-zchar tag ,match
-//
-// `tick` ""quote"" 'q'
-body
-    //	t
-    as
-    //x
-    falsey{00 :
-BodyLength
-    , [ 10 , 0,""1""	, 0123456789 , ""a\\"" ,""`tick`"",
-    """",
-    4294967296 ]
-    :
-stringy // c
-, // trailing space 
-"""" : // " ++ [128512]%N ++ runes_of_ascii " emoji
-trueish
-, // packet A { u8 x, }
-[""CRC32"" , 00 , 10
-,
-    1  ] :
-int , } , i8 T ,
-    // `tick` ""quote"" 'q'
-    } /// triple
-, msg_type{ int64 u ,
-}
-,match rootA//x
-as i64_ {
-    7
-: uint8x ,} ,
-} ,
-repeat// `tick` ""quote"" 'q'
-calculatedFrom //x
+// packet A { u8 x, }
+true falsey	=false f32a= zchar[
+255 ]
+trueish=
+255	Z9_
+= ""\n""
+;} packet repeatCount
 {
-Pad T,
-    repeatCount
-    int , i16
-    crc @calculatedFrom( ""packet""
-) `` ,
-    match
-// `tick` ""quote"" 'q'
-// packet A { u8 x, }
-u128
-as
-As { """" : crc,
-[ 65535 , 4294967296 , 007
+asx { match _x as msg_type// @lengthOf(
+{ 0123456789
+// " ++ [128512]%N ++ runes_of_ascii " emoji
+// 50% %s
+:trueish ,
+[42
+    ]
+    : matchKey // packet A { u8 x, }
+, """ ++ [28040; 24687]%N ++ runes_of_ascii """ :
+    roots, [ 1 ] :
+As} , }
+    , @calculatedFrom( ""// no comment"") char metadata
     ,
-""a	b""
-, 10 // `tick` ""quote"" 'q'
+repeat	rootA
+{ int64	stringy@calculatedFrom(
+""1""
+    ) , u32
+    // `tick` ""quote"" 'q'
+    T, } , float32
+i64_ ,repeat
+zchar[ 007
 ]
-    : rootA
-, } , } ,
-    zchar[4294967296 ]  u
+T
+`say ""hi""` ,repeat
+// 50% %s
+// " ++ [128512]%N ++ runes_of_ascii " emoji
+tag
+{int8 crc `crlf
+line` ,
+repeat	o {repeat
+    f32a, } ,repeat i16
+    Z9_ `" ++ [233]%N ++ runes_of_ascii "`, zchar[3  ]
+    body @lengthOf( Packet ) , }
+, @lengthOf( o ) match uint8x as As{
+    255: T , } ,f32a @lengthOf(leftPad
+    ) , BodyLength
+_x`it's`, //	t
+repeat asx{ char[ 10
+] i64_ @lengthOf( u
+    )
 ,
-repeat uint16
-    string_ `a\`	, } root
-packet A{	match Logon as asx { [	3 ,	""a	b""
-] : MetaDataX ,
-    0
-: lengthOf ,""packet""
-:
+} ,
+} //x")).
+Eval vm_compute in ("<<<M363>>>" ++ check (runes_of_ascii "packet tag
+{ }root packet a1
+{ }
+    MetaData pack { Packet Z9_ `` ,leftPad trueish , char[] _x // 50% %s
+`
+` , packetx Packet `it's`,  tag // " ++ [27880; 37322]%N ++ runes_of_ascii "
+msg_type `" ++ [233]%N ++ runes_of_ascii "`
+    , char[3 //x
+]
+    // trailing space 
+    i64_`crlf
+line`, }
+")).
+Eval vm_compute in ("<<<T363>>>" ++ terms [mkTok 35 "packet" 1 0 false; mkTok 42 "tag" 1 7 false; mkTok 2 "{" 2 0 false; mkTok 3 "}" 2 2 false; mkTok 34 "root" 2 3 false; mkTok 35 "packet" 2 8 false; mkTok 42 "a1" 2 15 false; mkTok 2 "{" 3 0 false; mkTok 3 "}" 3 2 false; mkTok 37 "MetaData" 4 4 false; mkTok 42 "pack" 4 13 false; mkTok 2 "{" 4 18 false; mkTok 42 "Packet" 4 20 false; mkTok 42 "Z9_" 4 27 false; mkTok 43 "``" 4 31 false; mkTok 40 "," 4 34 false; mkTok 42 "leftPad" 4 35 false; mkTok 42 "trueish" 4 43 false; mkTok 40 "," 4 51 false; mkTok 16 "char[]" 4 53 false; mkTok 42 "_x" 4 60 false; mkTok 44 "// 50% %s" 4 63 true; mkTok 43 (string_of_bytes [96; 10; 96]%N) 5 0 false; mkTok 40 "," 6 2 false; mkTok 42 "packetx" 6 4 false; mkTok 42 "Packet" 6 12 false; mkTok 43 "`it's`" 6 19 false; mkTok 40 "," 6 25 false; mkTok 42 "tag" 6 28 false; mkTok 44 (string_of_bytes [47; 47; 32; 230; 179; 168; 233; 135; 138]%N) 6 32 true; mkTok 42 "msg_type" 7 0 false; mkTok 43 (string_of_bytes [96; 195; 169; 96]%N) 7 9 false; mkTok 40 "," 8 4 false; mkTok 12 "char[" 8 6 false; mkTok 30 "3" 8 11 false; mkTok 44 "//x" 8 13 true; mkTok 13 "]" 9 0 false; mkTok 44 "// trailing space " 10 4 true; mkTok 42 "i64_" 11 4 false; mkTok 43 (string_of_bytes [96; 99; 114; 108; 102; 13; 10; 108; 105; 110; 101; 96]%N) 11 8 false; mkTok 40 "," 12 5 false; mkTok 3 "}" 12 7 false; mkTok 0 "<EOF>" 13 0 false] (mkPacket (mkPtok 35 "packet" 1 0 0) (Some (mkPtok 3 "}" 12 7 41)) [(DPacket (mkPacketDef (mkSpan (mkPtok 35 "packet" 1 0 0) (mkPtok 3 "}" 2 2 3)) None (mkPtok 35 "packet" 1 0 0) (mkPtok 42 "tag" 1 7 1) (mkPtok 2 "{" 2 0 2) [] (mkPtok 3 "}" 2 2 3))); (DPacket (mkPacketDef (mkSpan (mkPtok 34 "root" 2 3 4) (mkPtok 3 "}" 3 2 8)) (Some (mkPtok 34 "root" 2 3 4)) (mkPtok 35 "packet" 2 8 5) (mkPtok 42 "a1" 2 15 6) (mkPtok 2 "{" 3 0 7) [] (mkPtok 3 "}" 3 2 8))); (DMeta (mkMetaDef (mkSpan (mkPtok 37 "MetaData" 4 4 9) (mkPtok 3 "}" 12 7 41)) (mkPtok 37 "MetaData" 4 4 9) (mkPtok 42 "pack" 4 13 10) (mkPtok 2 "{" 4 18 11) [(MIRef (mkRefMetaDecl (mkSpan (mkPtok 42 "Packet" 4 20 12) (mkPtok 40 "," 4 34 15)) (mkPtok 42 "Packet" 4 20 12) (mkPtok 42 "Z9_" 4 27 13) (Some (mkPtok 43 "``" 4 31 14)) (mkPtok 40 "," 4 34 15))); (MIRef (mkRefMetaDecl (mkSpan (mkPtok 42 "leftPad" 4 35 16) (mkPtok 40 "," 4 51 18)) (mkPtok 42 "leftPad" 4 35 16) (mkPtok 42 "trueish" 4 43 17) None (mkPtok 40 "," 4 51 18))); (MIDecl (mkMetaDecl (mkSpan (mkPtok 16 "char[]" 4 53 19) (mkPtok 40 "," 6 2 23)) (TyDynamic (mkSpan (mkPtok 16 "char[]" 4 53 19) (mkPtok 16 "char[]" 4 53 19)) (mkDynamicString (mkSpan (mkPtok 16 "char[]" 4 53 19) (mkPtok 16 "char[]" 4 53 19)) (mkPtok 16 "char[]" 4 53 19))) (mkPtok 42 "_x" 4 60 20) (Some (mkPtok 43 (string_of_bytes [96; 10; 96]%N) 5 0 22)) (mkPtok 40 "," 6 2 23))); (MIRef (mkRefMetaDecl (mkSpan (mkPtok 42 "packetx" 6 4 24) (mkPtok 40 "," 6 25 27)) (mkPtok 42 "packetx" 6 4 24) (mkPtok 42 "Packet" 6 12 25) (Some (mkPtok 43 "`it's`" 6 19 26)) (mkPtok 40 "," 6 25 27))); (MIRef (mkRefMetaDecl (mkSpan (mkPtok 42 "tag" 6 28 28) (mkPtok 40 "," 8 4 32)) (mkPtok 42 "tag" 6 28 28) (mkPtok 42 "msg_type" 7 0 30) (Some (mkPtok 43 (string_of_bytes [96; 195; 169; 96]%N) 7 9 31)) (mkPtok 40 "," 8 4 32))); (MIDecl (mkMetaDecl (mkSpan (mkPtok 12 "char[" 8 6 33) (mkPtok 40 "," 12 5 40)) (TyFixed (mkSpan (mkPtok 12 "char[" 8 6 33) (mkPtok 13 "]" 9 0 36)) (mkFixedString (mkSpan (mkPtok 12 "char[" 8 6 33) (mkPtok 13 "]" 9 0 36)) (mkPtok 12 "char[" 8 6 33) (mkPtok 30 "3" 8 11 34) (mkPtok 13 "]" 9 0 36))) (mkPtok 42 "i64_" 11 4 38) (Some (mkPtok 43 (string_of_bytes [96; 99; 114; 108; 102; 13; 10; 108; 105; 110; 101; 96]%N) 11 8 39)) (mkPtok 40 "," 12 5 40)))] (mkPtok 3 "}" 12 7 41)))])).
+Eval vm_compute in ("<<<M395>>>" ++ check (runes_of_ascii "packet// `tick` ""quote"" 'q'
+x_y_z { }MetaData
+Logon  { pack chars `" ++ [233]%N ++ runes_of_ascii "`, }options { len = 00}root packet	len {char[
+    7  ] asx ,  }  MetaData MetaDataX // " ++ [27880; 37322]%N ++ runes_of_ascii "
+{
+char Foo `100% of %d` , }")).
+Eval vm_compute in ("<<<M427>>>" ++ check (runes_of_ascii "// c
+packet string_{x @lengthOf( charz ) `u8 x,` , } options { T // packet A { u8 x, }
+= char[ 3
+] ;
+a1 =65535
+    //x
+    ;msg_type  = string ;
+MetaDataX //	t
+= uint8
+; } MetaData // trailing space 
+u /// triple
+{ char[ 1
+] repeatCount `line1
+line2`,f32 i8i8, // " ++ [128512]%N ++ runes_of_ascii " emoji
+char[]
+matchKey``// " ++ [27880; 37322]%N ++ runes_of_ascii "
+,// c
+stringy Foo,zchar[ 007] i8i8`doc`	, u8x
+i64_ `" ++ [233]%N ++ runes_of_ascii "`
+,  }
+")).
+Eval vm_compute in ("<<<M459>>>" ++ check (runes_of_ascii "packet calculatedFrom { Z9_ repeatCount,
+@tag(
+    // trailing space 
+    4294967296 ) u16 Foo, zchar[ 255 ] _x ,As{
+// 50% %s
+/// triple
+zchar[
+65535 ] charz ,//x
+f64 A
+`crlf
+line`, } , // `tick` ""quote"" 'q'
+}
+    packet
+u {match x_y_z as int {
+[	""it's"" ]:
+uint8x , 4294967296 : i64_
+    ,
+""x y""	: BodyLength
 // packet A { u8 x, }
-// " ++ [27880; 37322]%N ++ runes_of_ascii "
-u8x,	255 : repeatCount , [00 ,""""  ] :
-charz
-,
-["""" ]:msg_type, }  ,}
+// trailing space 
+, ""x y"" :u8x	,
+    }, //	t
+}options { As =
+    f64 ;  }")).
+Eval vm_compute in ("<<<M491>>>" ++ check (runes_of_ascii "packet
+    BodyLength
+{  @rightPad( ) _x	, // c
+} 	 ")).
+Eval vm_compute in ("<<<M523>>>" ++ check (runes_of_ascii "packet
+x { @calculatedFrom(  ""a	b"" )crc // 50% %s
+crc`crlf
+line`  , }
+
+")).
+Eval vm_compute in ("<<<M555>>>" ++ check (runes_of_ascii "// packet A { u8 x, }
+packet roots{ repeat	body
+// `tick` ""quote"" 'q'
+// @lengthOf(
+, } MetaData asx {
+    char[7 ] zchar  `{ , }`,}
 ")).
 Eval vm_compute in ("<<<M587>>>" ++ check (runes_of_ascii "
-packet int {} packet roots
-{}")).
-Eval vm_compute in ("<<<T587>>>" ++ terms [mkTok 35 "packet" 2 0 false; mkTok 42 "int" 2 7 false; mkTok 2 "{" 2 11 false; mkTok 3 "}" 2 12 false; mkTok 35 "packet" 2 14 false; mkTok 42 "roots" 2 21 false; mkTok 2 "{" 3 0 false; mkTok 3 "}" 3 1 false; mkTok 0 "<EOF>" 3 2 false] (mkPacket (mkPtok 35 "packet" 2 0 0) (Some (mkPtok 3 "}" 3 1 7)) [(DPacket (mkPacketDef (mkSpan (mkPtok 35 "packet" 2 0 0) (mkPtok 3 "}" 2 12 3)) None (mkPtok 35 "packet" 2 0 0) (mkPtok 42 "int" 2 7 1) (mkPtok 2 "{" 2 11 2) [] (mkPtok 3 "}" 2 12 3))); (DPacket (mkPacketDef (mkSpan (mkPtok 35 "packet" 2 14 4) (mkPtok 3 "}" 3 1 7)) None (mkPtok 35 "packet" 2 14 4) (mkPtok 42 "roots" 2 21 5) (mkPtok 2 "{" 3 0 6) [] (mkPtok 3 "}" 3 1 7)))])).
-Eval vm_compute in ("<<<M619>>>" ++ check (runes_of_ascii "packet u128 {
-@calculatedFrom(
-""" ++ [28040; 24687]%N ++ runes_of_ascii """ )
-stringy { match falsey
-as Z9_ { // @lengthOf(
-""packet"": float
-    //	t
-    , } , match uint8x as x_y_z
-{ 3 :i64_ ,
-//
-// " ++ [128512]%N ++ runes_of_ascii " emoji
-""CRC32"" :float
-    , 007 : falsey ,  0123456789 : //x
-Packet , [
-    ""it's""
-// packet A { u8 x, }
-// " ++ [128512]%N ++ runes_of_ascii " emoji
-, ""\" ++ [233]%N ++ runes_of_ascii """ ] : calculatedFrom,}
-,uint16
-uint8x `it's`
-, repeat i8 repeatCount,} ,
-u8 string_
-,
+")).
+Eval vm_compute in ("<<<T587>>>" ++ terms [mkTok 0 "<EOF>" 2 0 false] (mkPacket (mkPtok 0 "<EOF>" 2 0 0) None [])).
+Eval vm_compute in ("<<<M619>>>" ++ check (runes_of_ascii "packet lengthOf {
+@tag(3
+    )	asx `{ , }` , }	root	packet// 50% %s
+chars
+{@tag(  0123456789 ) match int
+    // a // b
+    as i8i8 { [
+    """ ++ [128512]%N ++ runes_of_ascii """,65535 ] :Pad [65535,
+    0123456789 , ""a\""b"" ,""a\""b"",
+    7 , ""abc""
+    , 65535 ,3 ] : repeatCount
+, } , }options
+// c
+// `tick` ""quote"" 'q'
+{  chars= '\x00' ;	}	packet  body {	i64 o ,
+@calculatedFrom( // " ++ [27880; 37322]%N ++ runes_of_ascii "
+"""" )
+@lengthOf(int)match metadata	as
+    charz {""`tick`""
+:
+lengthOf ,	1 :repeatCount , //	t
+[""abc""]
     // trailing space 
-    @lengthOf(
-    body ) @rightPad (
-    '\x00' ) zchar[ 65535 ] trueish @calculatedFrom(
-""`tick`"" ) , @rightPad ( ) charz @lengthOf(
-A) , MetaDataX,
-@tag(
-    3) char[ 3 ] x	`doc`
-,repeat
-    i8i8 {
-    string Z9_,  } ,
-} // @lengthOf(
-root packet chars
-    // " ++ [27880; 37322]%N ++ runes_of_ascii "
-    {
-    string_ , u16
-trueish `
-` , float32 Pad
-@lengthOf(metadata )
-`" ++ [28040; 24687; 31867; 22411]%N ++ runes_of_ascii "`,repeatCount ,  @lengthOf( x )	char[]uint8x @lengthOf( T )// a // b
-`tab	here`	, A	{ char rootA // packet A { u8 x, }
-`
-` // a // b
-, int64 f32a
-    //	t
-    ,
-    Packet { repeat i16
-    Foo
-`it's` , /// triple
-zchar[65535 ]
-stringy
-    @calculatedFrom( ""1"" )`
-` , // trailing space 
-}  , int
+    :uint8x  ,
+    ""\n""
+:Pad, } //
+,
+    @rightPad('0' ) int64
+    msg_type
     // " ++ [128512]%N ++ runes_of_ascii " emoji
+    @calculatedFrom( ""\" ++ [233]%N ++ runes_of_ascii """ ) ,
+@lengthOf( MetaDataX )
+    /// triple
+    zchar @calculatedFrom( ""a\\"" ) ,}
+    packet int  {
+@lengthOf( T  ) MetaDataX { options1// @lengthOf(
+{
+    /// triple
+    match
+As as roots
+{
+0 : asx , [
+10 ,"""" ,
+1 , 0123456789  ,
+""CRC32""  , 3 ,
+    ""a\\""] //	t
+: int, """" : leftPad ,
+[
+1
     ,
-    } , // trailing space 
-charz
-// `tick` ""quote"" 'q'
-//	t
-metadata,
-@calculatedFrom( ""\" ++ [233]%N ++ runes_of_ascii """
-)
-match o
-as matchKey {	""abc""
-: zchar , // " ++ [27880; 37322]%N ++ runes_of_ascii "
-""CRC32"": As// packet A { u8 x, }
-""packet"": Packet// `tick` ""quote"" 'q'
-,
-    ""x y"" :pack
-[0 , 10 , 00 ,  ""\n"",65535,""1"" ]:
-As // trailing space 
-, } /// triple
-, //
-}options
-{ } packet leftPad {@calculatedFrom( ""a\\""
-    ) @lengthOf(len
-    ) @tag(
-1)
-char[
-255] u8x,
-    @calculatedFrom( ""// no comment"" )
-    int32 //	t
-len@lengthOf( _x ) // " ++ [27880; 37322]%N ++ runes_of_ascii "
-,@calculatedFrom(
-""" ++ [28040; 24687]%N ++ runes_of_ascii """ ) repeat Logon int `" ++ [28040; 24687; 31867; 22411]%N ++ runes_of_ascii "`
+1 ] : int ,  },
+uint8x float
+    // @lengthOf(
+    , }, int16
+    Logon `" ++ [28040; 24687; 31867; 22411]%N ++ runes_of_ascii "` , repeat pack
+    {repeat
+i16 packetx``, rootA
+    string_ , }
+,zchar[ 0 ]
+Header`say ""hi""` ,} ,
+    }
+")).
+Eval vm_compute in ("<<<M651>>>" ++ check (runes_of_ascii "MetaData
+    Z9_ { }root packet // " ++ [128512]%N ++ runes_of_ascii " emoji
+MetaDataX{@calculatedFrom( ""// no comment"" ) match
+Packet as body {
+""" ++ [233]%N ++ runes_of_ascii "t" ++ [233]%N ++ runes_of_ascii """ :metadata """ ++ [28040; 24687]%N ++ runes_of_ascii """: // " ++ [128512]%N ++ runes_of_ascii " emoji
+u8x
+, 10 : matchKey
+""" ++ [28040; 24687]%N ++ runes_of_ascii """: stringy ,	},@leftPad
+('0' ) char[] pack , @lengthOf(
+charz ) match
+    charz	as metadata// packet A { u8 x, }
+{
+    ""{,}"" : i64_ ,[0 ] : calculatedFrom
     ,
-    match As as
-packetx {
-    ""a	b"" : uint8x ,
-    // a // b
-    }
-, char[ 0
-    ] charz @lengthOf( i8i8) , chars
-metadata , @tag( 0123456789)
-//
-// trailing space 
-BodyLength // packet A { u8 x, }
-, }
-")).
-Eval vm_compute in ("<<<M651>>>" ++ check (runes_of_ascii "root packet
-    f32a
-    { @tag( 42
-    ) char
-Header `
-`	,
-    }
-")).
-Eval vm_compute in ("<<<M683>>>" ++ check (runes_of_ascii "MetaData roots {	charz matchKey //
-`two words`
-    , char[	65535 ] //	t
-T `// not a comment`
-, char[]
-tag , string
-/// triple
-// @lengthOf(
-a1 `two words`
-,
-} root packet stringy
-    // trailing space 
-    { repeat roots {repeat calculatedFrom	len
-// " ++ [128512]%N ++ runes_of_ascii " emoji
-// " ++ [128512]%N ++ runes_of_ascii " emoji
-,
-} ,  @tag( 42
-)  @rightPad(/// triple
-'0' )@tag(
-007
-)  f32 lengthOf @lengthOf( tag ) `crlf
-line`
-,	int32 chars,zchar[ 3
-]
-rootA @calculatedFrom(
-""a\""b"" )// c
-, @rightPad
-( ) @calculatedFrom(""" ++ [128512]%N ++ runes_of_ascii """
-) @tag(	0123456789 ) Foo {char[] u8x	@lengthOf( charz
-    // @lengthOf(
-    ) , A	, } ,
-    match repeatCount as
-body{
-""\n"" :  T, [
-    """ ++ [128512]%N ++ runes_of_ascii """, 255
-// @lengthOf(
-/// triple
-] : lengthOf , } ,
-@calculatedFrom(""x y"" )
-    u8
-packetx
-@calculatedFrom(//x
-""CRC32"" // a // b
-) `tab	here` ,
-    }
-")).
-Eval vm_compute in ("<<<M715>>>" ++ check (runes_of_ascii "//	t
-MetaData asx
-{
-zchar Packet `" ++ [233]%N ++ runes_of_ascii "` ,	zchar[ 42 ]
-f32a
-    , } options {
-    // packet A { u8 x, }
-    tag=
-    ""\n"" ;
-    }
-")).
-Eval vm_compute in ("<<<M747>>>" ++ check (runes_of_ascii "  MetaData crc { } 	 ")).
-Eval vm_compute in ("<<<M779>>>" ++ check (runes_of_ascii "
-packet // packet A { u8 x, }
-rootA { }")).
-Eval vm_compute in ("<<<M811>>>" ++ check (runes_of_ascii "MetaData a1
-{
-// `tick` ""quote"" 'q'
+    ""CRC32"" :
+rootA , [
+4294967296 , ""packet""] : len
 //	t
-_x  asx ,} MetaData Packet
-{	BodyLength
-    int, } root packet x	{ @leftPad(' ' ) f64
-// a // b
-// `tick` ""quote"" 'q'
-repeatCount@lengthOf(
-x // c
-) `line1
-line2`
-, @rightPad// @lengthOf(
-('\x00'
-    )match i8i8 as pack{ [ 10
-, """ ++ [128512]%N ++ runes_of_ascii """, 10
-, ""a	b"" ,
-1// trailing space 
-,
-// c
-// " ++ [128512]%N ++ runes_of_ascii " emoji
-7 ] : leftPad [ 255 , 10 ,0 , 1 , """ ++ [233]%N ++ runes_of_ascii "t" ++ [233]%N ++ runes_of_ascii """, ""x y""  ]: A """ ++ [28040; 24687]%N ++ runes_of_ascii """ :
-    u, 00 :  charz ,
-    // a // b
-    """ ++ [28040; 24687]%N ++ runes_of_ascii """
-:
-len 0:
-    As, } ,
-f32 x
-`" ++ [233]%N ++ runes_of_ascii "` , }	MetaData x {}")).
-Eval vm_compute in ("<<<T811>>>" ++ terms [mkTok 37 "MetaData" 1 0 false; mkTok 42 "a1" 1 9 false; mkTok 2 "{" 2 0 false; mkTok 44 "// `tick` ""quote"" 'q'" 3 0 true; mkTok 44 (string_of_bytes [47; 47; 9; 116]%N) 4 0 true; mkTok 42 "_x" 5 0 false; mkTok 42 "asx" 5 4 false; mkTok 40 "," 5 8 false; mkTok 3 "}" 5 9 false; mkTok 37 "MetaData" 5 11 false; mkTok 42 "Packet" 5 20 false; mkTok 2 "{" 6 0 false; mkTok 42 "BodyLength" 6 2 false; mkTok 42 "int" 7 4 false; mkTok 40 "," 7 7 false; mkTok 3 "}" 7 9 false; mkTok 34 "root" 7 11 false; mkTok 35 "packet" 7 16 false; mkTok 42 "x" 7 23 false; mkTok 2 "{" 7 25 false; mkTok 32 "@leftPad" 7 27 false; mkTok 8 "(" 7 35 false; mkTok 33 "' '" 7 36 false; mkTok 6 ")" 7 40 false; mkTok 29 "f64" 7 42 false; mkTok 44 "// a // b" 8 0 true; mkTok 44 "// `tick` ""quote"" 'q'" 9 0 true; mkTok 42 "repeatCount" 10 0 false; mkTok 7 "@lengthOf(" 10 11 false; mkTok 42 "x" 11 0 false; mkTok 44 "// c" 11 2 true; mkTok 6 ")" 12 0 false; mkTok 43 (string_of_bytes [96; 108; 105; 110; 101; 49; 10; 108; 105; 110; 101; 50; 96]%N) 12 2 false; mkTok 40 "," 14 0 false; mkTok 32 "@rightPad" 14 2 false; mkTok 44 "// @lengthOf(" 14 11 true; mkTok 8 "(" 15 0 false; mkTok 33 "'\x00'" 15 1 false; mkTok 6 ")" 16 4 false; mkTok 38 "match" 16 5 false; mkTok 42 "i8i8" 16 11 false; mkTok 17 "as" 16 16 false; mkTok 42 "pack" 16 19 false; mkTok 2 "{" 16 23 false; mkTok 18 "[" 16 25 false; mkTok 30 "10" 16 27 false; mkTok 40 "," 17 0 false; mkTok 31 (string_of_bytes [34; 240; 159; 152; 128; 34]%N) 17 2 false; mkTok 40 "," 17 5 false; mkTok 30 "10" 17 7 false; mkTok 40 "," 18 0 false; mkTok 31 (string_of_bytes [34; 97; 9; 98; 34]%N) 18 2 false; mkTok 40 "," 18 8 false; mkTok 30 "1" 19 0 false; mkTok 44 "// trailing space " 19 1 true; mkTok 40 "," 20 0 false; mkTok 44 "// c" 21 0 true; mkTok 44 (string_of_bytes [47; 47; 32; 240; 159; 152; 128; 32; 101; 109; 111; 106; 105]%N) 22 0 true; mkTok 30 "7" 23 0 false; mkTok 13 "]" 23 2 false; mkTok 39 ":" 23 4 false; mkTok 42 "leftPad" 23 6 false; mkTok 18 "[" 23 14 false; mkTok 30 "255" 23 16 false; mkTok 40 "," 23 20 false; mkTok 30 "10" 23 22 false; mkTok 40 "," 23 25 false; mkTok 30 "0" 23 26 false; mkTok 40 "," 23 28 false; mkTok 30 "1" 23 30 false; mkTok 40 "," 23 32 false; mkTok 31 (string_of_bytes [34; 195; 169; 116; 195; 169; 34]%N) 23 34 false; mkTok 40 "," 23 39 false; mkTok 31 """x y""" 23 41 false; mkTok 13 "]" 23 48 false; mkTok 39 ":" 23 49 false; mkTok 42 "A" 23 51 false; mkTok 31 (string_of_bytes [34; 230; 182; 136; 230; 129; 175; 34]%N) 23 53 false; mkTok 39 ":" 23 58 false; mkTok 42 "u" 24 4 false; mkTok 40 "," 24 5 false; mkTok 30 "00" 24 7 false; mkTok 39 ":" 24 10 false; mkTok 42 "charz" 24 13 false; mkTok 40 "," 24 19 false; mkTok 44 "// a // b" 25 4 true; mkTok 31 (string_of_bytes [34; 230; 182; 136; 230; 129; 175; 34]%N) 26 4 false; mkTok 39 ":" 27 0 false; mkTok 42 "len" 28 0 false; mkTok 30 "0" 28 4 false; mkTok 39 ":" 28 5 false; mkTok 42 "As" 29 4 false; mkTok 40 "," 29 6 false; mkTok 3 "}" 29 8 false; mkTok 40 "," 29 10 false; mkTok 28 "f32" 30 0 false; mkTok 42 "x" 30 4 false; mkTok 43 (string_of_bytes [96; 195; 169; 96]%N) 31 0 false; mkTok 40 "," 31 4 false; mkTok 3 "}" 31 6 false; mkTok 37 "MetaData" 31 8 false; mkTok 42 "x" 31 17 false; mkTok 2 "{" 31 19 false; mkTok 3 "}" 31 20 false; mkTok 0 "<EOF>" 31 21 false] (mkPacket (mkPtok 37 "MetaData" 1 0 0) (Some (mkPtok 3 "}" 31 20 103)) [(DMeta (mkMetaDef (mkSpan (mkPtok 37 "MetaData" 1 0 0) (mkPtok 3 "}" 5 9 8)) (mkPtok 37 "MetaData" 1 0 0) (mkPtok 42 "a1" 1 9 1) (mkPtok 2 "{" 2 0 2) [(MIRef (mkRefMetaDecl (mkSpan (mkPtok 42 "_x" 5 0 5) (mkPtok 40 "," 5 8 7)) (mkPtok 42 "_x" 5 0 5) (mkPtok 42 "asx" 5 4 6) None (mkPtok 40 "," 5 8 7)))] (mkPtok 3 "}" 5 9 8))); (DMeta (mkMetaDef (mkSpan (mkPtok 37 "MetaData" 5 11 9) (mkPtok 3 "}" 7 9 15)) (mkPtok 37 "MetaData" 5 11 9) (mkPtok 42 "Packet" 5 20 10) (mkPtok 2 "{" 6 0 11) [(MIRef (mkRefMetaDecl (mkSpan (mkPtok 42 "BodyLength" 6 2 12) (mkPtok 40 "," 7 7 14)) (mkPtok 42 "BodyLength" 6 2 12) (mkPtok 42 "int" 7 4 13) None (mkPtok 40 "," 7 7 14)))] (mkPtok 3 "}" 7 9 15))); (DPacket (mkPacketDef (mkSpan (mkPtok 34 "root" 7 11 16) (mkPtok 3 "}" 31 6 99)) (Some (mkPtok 34 "root" 7 11 16)) (mkPtok 35 "packet" 7 16 17) (mkPtok 42 "x" 7 23 18) (mkPtok 2 "{" 7 25 19) [(mkFieldWithAttr (mkSpan (mkPtok 32 "@leftPad" 7 27 20) (mkPtok 40 "," 14 0 33)) [(FAPadding (mkSpan (mkPtok 32 "@leftPad" 7 27 20) (mkPtok 6 ")" 7 40 23)) (mkPaddingAttr (mkSpan (mkPtok 32 "@leftPad" 7 27 20) (mkPtok 6 ")" 7 40 23)) (mkPtok 32 "@leftPad" 7 27 20) (mkPtok 8 "(" 7 35 21) (Some (mkPtok 33 "' '" 7 36 22)) (mkPtok 6 ")" 7 40 23)))] (LengthField (mkSpan (mkPtok 29 "f64" 7 42 24) (mkPtok 40 "," 14 0 33)) (mkLengthFieldDecl (mkSpan (mkPtok 29 "f64" 7 42 24) (mkPtok 40 "," 14 0 33)) (Some (TyBasic (mkSpan (mkPtok 29 "f64" 7 42 24) (mkPtok 29 "f64" 7 42 24)) (mkBasicType (mkSpan (mkPtok 29 "f64" 7 42 24) (mkPtok 29 "f64" 7 42 24)) (mkPtok 29 "f64" 7 42 24)))) (mkPtok 42 "repeatCount" 10 0 27) (mkLengthOf (mkSpan (mkPtok 7 "@lengthOf(" 10 11 28) (mkPtok 6 ")" 12 0 31)) (mkPtok 7 "@lengthOf(" 10 11 28) (mkPtok 42 "x" 11 0 29) (mkPtok 6 ")" 12 0 31)) (Some (mkPtok 43 (string_of_bytes [96; 108; 105; 110; 101; 49; 10; 108; 105; 110; 101; 50; 96]%N) 12 2 32)) (mkPtok 40 "," 14 0 33)))); (mkFieldWithAttr (mkSpan (mkPtok 32 "@rightPad" 14 2 34) (mkPtok 40 "," 29 10 94)) [(FAPadding (mkSpan (mkPtok 32 "@rightPad" 14 2 34) (mkPtok 6 ")" 16 4 38)) (mkPaddingAttr (mkSpan (mkPtok 32 "@rightPad" 14 2 34) (mkPtok 6 ")" 16 4 38)) (mkPtok 32 "@rightPad" 14 2 34) (mkPtok 8 "(" 15 0 36) (Some (mkPtok 33 "'\x00'" 15 1 37)) (mkPtok 6 ")" 16 4 38)))] (MatchField (mkSpan (mkPtok 38 "match" 16 5 39) (mkPtok 40 "," 29 10 94)) (mkMatchFieldDecl (mkSpan (mkPtok 38 "match" 16 5 39) (mkPtok 3 "}" 29 8 93)) (mkPtok 38 "match" 16 5 39) (mkPtok 42 "i8i8" 16 11 40) (mkPtok 17 "as" 16 16 41) (mkPtok 42 "pack" 16 19 42) (mkPtok 2 "{" 16 23 43) [(mkMatchPair (mkSpan (mkPtok 18 "[" 16 25 44) (mkPtok 42 "leftPad" 23 6 61)) (MKList (mkKeyList (mkSpan (mkPtok 18 "[" 16 25 44) (mkPtok 13 "]" 23 2 59)) (mkPtok 18 "[" 16 25 44) (mkPtok 30 "10" 16 27 45) [((mkPtok 40 "," 17 0 46), (mkPtok 31 (string_of_bytes [34; 240; 159; 152; 128; 34]%N) 17 2 47)); ((mkPtok 40 "," 17 5 48), (mkPtok 30 "10" 17 7 49)); ((mkPtok 40 "," 18 0 50), (mkPtok 31 (string_of_bytes [34; 97; 9; 98; 34]%N) 18 2 51)); ((mkPtok 40 "," 18 8 52), (mkPtok 30 "1" 19 0 53)); ((mkPtok 40 "," 20 0 55), (mkPtok 30 "7" 23 0 58))] (mkPtok 13 "]" 23 2 59))) (mkPtok 39 ":" 23 4 60) (mkPtok 42 "leftPad" 23 6 61) None); (mkMatchPair (mkSpan (mkPtok 18 "[" 23 14 62) (mkPtok 42 "A" 23 51 76)) (MKList (mkKeyList (mkSpan (mkPtok 18 "[" 23 14 62) (mkPtok 13 "]" 23 48 74)) (mkPtok 18 "[" 23 14 62) (mkPtok 30 "255" 23 16 63) [((mkPtok 40 "," 23 20 64), (mkPtok 30 "10" 23 22 65)); ((mkPtok 40 "," 23 25 66), (mkPtok 30 "0" 23 26 67)); ((mkPtok 40 "," 23 28 68), (mkPtok 30 "1" 23 30 69)); ((mkPtok 40 "," 23 32 70), (mkPtok 31 (string_of_bytes [34; 195; 169; 116; 195; 169; 34]%N) 23 34 71)); ((mkPtok 40 "," 23 39 72), (mkPtok 31 """x y""" 23 41 73))] (mkPtok 13 "]" 23 48 74))) (mkPtok 39 ":" 23 49 75) (mkPtok 42 "A" 23 51 76) None); (mkMatchPair (mkSpan (mkPtok 31 (string_of_bytes [34; 230; 182; 136; 230; 129; 175; 34]%N) 23 53 77) (mkPtok 40 "," 24 5 80)) (MKString (mkPtok 31 (string_of_bytes [34; 230; 182; 136; 230; 129; 175; 34]%N) 23 53 77)) (mkPtok 39 ":" 23 58 78) (mkPtok 42 "u" 24 4 79) (Some (mkPtok 40 "," 24 5 80))); (mkMatchPair (mkSpan (mkPtok 30 "00" 24 7 81) (mkPtok 40 "," 24 19 84)) (MKDigits (mkPtok 30 "00" 24 7 81)) (mkPtok 39 ":" 24 10 82) (mkPtok 42 "charz" 24 13 83) (Some (mkPtok 40 "," 24 19 84))); (mkMatchPair (mkSpan (mkPtok 31 (string_of_bytes [34; 230; 182; 136; 230; 129; 175; 34]%N) 26 4 86) (mkPtok 42 "len" 28 0 88)) (MKString (mkPtok 31 (string_of_bytes [34; 230; 182; 136; 230; 129; 175; 34]%N) 26 4 86)) (mkPtok 39 ":" 27 0 87) (mkPtok 42 "len" 28 0 88) None); (mkMatchPair (mkSpan (mkPtok 30 "0" 28 4 89) (mkPtok 40 "," 29 6 92)) (MKDigits (mkPtok 30 "0" 28 4 89)) (mkPtok 39 ":" 28 5 90) (mkPtok 42 "As" 29 4 91) (Some (mkPtok 40 "," 29 6 92)))] (mkPtok 3 "}" 29 8 93)) (mkPtok 40 "," 29 10 94))); (mkFieldWithAttr (mkSpan (mkPtok 28 "f32" 30 0 95) (mkPtok 40 "," 31 4 98)) [] (MetaField (mkSpan (mkPtok 28 "f32" 30 0 95) (mkPtok 40 "," 31 4 98)) None (mkMetaDecl (mkSpan (mkPtok 28 "f32" 30 0 95) (mkPtok 40 "," 31 4 98)) (TyBasic (mkSpan (mkPtok 28 "f32" 30 0 95) (mkPtok 28 "f32" 30 0 95)) (mkBasicType (mkSpan (mkPtok 28 "f32" 30 0 95) (mkPtok 28 "f32" 30 0 95)) (mkPtok 28 "f32" 30 0 95))) (mkPtok 42 "x" 30 4 96) (Some (mkPtok 43 (string_of_bytes [96; 195; 169; 96]%N) 31 0 97)) (mkPtok 40 "," 31 4 98))))] (mkPtok 3 "}" 31 6 99))); (DMeta (mkMetaDef (mkSpan (mkPtok 37 "MetaData" 31 8 100) (mkPtok 3 "}" 31 20 103)) (mkPtok 37 "MetaData" 31 8 100) (mkPtok 42 "x" 31 17 101) (mkPtok 2 "{" 31 19 102) [] (mkPtok 3 "}" 31 20 103)))])).
-Eval vm_compute in ("<<<M843>>>" ++ check (runes_of_ascii "root
-    packet
-falsey{  repeat i64_ , //	t
-@tag( 4294967296 ) @leftPad (' ' )
-@lengthOf( _x )x leftPad `a\`,
-/// triple
 // " ++ [27880; 37322]%N ++ runes_of_ascii "
-@calculatedFrom( """"	)  @lengthOf( i8i8 ) @tag( 10
-    ) stringy { u8x { int8 i8i8 @lengthOf( string_ ) `doc`
-, string asx, }
-// " ++ [128512]%N ++ runes_of_ascii " emoji
-/// triple
-,} ,
-    @tag( 007
-)string metadata  , } // packet A { u8 x, }")).
-Eval vm_compute in ("<<<M875>>>" ++ check (runes_of_ascii "packet
-packetx {
-    match i64_ as roots
-// trailing space 
-// c
-{ 7
-:
-x 42 :  asx
-    // @lengthOf(
-    , 65535 : i64_ [ 00 // `tick` ""quote"" 'q'
-, 1 ] : Z9_ [ // c
-""\n"",3,
-007 ]
-    :float ,
-} , }MetaData metadata {	char[]Header `" ++ [28040; 24687; 31867; 22411]%N ++ runes_of_ascii "` ,Foo stringy
-, uint64 body , f32	a1
-    , } packet
-    chars{ }")).
-Eval vm_compute in ("<<<M907>>>" ++ check (runes_of_ascii "packet
-// @lengthOf(
-// " ++ [128512]%N ++ runes_of_ascii " emoji
-len{ @calculatedFrom( ""it's"")
-    calculatedFrom msg_type
-, }
-")).
-Eval vm_compute in ("<<<M939>>>" ++ check (runes_of_ascii "packet repeatCount{ }
-root packet uint8x {
-    @rightPad ( '\x00' )
-options1//x
-As , // a // b
-}
-")).
-Eval vm_compute in ("<<<M971>>>" ++ check (runes_of_ascii "packet // trailing space 
-A
-{ @tag( 0
-)
-    string
-i8i8`a\`
-    // packet A { u8 x, }
-    , float64
-    x @lengthOf( Header // " ++ [128512]%N ++ runes_of_ascii " emoji
-) `tab	here` // @lengthOf(
-,zchar[
-    3 ]	lengthOf ,
-// packet A { u8 x, }
-// " ++ [27880; 37322]%N ++ runes_of_ascii "
-o msg_type `{ , }` ,
-    //x
-    Logon // c
-@lengthOf( i64_)
-,@leftPad (
-' ' ) repeat As
-// packet A { u8 x, }
-// @lengthOf(
-,  match
-    len as leftPad
-    {""x y"" :
-    repeatCount , """ ++ [28040; 24687]%N ++ runes_of_ascii """ :
-packetx , ""x y"" : u8x ,
-4294967296:
-Header ""a	b"": roots,
-} , @calculatedFrom(
-// " ++ [128512]%N ++ runes_of_ascii " emoji
-/// triple
-""{,}"" )
-    // trailing space 
-    uint32// packet A { u8 x, }
-i64_ `line1
-line2`, } // " ++ [128512]%N ++ runes_of_ascii " emoji")).
-Eval vm_compute in ("<<<M1003>>>" ++ check (runes_of_ascii "
-")).
-Eval vm_compute in ("<<<M1035>>>" ++ check (runes_of_ascii "packet falsey {
-    // a // b
-    char[]x_y_z @lengthOf(  u ) `two words` , } MetaData Packet
-{
-    char[
-3  ] rootA `line1
-line2`
-,
-    string
-    A ,
-} root packet string_ {uint8
-calculatedFrom  @lengthOf( u128 )
-`line1
-line2`, char[ 3] Z9_ ,float , }
-")).
-Eval vm_compute in ("<<<T1035>>>" ++ terms [mkTok 35 "packet" 1 0 false; mkTok 42 "falsey" 1 7 false; mkTok 2 "{" 1 14 false; mkTok 44 "// a // b" 2 4 true; mkTok 16 "char[]" 3 4 false; mkTok 42 "x_y_z" 3 10 false; mkTok 7 "@lengthOf(" 3 16 false; mkTok 42 "u" 3 28 false; mkTok 6 ")" 3 30 false; mkTok 43 "`two words`" 3 32 false; mkTok 40 "," 3 44 false; mkTok 3 "}" 3 46 false; mkTok 37 "MetaData" 3 48 false; mkTok 42 "Packet" 3 57 false; mkTok 2 "{" 4 0 false; mkTok 12 "char[" 5 4 false; mkTok 30 "3" 6 0 false; mkTok 13 "]" 6 3 false; mkTok 42 "rootA" 6 5 false; mkTok 43 (string_of_bytes [96; 108; 105; 110; 101; 49; 10; 108; 105; 110; 101; 50; 96]%N) 6 11 false; mkTok 40 "," 8 0 false; mkTok 15 "string" 9 4 false; mkTok 42 "A" 10 4 false; mkTok 40 "," 10 6 false; mkTok 3 "}" 11 0 false; mkTok 34 "root" 11 2 false; mkTok 35 "packet" 11 7 false; mkTok 42 "string_" 11 14 false; mkTok 2 "{" 11 22 false; mkTok 20 "uint8" 11 23 false; mkTok 42 "calculatedFrom" 12 0 false; mkTok 7 "@lengthOf(" 12 16 false; mkTok 42 "u128" 12 27 false; mkTok 6 ")" 12 32 false; mkTok 43 (string_of_bytes [96; 108; 105; 110; 101; 49; 10; 108; 105; 110; 101; 50; 96]%N) 13 0 false; mkTok 40 "," 14 6 false; mkTok 12 "char[" 14 8 false; mkTok 30 "3" 14 14 false; mkTok 13 "]" 14 15 false; mkTok 42 "Z9_" 14 17 false; mkTok 40 "," 14 21 false; mkTok 42 "float" 14 22 false; mkTok 40 "," 14 28 false; mkTok 3 "}" 14 30 false; mkTok 0 "<EOF>" 15 0 false] (mkPacket (mkPtok 35 "packet" 1 0 0) (Some (mkPtok 3 "}" 14 30 43)) [(DPacket (mkPacketDef (mkSpan (mkPtok 35 "packet" 1 0 0) (mkPtok 3 "}" 3 46 11)) None (mkPtok 35 "packet" 1 0 0) (mkPtok 42 "falsey" 1 7 1) (mkPtok 2 "{" 1 14 2) [(mkFieldWithAttr (mkSpan (mkPtok 16 "char[]" 3 4 4) (mkPtok 40 "," 3 44 10)) [] (LengthField (mkSpan (mkPtok 16 "char[]" 3 4 4) (mkPtok 40 "," 3 44 10)) (mkLengthFieldDecl (mkSpan (mkPtok 16 "char[]" 3 4 4) (mkPtok 40 "," 3 44 10)) (Some (TyDynamic (mkSpan (mkPtok 16 "char[]" 3 4 4) (mkPtok 16 "char[]" 3 4 4)) (mkDynamicString (mkSpan (mkPtok 16 "char[]" 3 4 4) (mkPtok 16 "char[]" 3 4 4)) (mkPtok 16 "char[]" 3 4 4)))) (mkPtok 42 "x_y_z" 3 10 5) (mkLengthOf (mkSpan (mkPtok 7 "@lengthOf(" 3 16 6) (mkPtok 6 ")" 3 30 8)) (mkPtok 7 "@lengthOf(" 3 16 6) (mkPtok 42 "u" 3 28 7) (mkPtok 6 ")" 3 30 8)) (Some (mkPtok 43 "`two words`" 3 32 9)) (mkPtok 40 "," 3 44 10))))] (mkPtok 3 "}" 3 46 11))); (DMeta (mkMetaDef (mkSpan (mkPtok 37 "MetaData" 3 48 12) (mkPtok 3 "}" 11 0 24)) (mkPtok 37 "MetaData" 3 48 12) (mkPtok 42 "Packet" 3 57 13) (mkPtok 2 "{" 4 0 14) [(MIDecl (mkMetaDecl (mkSpan (mkPtok 12 "char[" 5 4 15) (mkPtok 40 "," 8 0 20)) (TyFixed (mkSpan (mkPtok 12 "char[" 5 4 15) (mkPtok 13 "]" 6 3 17)) (mkFixedString (mkSpan (mkPtok 12 "char[" 5 4 15) (mkPtok 13 "]" 6 3 17)) (mkPtok 12 "char[" 5 4 15) (mkPtok 30 "3" 6 0 16) (mkPtok 13 "]" 6 3 17))) (mkPtok 42 "rootA" 6 5 18) (Some (mkPtok 43 (string_of_bytes [96; 108; 105; 110; 101; 49; 10; 108; 105; 110; 101; 50; 96]%N) 6 11 19)) (mkPtok 40 "," 8 0 20))); (MIDecl (mkMetaDecl (mkSpan (mkPtok 15 "string" 9 4 21) (mkPtok 40 "," 10 6 23)) (TyDynamic (mkSpan (mkPtok 15 "string" 9 4 21) (mkPtok 15 "string" 9 4 21)) (mkDynamicString (mkSpan (mkPtok 15 "string" 9 4 21) (mkPtok 15 "string" 9 4 21)) (mkPtok 15 "string" 9 4 21))) (mkPtok 42 "A" 10 4 22) None (mkPtok 40 "," 10 6 23)))] (mkPtok 3 "}" 11 0 24))); (DPacket (mkPacketDef (mkSpan (mkPtok 34 "root" 11 2 25) (mkPtok 3 "}" 14 30 43)) (Some (mkPtok 34 "root" 11 2 25)) (mkPtok 35 "packet" 11 7 26) (mkPtok 42 "string_" 11 14 27) (mkPtok 2 "{" 11 22 28) [(mkFieldWithAttr (mkSpan (mkPtok 20 "uint8" 11 23 29) (mkPtok 40 "," 14 6 35)) [] (LengthField (mkSpan (mkPtok 20 "uint8" 11 23 29) (mkPtok 40 "," 14 6 35)) (mkLengthFieldDecl (mkSpan (mkPtok 20 "uint8" 11 23 29) (mkPtok 40 "," 14 6 35)) (Some (TyBasic (mkSpan (mkPtok 20 "uint8" 11 23 29) (mkPtok 20 "uint8" 11 23 29)) (mkBasicType (mkSpan (mkPtok 20 "uint8" 11 23 29) (mkPtok 20 "uint8" 11 23 29)) (mkPtok 20 "uint8" 11 23 29)))) (mkPtok 42 "calculatedFrom" 12 0 30) (mkLengthOf (mkSpan (mkPtok 7 "@lengthOf(" 12 16 31) (mkPtok 6 ")" 12 32 33)) (mkPtok 7 "@lengthOf(" 12 16 31) (mkPtok 42 "u128" 12 27 32) (mkPtok 6 ")" 12 32 33)) (Some (mkPtok 43 (string_of_bytes [96; 108; 105; 110; 101; 49; 10; 108; 105; 110; 101; 50; 96]%N) 13 0 34)) (mkPtok 40 "," 14 6 35)))); (mkFieldWithAttr (mkSpan (mkPtok 12 "char[" 14 8 36) (mkPtok 40 "," 14 21 40)) [] (MetaField (mkSpan (mkPtok 12 "char[" 14 8 36) (mkPtok 40 "," 14 21 40)) None (mkMetaDecl (mkSpan (mkPtok 12 "char[" 14 8 36) (mkPtok 40 "," 14 21 40)) (TyFixed (mkSpan (mkPtok 12 "char[" 14 8 36) (mkPtok 13 "]" 14 15 38)) (mkFixedString (mkSpan (mkPtok 12 "char[" 14 8 36) (mkPtok 13 "]" 14 15 38)) (mkPtok 12 "char[" 14 8 36) (mkPtok 30 "3" 14 14 37) (mkPtok 13 "]" 14 15 38))) (mkPtok 42 "Z9_" 14 17 39) None (mkPtok 40 "," 14 21 40)))); (mkFieldWithAttr (mkSpan (mkPtok 42 "float" 14 22 41) (mkPtok 40 "," 14 28 42)) [] (ObjectField (mkSpan (mkPtok 42 "float" 14 22 41) (mkPtok 40 "," 14 28 42)) None (mkPtok 42 "float" 14 22 41) None None (mkPtok 40 "," 14 28 42)))] (mkPtok 3 "}" 14 30 43)))])).
-Eval vm_compute in ("<<<M1067>>>" ++ check (runes_of_ascii "
-root packet
-zchar {	}
-")).
-Eval vm_compute in ("<<<M1099>>>" ++ check (runes_of_ascii "
-MetaData T { }
-")).
-Eval vm_compute in ("<<<M1131>>>" ++ check (runes_of_ascii "options
-{ stringy =  7;crc = ""x y"";}
-MetaData f32a{ }
-")).
-Eval vm_compute in ("<<<M1163>>>" ++ check (runes_of_ascii "options {
-Logon
-= true
+, [""abc"" ] : msg_type ""a\""b"": repeatCount,
+} , }")).
+Eval vm_compute in ("<<<M683>>>" ++ check (runes_of_ascii "packet
     msg_type
-= '\x00' ;
-T =
-int16 }
-")).
-Eval vm_compute in ("<<<M1195>>>" ++ check (runes_of_ascii "options{
-i8i8 = '0';
-    Header = ""packet"" ;
-float  ='0'
-// c
-// a // b
-; MetaDataX=int32	;
-    i64_ = zchar[ 255
-    ]
-; }")).
-Eval vm_compute in ("<<<M1227>>>" ++ check (runes_of_ascii "// packet A { u8 x, }
-
-")).
-Eval vm_compute in ("<<<M1259>>>" ++ check (runes_of_ascii "
-")).
-Eval vm_compute in ("<<<T1259>>>" ++ terms [mkTok 0 "<EOF>" 2 0 false] (mkPacket (mkPtok 0 "<EOF>" 2 0 0) None [])).
-Eval vm_compute in ("<<<M1291>>>" ++ check (runes_of_ascii "packet asx
-{// c
-@calculatedFrom(
-""\" ++ [233]%N ++ runes_of_ascii """ )
-crc
-    { int8 zchar @calculatedFrom(""" ++ [128512]%N ++ runes_of_ascii """ )
-,
-    } // trailing space 
-, roots@lengthOf( // a // b
-metadata )`` ,
-@calculatedFrom(
-""1"" //
-)@lengthOf(
-    matchKey) //	t
-@calculatedFrom( """ ++ [233]%N ++ runes_of_ascii "t" ++ [233]%N ++ runes_of_ascii """ )
-    // packet A { u8 x, }
-    u Header	, u128 ,	match _x as
-    msg_type{ 1 :
-    BodyLength	,42
-    : packetx	, //	t
-[ ""{,}"" ] :// c
-chars , //
-[ ""`tick`"" ,	0 ,
-    """ ++ [233]%N ++ runes_of_ascii "t" ++ [233]%N ++ runes_of_ascii """ ,
-// a // b
-// " ++ [27880; 37322]%N ++ runes_of_ascii "
-65535
-//
-// trailing space 
-, ""packet"", ""{,}"" ] : chars ,	3
-/// triple
-// @lengthOf(
-: packetx ,	7
-//
-// packet A { u8 x, }
-:crc , } , @lengthOf(
-    len )repeatCount { zchar[ 65535
-    ] x_y_z
-,	} , f32a
-    @lengthOf( body  )
-    ,  } //x")).
-Eval vm_compute in ("<<<M1323>>>" ++ check (runes_of_ascii "options //
-{} packet	tag //	t
-{ u64
-u @lengthOf(u128 ) , char[]Pad
-    // a // b
-    @lengthOf( crc) ,
-    i32 options1@lengthOf(msg_type// c
-) ,} options {
-    }")).
-Eval vm_compute in ("<<<M1355>>>" ++ check (runes_of_ascii "MetaData packetx	{
-    MetaDataX zchar , calculatedFrom i64_ ,char[] BodyLength , zchar[ 4294967296 // packet A { u8 x, }
-] MetaDataX``
-, int BodyLength `
-`, i64 i64_ , }
+{ @rightPad (
+' ')u32 a1, u8x
+@lengthOf( crc ) , }")).
+Eval vm_compute in ("<<<M715>>>" ++ check (runes_of_ascii "
 options
-    { u8x= u32 ; } MetaData rootA{
-zchar[ 4294967296 ] roots
-`doc` ,
-char[ 0123456789 ]
-    // a // b
-    uint8x `" ++ [233]%N ++ runes_of_ascii "`
-    , Z9_ len	`u8 x,`	, }
-")).
-Eval vm_compute in ("<<<M1387>>>" ++ check (runes_of_ascii "MetaData stringy
-    // trailing space 
-    {  char[
-42 ]
-leftPad `tab	here` ,_x pack, char  zchar `// not a comment` ,	u8x repeatCount
-    `say ""hi""`
-,
-    // `tick` ""quote"" 'q'
-    pack uint8x `a\`  ,}
-")).
-Eval vm_compute in ("<<<M1419>>>" ++ check (runes_of_ascii "packet
-    Foo{@calculatedFrom(
-""" ++ [233]%N ++ runes_of_ascii "t" ++ [233]%N ++ runes_of_ascii """ )
-repeatCount stringy, u32 u8x	@calculatedFrom(  ""{,}""
-)
-    `
-`
-    // " ++ [27880; 37322]%N ++ runes_of_ascii "
-    ,
-    repeat	float64 Foo
-,
-char[]T
-    `{ , }` , } packet // a // b
-f32a	{@tag(
-    // a // b
-    007) uint64
-    falsey,
-}
-MetaData Foo{
-u16
-T ,
-crc tag ,A
-    falsey	`tab	here`,	}
-")).
-Eval vm_compute in ("<<<M1451>>>" ++ check (runes_of_ascii "// packet A { u8 x, }
- 	 ")).
-Eval vm_compute in ("<<<M1483>>>" ++ check (runes_of_ascii "packet
-x	{ As { a1
-{ char[
-65535 ]
-// " ++ [27880; 37322]%N ++ runes_of_ascii "
-/// triple
-crc `` ,	msg_type ,} , } , repeat Z9_ {
-    T ,	pack ,	repeat tag  A, int64/// triple
-f32a`u8 x,` ,	}
-,
-} 	 ")).
-Eval vm_compute in ("<<<T1483>>>" ++ terms [mkTok 35 "packet" 1 0 false; mkTok 42 "x" 2 0 false; mkTok 2 "{" 2 2 false; mkTok 42 "As" 2 4 false; mkTok 2 "{" 2 7 false; mkTok 42 "a1" 2 9 false; mkTok 2 "{" 3 0 false; mkTok 12 "char[" 3 2 false; mkTok 30 "65535" 4 0 false; mkTok 13 "]" 4 6 false; mkTok 44 (string_of_bytes [47; 47; 32; 230; 179; 168; 233; 135; 138]%N) 5 0 true; mkTok 44 "/// triple" 6 0 true; mkTok 42 "crc" 7 0 false; mkTok 43 "``" 7 4 false; mkTok 40 "," 7 7 false; mkTok 42 "msg_type" 7 9 false; mkTok 40 "," 7 18 false; mkTok 3 "}" 7 19 false; mkTok 40 "," 7 21 false; mkTok 3 "}" 7 23 false; mkTok 40 "," 7 25 false; mkTok 36 "repeat" 7 27 false; mkTok 42 "Z9_" 7 34 false; mkTok 2 "{" 7 38 false; mkTok 42 "T" 8 4 false; mkTok 40 "," 8 6 false; mkTok 42 "pack" 8 8 false; mkTok 40 "," 8 13 false; mkTok 36 "repeat" 8 15 false; mkTok 42 "tag" 8 22 false; mkTok 42 "A" 8 27 false; mkTok 40 "," 8 28 false; mkTok 27 "int64" 8 30 false; mkTok 44 "/// triple" 8 35 true; mkTok 42 "f32a" 9 0 false; mkTok 43 "`u8 x,`" 9 4 false; mkTok 40 "," 9 12 false; mkTok 3 "}" 9 14 false; mkTok 40 "," 10 0 false; mkTok 3 "}" 11 0 false; mkTok 0 "<EOF>" 11 4 false] (mkPacket (mkPtok 35 "packet" 1 0 0) (Some (mkPtok 3 "}" 11 0 39)) [(DPacket (mkPacketDef (mkSpan (mkPtok 35 "packet" 1 0 0) (mkPtok 3 "}" 11 0 39)) None (mkPtok 35 "packet" 1 0 0) (mkPtok 42 "x" 2 0 1) (mkPtok 2 "{" 2 2 2) [(mkFieldWithAttr (mkSpan (mkPtok 42 "As" 2 4 3) (mkPtok 40 "," 7 25 20)) [] (InerObjectField (mkSpan (mkPtok 42 "As" 2 4 3) (mkPtok 40 "," 7 25 20)) None (InerObjectDecl (mkSpan (mkPtok 42 "As" 2 4 3) (mkPtok 3 "}" 7 23 19)) (mkPtok 42 "As" 2 4 3) (mkPtok 2 "{" 2 7 4) [(InerObjectField (mkSpan (mkPtok 42 "a1" 2 9 5) (mkPtok 40 "," 7 21 18)) None (InerObjectDecl (mkSpan (mkPtok 42 "a1" 2 9 5) (mkPtok 3 "}" 7 19 17)) (mkPtok 42 "a1" 2 9 5) (mkPtok 2 "{" 3 0 6) [(MetaField (mkSpan (mkPtok 12 "char[" 3 2 7) (mkPtok 40 "," 7 7 14)) None (mkMetaDecl (mkSpan (mkPtok 12 "char[" 3 2 7) (mkPtok 40 "," 7 7 14)) (TyFixed (mkSpan (mkPtok 12 "char[" 3 2 7) (mkPtok 13 "]" 4 6 9)) (mkFixedString (mkSpan (mkPtok 12 "char[" 3 2 7) (mkPtok 13 "]" 4 6 9)) (mkPtok 12 "char[" 3 2 7) (mkPtok 30 "65535" 4 0 8) (mkPtok 13 "]" 4 6 9))) (mkPtok 42 "crc" 7 0 12) (Some (mkPtok 43 "``" 7 4 13)) (mkPtok 40 "," 7 7 14))); (ObjectField (mkSpan (mkPtok 42 "msg_type" 7 9 15) (mkPtok 40 "," 7 18 16)) None (mkPtok 42 "msg_type" 7 9 15) None None (mkPtok 40 "," 7 18 16))] (mkPtok 3 "}" 7 19 17)) (mkPtok 40 "," 7 21 18))] (mkPtok 3 "}" 7 23 19)) (mkPtok 40 "," 7 25 20))); (mkFieldWithAttr (mkSpan (mkPtok 36 "repeat" 7 27 21) (mkPtok 40 "," 10 0 38)) [] (InerObjectField (mkSpan (mkPtok 36 "repeat" 7 27 21) (mkPtok 40 "," 10 0 38)) (Some (mkPtok 36 "repeat" 7 27 21)) (InerObjectDecl (mkSpan (mkPtok 42 "Z9_" 7 34 22) (mkPtok 3 "}" 9 14 37)) (mkPtok 42 "Z9_" 7 34 22) (mkPtok 2 "{" 7 38 23) [(ObjectField (mkSpan (mkPtok 42 "T" 8 4 24) (mkPtok 40 "," 8 6 25)) None (mkPtok 42 "T" 8 4 24) None None (mkPtok 40 "," 8 6 25)); (ObjectField (mkSpan (mkPtok 42 "pack" 8 8 26) (mkPtok 40 "," 8 13 27)) None (mkPtok 42 "pack" 8 8 26) None None (mkPtok 40 "," 8 13 27)); (ObjectField (mkSpan (mkPtok 36 "repeat" 8 15 28) (mkPtok 40 "," 8 28 31)) (Some (mkPtok 36 "repeat" 8 15 28)) (mkPtok 42 "tag" 8 22 29) (Some (mkPtok 42 "A" 8 27 30)) None (mkPtok 40 "," 8 28 31)); (MetaField (mkSpan (mkPtok 27 "int64" 8 30 32) (mkPtok 40 "," 9 12 36)) None (mkMetaDecl (mkSpan (mkPtok 27 "int64" 8 30 32) (mkPtok 40 "," 9 12 36)) (TyBasic (mkSpan (mkPtok 27 "int64" 8 30 32) (mkPtok 27 "int64" 8 30 32)) (mkBasicType (mkSpan (mkPtok 27 "int64" 8 30 32) (mkPtok 27 "int64" 8 30 32)) (mkPtok 27 "int64" 8 30 32))) (mkPtok 42 "f32a" 9 0 34) (Some (mkPtok 43 "`u8 x,`" 9 4 35)) (mkPtok 40 "," 9 12 36)))] (mkPtok 3 "}" 9 14 37)) (mkPtok 40 "," 10 0 38)))] (mkPtok 3 "}" 11 0 39)))])).
-Eval vm_compute in ("<<<M1515>>>" ++ check (runes_of_ascii "root
-    packet	tag { string charz
-, }
-")).
-Eval vm_compute in ("<<<M1547>>>" ++ check (runes_of_ascii "
-")).
-Eval vm_compute in ("<<<M1579>>>" ++ check (runes_of_ascii "MetaData Logon
-//
-// " ++ [27880; 37322]%N ++ runes_of_ascii "
-{ rootA	metadata , char[1 ] rootA	`tab	here`, matchKey
-// packet A { u8 x, }
-//x
-roots `crlf
-line`, //	t
-char[]  matchKey,
-} packet
-float	{ @calculatedFrom( ""abc""
-)// trailing space 
-@tag(  65535
-)
-char Packet
-@calculatedFrom(
-// @lengthOf(
-// a // b
-""a\""b"" )
-    ,
-    msg_type
-,  f32 metadata @calculatedFrom(""" ++ [233]%N ++ runes_of_ascii "t" ++ [233]%N ++ runes_of_ascii """ ) , } // packet A { u8 x, }")).
-Eval vm_compute in ("<<<M1611>>>" ++ check (runes_of_ascii "MetaData x {zchar[
-10 ]As ,u32 x ,char[ 0
-    ]o // c
-`it's`
-    // c
-    ,
-char[65535 ]	metadata ,// @lengthOf(
-} // packet A { u8 x, }")).
-Eval vm_compute in ("<<<M1643>>>" ++ check (runes_of_ascii "packet msg_type
-{ // a // b
-As As `line1
-line2`, }  packet metadata { Pad
-`tab	here`, float32 a1 , zchar[ 0
-    ]
-matchKey @lengthOf( matchKey
-// @lengthOf(
-// trailing space 
-)
-, }
-packet int { }
-")).
-Eval vm_compute in ("<<<M1675>>>" ++ check (runes_of_ascii "options { u
-    =
-false zchar = ""CRC32""	; falsey
-    = int32	}
-MetaData T { } options
-    // @lengthOf(
-    {pack= float32
-;
-    //x
-    }")).
-Eval vm_compute in ("<<<M1707>>>" ++ check (runes_of_ascii "
-root packet Logon {string
-    // @lengthOf(
-    Logon ,
-    } MetaData lengthOf
-    //x
-    { int32 As `tab	here` ,
-A o ,
-    // `tick` ""quote"" 'q'
-    i64
-i8i8 `" ++ [233]%N ++ runes_of_ascii "`	, char[]	int, u32
-u128 , }")).
-Eval vm_compute in ("<<<T1707>>>" ++ terms [mkTok 34 "root" 2 0 false; mkTok 35 "packet" 2 5 false; mkTok 42 "Logon" 2 12 false; mkTok 2 "{" 2 18 false; mkTok 15 "string" 2 19 false; mkTok 44 "// @lengthOf(" 3 4 true; mkTok 42 "Logon" 4 4 false; mkTok 40 "," 4 10 false; mkTok 3 "}" 5 4 false; mkTok 37 "MetaData" 5 6 false; mkTok 42 "lengthOf" 5 15 false; mkTok 44 "//x" 6 4 true; mkTok 2 "{" 7 4 false; mkTok 26 "int32" 7 6 false; mkTok 42 "As" 7 12 false; mkTok 43 (string_of_bytes [96; 116; 97; 98; 9; 104; 101; 114; 101; 96]%N) 7 15 false; mkTok 40 "," 7 26 false; mkTok 42 "A" 8 0 false; mkTok 42 "o" 8 2 false; mkTok 40 "," 8 4 false; mkTok 44 "// `tick` ""quote"" 'q'" 9 4 true; mkTok 27 "i64" 10 4 false; mkTok 42 "i8i8" 11 0 false; mkTok 43 (string_of_bytes [96; 195; 169; 96]%N) 11 5 false; mkTok 40 "," 11 9 false; mkTok 16 "char[]" 11 11 false; mkTok 42 "int" 11 18 false; mkTok 40 "," 11 21 false; mkTok 22 "u32" 11 23 false; mkTok 42 "u128" 12 0 false; mkTok 40 "," 12 5 false; mkTok 3 "}" 12 7 false; mkTok 0 "<EOF>" 12 8 false] (mkPacket (mkPtok 34 "root" 2 0 0) (Some (mkPtok 3 "}" 12 7 31)) [(DPacket (mkPacketDef (mkSpan (mkPtok 34 "root" 2 0 0) (mkPtok 3 "}" 5 4 8)) (Some (mkPtok 34 "root" 2 0 0)) (mkPtok 35 "packet" 2 5 1) (mkPtok 42 "Logon" 2 12 2) (mkPtok 2 "{" 2 18 3) [(mkFieldWithAttr (mkSpan (mkPtok 15 "string" 2 19 4) (mkPtok 40 "," 4 10 7)) [] (MetaField (mkSpan (mkPtok 15 "string" 2 19 4) (mkPtok 40 "," 4 10 7)) None (mkMetaDecl (mkSpan (mkPtok 15 "string" 2 19 4) (mkPtok 40 "," 4 10 7)) (TyDynamic (mkSpan (mkPtok 15 "string" 2 19 4) (mkPtok 15 "string" 2 19 4)) (mkDynamicString (mkSpan (mkPtok 15 "string" 2 19 4) (mkPtok 15 "string" 2 19 4)) (mkPtok 15 "string" 2 19 4))) (mkPtok 42 "Logon" 4 4 6) None (mkPtok 40 "," 4 10 7))))] (mkPtok 3 "}" 5 4 8))); (DMeta (mkMetaDef (mkSpan (mkPtok 37 "MetaData" 5 6 9) (mkPtok 3 "}" 12 7 31)) (mkPtok 37 "MetaData" 5 6 9) (mkPtok 42 "lengthOf" 5 15 10) (mkPtok 2 "{" 7 4 12) [(MIDecl (mkMetaDecl (mkSpan (mkPtok 26 "int32" 7 6 13) (mkPtok 40 "," 7 26 16)) (TyBasic (mkSpan (mkPtok 26 "int32" 7 6 13) (mkPtok 26 "int32" 7 6 13)) (mkBasicType (mkSpan (mkPtok 26 "int32" 7 6 13) (mkPtok 26 "int32" 7 6 13)) (mkPtok 26 "int32" 7 6 13))) (mkPtok 42 "As" 7 12 14) (Some (mkPtok 43 (string_of_bytes [96; 116; 97; 98; 9; 104; 101; 114; 101; 96]%N) 7 15 15)) (mkPtok 40 "," 7 26 16))); (MIRef (mkRefMetaDecl (mkSpan (mkPtok 42 "A" 8 0 17) (mkPtok 40 "," 8 4 19)) (mkPtok 42 "A" 8 0 17) (mkPtok 42 "o" 8 2 18) None (mkPtok 40 "," 8 4 19))); (MIDecl (mkMetaDecl (mkSpan (mkPtok 27 "i64" 10 4 21) (mkPtok 40 "," 11 9 24)) (TyBasic (mkSpan (mkPtok 27 "i64" 10 4 21) (mkPtok 27 "i64" 10 4 21)) (mkBasicType (mkSpan (mkPtok 27 "i64" 10 4 21) (mkPtok 27 "i64" 10 4 21)) (mkPtok 27 "i64" 10 4 21))) (mkPtok 42 "i8i8" 11 0 22) (Some (mkPtok 43 (string_of_bytes [96; 195; 169; 96]%N) 11 5 23)) (mkPtok 40 "," 11 9 24))); (MIDecl (mkMetaDecl (mkSpan (mkPtok 16 "char[]" 11 11 25) (mkPtok 40 "," 11 21 27)) (TyDynamic (mkSpan (mkPtok 16 "char[]" 11 11 25) (mkPtok 16 "char[]" 11 11 25)) (mkDynamicString (mkSpan (mkPtok 16 "char[]" 11 11 25) (mkPtok 16 "char[]" 11 11 25)) (mkPtok 16 "char[]" 11 11 25))) (mkPtok 42 "int" 11 18 26) None (mkPtok 40 "," 11 21 27))); (MIDecl (mkMetaDecl (mkSpan (mkPtok 22 "u32" 11 23 28) (mkPtok 40 "," 12 5 30)) (TyBasic (mkSpan (mkPtok 22 "u32" 11 23 28) (mkPtok 22 "u32" 11 23 28)) (mkBasicType (mkSpan (mkPtok 22 "u32" 11 23 28) (mkPtok 22 "u32" 11 23 28)) (mkPtok 22 "u32" 11 23 28))) (mkPtok 42 "u128" 12 0 29) None (mkPtok 40 "," 12 5 30)))] (mkPtok 3 "}" 12 7 31)))])).
-Eval vm_compute in ("<<<M1739>>>" ++ check (runes_of_ascii "/// triple
-packet Z9_ {
-}
-options // " ++ [128512]%N ++ runes_of_ascii " emoji
-{
-    string_// @lengthOf(
-=
-    ""abc""
-    Foo= //x
-u64; repeatCount  =""CRC32"" ;} options { //	t
-len =""{,}"";
-    roots	= """ ++ [28040; 24687]%N ++ runes_of_ascii """; // " ++ [128512]%N ++ runes_of_ascii " emoji
-} // " ++ [128512]%N ++ runes_of_ascii " emoji
-options	{string_ =
-zchar[
-65535];// trailing space 
-i8i8
-    = 4294967296 ; }")).
-Eval vm_compute in ("<<<M1771>>>" ++ check (runes_of_ascii "
-options { roots = u64	;
-uint8x= 65535
-    packetx = 1 ; }packet
-    repeatCount { match len
-// `tick` ""quote"" 'q'
-// `tick` ""quote"" 'q'
-as
-Packet{[ """"
-    , 3
-    ,0123456789 ,
-0123456789 ,7 , ""\n"" ]: charz ,
-    65535 : trueish
-""// no comment"" :	zchar
-    , ""\n"" : string_ , },
-    }packet repeatCount {
-    @rightPad( ' ' )
-zchar len ``	, metadata
-msg_type
-    `a\`  , }
-
-")).
-Eval vm_compute in ("<<<M1803>>>" ++ check (runes_of_ascii "root packet
-pack {
-@calculatedFrom( """" ) stringy @lengthOf( body ),
-char[
-    3
-    //x
-    ]
-    lengthOf ,
-@leftPad ( '\x00' )match
-BodyLength as Header { /// triple
-""abc""  : packetx
-,""`tick`"": calculatedFrom/// triple
-, 4294967296
-    : asx , }
-    , } packet leftPad { }
-")).
-Eval vm_compute in ("<<<M1835>>>" ++ check (runes_of_ascii "packet Logon { match f32a as u128 {	65535 : leftPad ,	[ ""it's"" , 65535 ,
-    42 , 0 ,4294967296
-, ""\" ++ [233]%N ++ runes_of_ascii """ ]// `tick` ""quote"" 'q'
-: u8x ,	""1"" // " ++ [27880; 37322]%N ++ runes_of_ascii "
-:/// triple
-packetx } ,@leftPad
-( )
-repeat lengthOf a1 //	t
-, }
-    root packet _x{ } packet roots { @calculatedFrom(
-""a	b""
-) @leftPad ( ) @calculatedFrom( ""packet"" ) packetx ,	repeat trueish
-{
-u32 chars/// triple
-@calculatedFrom( ""a\\"" ) // " ++ [128512]%N ++ runes_of_ascii " emoji
-,
-    float32	MetaDataX
-@lengthOf(//x
-options1 )
-,// a // b
-charz @calculatedFrom( ""1""
-    ) , } ,
-match
-leftPad as
-    // trailing space 
-    BodyLength{ [
-    //x
-    ""packet"" , 10
-    ,
-""`tick`"" //
-,""x y"" , 007 ] : pack, 0123456789
-    //x
-    : a1
-    ,0123456789// trailing space 
-:
-    charz // packet A { u8 x, }
-[""`tick`""]
-    : packetx
-, /// triple
-}, @calculatedFrom(""it's"" // c
-) @rightPad
-(
-'0' )@lengthOf( x ) zchar @calculatedFrom( ""{,}""
-    ) `" ++ [28040; 24687; 31867; 22411]%N ++ runes_of_ascii "`
-,
-    Logon@lengthOf(
-    body )
-, }options { a1 = char[ 0 ] pack =
-    int64
-    ; Logon = ' ' _x
-= uint16 ; // `tick` ""quote"" 'q'
-} root
-// a // b
-// " ++ [27880; 37322]%N ++ runes_of_ascii "
-packet Header {@leftPad ( )
-matchKey
-,	A  @calculatedFrom( ""// no comment""
-)  , charz	{  string Z9_ `" ++ [28040; 24687; 31867; 22411]%N ++ runes_of_ascii "` , repeat Pad // " ++ [27880; 37322]%N ++ runes_of_ascii "
-{asx
-`{ , }` , uint64 BodyLength
-`
-` , repeat
-    zchar[	1 ] msg_type  , i64
-i64_ `line1
-line2` ,
-    } , }  , _x ,
-    string
-    Header, repeat char[42 ] trueish ``, @rightPad ( )
-    @leftPad(
-    // c
-    '0')
-    repeat u32
-    // a // b
-    i64_, i64_ {match
-    //
-    u128 as i8i8
-    // " ++ [27880; 37322]%N ++ runes_of_ascii "
-    { 4294967296 :
-falsey } , }, zchar[7]
-_x `say ""hi""` , // @lengthOf(
-crc@calculatedFrom(""abc"" ), }
-")).
-Eval vm_compute in ("<<<M1867>>>" ++ check (runes_of_ascii "// packet A { u8 x, }
-root packet zchar {@leftPad (	' ' )@tag( 3 )
-@lengthOf( T // " ++ [128512]%N ++ runes_of_ascii " emoji
-) Pad @lengthOf(o )
-    , @lengthOf( len // a // b
-) @calculatedFrom( // c
-""x y""//
-) int64 stringy , @tag( 007 ) @calculatedFrom(""a	b"" ) repeatCount{ _x, }
-    ,	f64 i64_
-    @lengthOf(
+    {
 options1
+=false ; x_y_z =
+""abc"";A =  ""packet""
+    trueish = // " ++ [128512]%N ++ runes_of_ascii " emoji
+42
+    ; } options // " ++ [27880; 37322]%N ++ runes_of_ascii "
+{ rootA = true }MetaData i64_{ string
+uint8x ,}")).
+Eval vm_compute in ("<<<M747>>>" ++ check (runes_of_ascii "options{
+u8x =
+int8 ;
+    Pad =int16; falsey
+    = true ; }  root packet trueish {@lengthOf(pack
 )
+int64
+u @calculatedFrom(
+    //
+    ""CRC32""	)
+    , }
+MetaData // c
+chars { msg_type asx //
+`{ , }`, roots Logon`" ++ [233]%N ++ runes_of_ascii "` ,	char[] string_`doc`  ,roots  pack `
+`
     ,
-lengthOf
-    T
-, @leftPad ( ' ' )
-char
-chars`
-` ,} MetaData //
-A { Header i64_ `tab	here`	,
-    } packet _x  { @calculatedFrom( ""abc"" )match BodyLength
-as matchKey {
-10  :	tag , [ 1, 00 ,10,
+// packet A { u8 x, }
+// packet A { u8 x, }
+Packet crc ,
+Foo i64_ , }")).
+Eval vm_compute in ("<<<M779>>>" ++ check (runes_of_ascii "root
+packet tag { } // " ++ [128512]%N ++ runes_of_ascii " emoji")).
+Eval vm_compute in ("<<<M811>>>" ++ check (runes_of_ascii "packet zchar{
+    char[
+7] i64_ `tab	here`,
+    @lengthOf(	u128
+    )
     // " ++ [27880; 37322]%N ++ runes_of_ascii "
-    42 , ""1"" ] : x
-    , ""a\\"" :  crc
-    , [ ""1""
-// " ++ [128512]%N ++ runes_of_ascii " emoji
-// `tick` ""quote"" 'q'
-, ""packet"", 10 , """ ++ [28040; 24687]%N ++ runes_of_ascii """
-, // a // b
-4294967296, 0123456789 ,
-    ""abc"" ,
-    007  ]: rootA  , [0123456789 ,
-    0 ,4294967296 ] :Packet , } ,
-} packet
-    options1 {
-    @leftPad
-    ( ' '  )
-@leftPad
-    //	t
-    ( '\x00' ) @lengthOf(repeatCount ) chars
-Z9_	, i64_{
-repeat
-uint8
-options1  , } , @calculatedFrom( ""packet""
-)falsey
-len ,zchar[00 ]
-    i8i8 /// triple
-, @lengthOf(msg_type// c
-) zchar[ 00] u@lengthOf( i64_
-    ) , @tag(
-    1 )@tag(
-7 ) u32	i8i8 `" ++ [28040; 24687; 31867; 22411]%N ++ runes_of_ascii "` , }
-")).
-Eval vm_compute in ("<<<M1899>>>" ++ check (runes_of_ascii "
-packet //
-u128 {} packet zchar	{ u8 A
-``
-, // c
-u @calculatedFrom( ""\" ++ [233]%N ++ runes_of_ascii """	), @calculatedFrom(""x y"" ) repeat T i64_, } root packet int {	T  `tab	here` , } // c")).
-Eval vm_compute in ("<<<M1931>>>" ++ check (runes_of_ascii "packet
-lengthOf {@calculatedFrom(  """ ++ [233]%N ++ runes_of_ascii "t" ++ [233]%N ++ runes_of_ascii """	)Foo	u8x ,
     @calculatedFrom(
-""1""
-    ) // c
-char[ 1  ]
-    u128 , u16	string_ `a\` , @calculatedFrom( ""packet"" ) Pad ,
-    falsey , lengthOf@calculatedFrom(""CRC32"" )
-,} root packet
-crc{ // " ++ [27880; 37322]%N ++ runes_of_ascii "
-repeatCount , Z9_ { int64
-    calculatedFrom
-// a // b
-// " ++ [27880; 37322]%N ++ runes_of_ascii "
-,
-}  ,
-} options{	body=
-//
+// packet A { u8 x, }
 //x
-' ' ; Header =
-false options1 = 3; }packet a1 {// `tick` ""quote"" 'q'
-repeat char[ 00
-] T `it's` ,
-}
-MetaData
-A
-{ matchKey int ,
-    }
-")).
-Eval vm_compute in ("<<<T1931>>>" ++ terms [mkTok 35 "packet" 1 0 false; mkTok 42 "lengthOf" 2 0 false; mkTok 2 "{" 2 9 false; mkTok 5 "@calculatedFrom(" 2 10 false; mkTok 31 (string_of_bytes [34; 195; 169; 116; 195; 169; 34]%N) 2 28 false; mkTok 6 ")" 2 34 false; mkTok 42 "Foo" 2 35 false; mkTok 42 "u8x" 2 39 false; mkTok 40 "," 2 43 false; mkTok 5 "@calculatedFrom(" 3 4 false; mkTok 31 """1""" 4 0 false; mkTok 6 ")" 5 4 false; mkTok 44 "// c" 5 6 true; mkTok 12 "char[" 6 0 false; mkTok 30 "1" 6 6 false; mkTok 13 "]" 6 9 false; mkTok 42 "u128" 7 4 false; mkTok 40 "," 7 9 false; mkTok 21 "u16" 7 11 false; mkTok 42 "string_" 7 15 false; mkTok 43 "`a\`" 7 23 false; mkTok 40 "," 7 28 false; mkTok 5 "@calculatedFrom(" 7 30 false; mkTok 31 """packet""" 7 47 false; mkTok 6 ")" 7 56 false; mkTok 42 "Pad" 7 58 false; mkTok 40 "," 7 62 false; mkTok 42 "falsey" 8 4 false; mkTok 40 "," 8 11 false; mkTok 42 "lengthOf" 8 13 false; mkTok 5 "@calculatedFrom(" 8 21 false; mkTok 31 """CRC32""" 8 37 false; mkTok 6 ")" 8 45 false; mkTok 40 "," 9 0 false; mkTok 3 "}" 9 1 false; mkTok 34 "root" 9 3 false; mkTok 35 "packet" 9 8 false; mkTok 42 "crc" 10 0 false; mkTok 2 "{" 10 3 false; mkTok 44 (string_of_bytes [47; 47; 32; 230; 179; 168; 233; 135; 138]%N) 10 5 true; mkTok 42 "repeatCount" 11 0 false; mkTok 40 "," 11 12 false; mkTok 42 "Z9_" 11 14 false; mkTok 2 "{" 11 18 false; mkTok 27 "int64" 11 20 false; mkTok 42 "calculatedFrom" 12 4 false; mkTok 44 "// a // b" 13 0 true; mkTok 44 (string_of_bytes [47; 47; 32; 230; 179; 168; 233; 135; 138]%N) 14 0 true; mkTok 40 "," 15 0 false; mkTok 3 "}" 16 0 false; mkTok 40 "," 16 3 false; mkTok 3 "}" 17 0 false; mkTok 1 "options" 17 2 false; mkTok 2 "{" 17 9 false; mkTok 42 "body" 17 11 false; mkTok 4 "=" 17 15 false; mkTok 44 "//" 18 0 true; mkTok 44 "//x" 19 0 true; mkTok 33 "' '" 20 0 false; mkTok 41 ";" 20 4 false; mkTok 42 "Header" 20 6 false; mkTok 4 "=" 20 13 false; mkTok 11 "false" 21 0 false; mkTok 42 "options1" 21 6 false; mkTok 4 "=" 21 15 false; mkTok 30 "3" 21 17 false; mkTok 41 ";" 21 18 false; mkTok 3 "}" 21 20 false; mkTok 35 "packet" 21 21 false; mkTok 42 "a1" 21 28 false; mkTok 2 "{" 21 31 false; mkTok 44 "// `tick` ""quote"" 'q'" 21 32 true; mkTok 36 "repeat" 22 0 false; mkTok 12 "char[" 22 7 false; mkTok 30 "00" 22 13 false; mkTok 13 "]" 23 0 false; mkTok 42 "T" 23 2 false; mkTok 43 "`it's`" 23 4 false; mkTok 40 "," 23 11 false; mkTok 3 "}" 24 0 false; mkTok 37 "MetaData" 25 0 false; mkTok 42 "A" 26 0 false; mkTok 2 "{" 27 0 false; mkTok 42 "matchKey" 27 2 false; mkTok 42 "int" 27 11 false; mkTok 40 "," 27 15 false; mkTok 3 "}" 28 4 false; mkTok 0 "<EOF>" 29 0 false] (mkPacket (mkPtok 35 "packet" 1 0 0) (Some (mkPtok 3 "}" 28 4 86)) [(DPacket (mkPacketDef (mkSpan (mkPtok 35 "packet" 1 0 0) (mkPtok 3 "}" 9 1 34)) None (mkPtok 35 "packet" 1 0 0) (mkPtok 42 "lengthOf" 2 0 1) (mkPtok 2 "{" 2 9 2) [(mkFieldWithAttr (mkSpan (mkPtok 5 "@calculatedFrom(" 2 10 3) (mkPtok 40 "," 2 43 8)) [(FACalculatedFrom (mkSpan (mkPtok 5 "@calculatedFrom(" 2 10 3) (mkPtok 6 ")" 2 34 5)) (mkCalculatedFrom (mkSpan (mkPtok 5 "@calculatedFrom(" 2 10 3) (mkPtok 6 ")" 2 34 5)) (mkPtok 5 "@calculatedFrom(" 2 10 3) (mkPtok 31 (string_of_bytes [34; 195; 169; 116; 195; 169; 34]%N) 2 28 4) (mkPtok 6 ")" 2 34 5)))] (ObjectField (mkSpan (mkPtok 42 "Foo" 2 35 6) (mkPtok 40 "," 2 43 8)) None (mkPtok 42 "Foo" 2 35 6) (Some (mkPtok 42 "u8x" 2 39 7)) None (mkPtok 40 "," 2 43 8))); (mkFieldWithAttr (mkSpan (mkPtok 5 "@calculatedFrom(" 3 4 9) (mkPtok 40 "," 7 9 17)) [(FACalculatedFrom (mkSpan (mkPtok 5 "@calculatedFrom(" 3 4 9) (mkPtok 6 ")" 5 4 11)) (mkCalculatedFrom (mkSpan (mkPtok 5 "@calculatedFrom(" 3 4 9) (mkPtok 6 ")" 5 4 11)) (mkPtok 5 "@calculatedFrom(" 3 4 9) (mkPtok 31 """1""" 4 0 10) (mkPtok 6 ")" 5 4 11)))] (MetaField (mkSpan (mkPtok 12 "char[" 6 0 13) (mkPtok 40 "," 7 9 17)) None (mkMetaDecl (mkSpan (mkPtok 12 "char[" 6 0 13) (mkPtok 40 "," 7 9 17)) (TyFixed (mkSpan (mkPtok 12 "char[" 6 0 13) (mkPtok 13 "]" 6 9 15)) (mkFixedString (mkSpan (mkPtok 12 "char[" 6 0 13) (mkPtok 13 "]" 6 9 15)) (mkPtok 12 "char[" 6 0 13) (mkPtok 30 "1" 6 6 14) (mkPtok 13 "]" 6 9 15))) (mkPtok 42 "u128" 7 4 16) None (mkPtok 40 "," 7 9 17)))); (mkFieldWithAttr (mkSpan (mkPtok 21 "u16" 7 11 18) (mkPtok 40 "," 7 28 21)) [] (MetaField (mkSpan (mkPtok 21 "u16" 7 11 18) (mkPtok 40 "," 7 28 21)) None (mkMetaDecl (mkSpan (mkPtok 21 "u16" 7 11 18) (mkPtok 40 "," 7 28 21)) (TyBasic (mkSpan (mkPtok 21 "u16" 7 11 18) (mkPtok 21 "u16" 7 11 18)) (mkBasicType (mkSpan (mkPtok 21 "u16" 7 11 18) (mkPtok 21 "u16" 7 11 18)) (mkPtok 21 "u16" 7 11 18))) (mkPtok 42 "string_" 7 15 19) (Some (mkPtok 43 "`a\`" 7 23 20)) (mkPtok 40 "," 7 28 21)))); (mkFieldWithAttr (mkSpan (mkPtok 5 "@calculatedFrom(" 7 30 22) (mkPtok 40 "," 7 62 26)) [(FACalculatedFrom (mkSpan (mkPtok 5 "@calculatedFrom(" 7 30 22) (mkPtok 6 ")" 7 56 24)) (mkCalculatedFrom (mkSpan (mkPtok 5 "@calculatedFrom(" 7 30 22) (mkPtok 6 ")" 7 56 24)) (mkPtok 5 "@calculatedFrom(" 7 30 22) (mkPtok 31 """packet""" 7 47 23) (mkPtok 6 ")" 7 56 24)))] (ObjectField (mkSpan (mkPtok 42 "Pad" 7 58 25) (mkPtok 40 "," 7 62 26)) None (mkPtok 42 "Pad" 7 58 25) None None (mkPtok 40 "," 7 62 26))); (mkFieldWithAttr (mkSpan (mkPtok 42 "falsey" 8 4 27) (mkPtok 40 "," 8 11 28)) [] (ObjectField (mkSpan (mkPtok 42 "falsey" 8 4 27) (mkPtok 40 "," 8 11 28)) None (mkPtok 42 "falsey" 8 4 27) None None (mkPtok 40 "," 8 11 28))); (mkFieldWithAttr (mkSpan (mkPtok 42 "lengthOf" 8 13 29) (mkPtok 40 "," 9 0 33)) [] (CheckSumField (mkSpan (mkPtok 42 "lengthOf" 8 13 29) (mkPtok 40 "," 9 0 33)) (mkChecksumFieldDecl (mkSpan (mkPtok 42 "lengthOf" 8 13 29) (mkPtok 40 "," 9 0 33)) None (mkPtok 42 "lengthOf" 8 13 29) (mkCalculatedFrom (mkSpan (mkPtok 5 "@calculatedFrom(" 8 21 30) (mkPtok 6 ")" 8 45 32)) (mkPtok 5 "@calculatedFrom(" 8 21 30) (mkPtok 31 """CRC32""" 8 37 31) (mkPtok 6 ")" 8 45 32)) None (mkPtok 40 "," 9 0 33))))] (mkPtok 3 "}" 9 1 34))); (DPacket (mkPacketDef (mkSpan (mkPtok 34 "root" 9 3 35) (mkPtok 3 "}" 17 0 51)) (Some (mkPtok 34 "root" 9 3 35)) (mkPtok 35 "packet" 9 8 36) (mkPtok 42 "crc" 10 0 37) (mkPtok 2 "{" 10 3 38) [(mkFieldWithAttr (mkSpan (mkPtok 42 "repeatCount" 11 0 40) (mkPtok 40 "," 11 12 41)) [] (ObjectField (mkSpan (mkPtok 42 "repeatCount" 11 0 40) (mkPtok 40 "," 11 12 41)) None (mkPtok 42 "repeatCount" 11 0 40) None None (mkPtok 40 "," 11 12 41))); (mkFieldWithAttr (mkSpan (mkPtok 42 "Z9_" 11 14 42) (mkPtok 40 "," 16 3 50)) [] (InerObjectField (mkSpan (mkPtok 42 "Z9_" 11 14 42) (mkPtok 40 "," 16 3 50)) None (InerObjectDecl (mkSpan (mkPtok 42 "Z9_" 11 14 42) (mkPtok 3 "}" 16 0 49)) (mkPtok 42 "Z9_" 11 14 42) (mkPtok 2 "{" 11 18 43) [(MetaField (mkSpan (mkPtok 27 "int64" 11 20 44) (mkPtok 40 "," 15 0 48)) None (mkMetaDecl (mkSpan (mkPtok 27 "int64" 11 20 44) (mkPtok 40 "," 15 0 48)) (TyBasic (mkSpan (mkPtok 27 "int64" 11 20 44) (mkPtok 27 "int64" 11 20 44)) (mkBasicType (mkSpan (mkPtok 27 "int64" 11 20 44) (mkPtok 27 "int64" 11 20 44)) (mkPtok 27 "int64" 11 20 44))) (mkPtok 42 "calculatedFrom" 12 4 45) None (mkPtok 40 "," 15 0 48)))] (mkPtok 3 "}" 16 0 49)) (mkPtok 40 "," 16 3 50)))] (mkPtok 3 "}" 17 0 51))); (DOption (mkOptionDef (mkSpan (mkPtok 1 "options" 17 2 52) (mkPtok 3 "}" 21 20 67)) (mkPtok 1 "options" 17 2 52) (mkPtok 2 "{" 17 9 53) [(mkOptionDecl (mkSpan (mkPtok 42 "body" 17 11 54) (mkPtok 41 ";" 20 4 59)) (mkPtok 42 "body" 17 11 54) (mkPtok 4 "=" 17 15 55) (VPaddingChar (mkSpan (mkPtok 33 "' '" 20 0 58) (mkPtok 33 "' '" 20 0 58)) (mkPtok 33 "' '" 20 0 58)) (Some (mkPtok 41 ";" 20 4 59))); (mkOptionDecl (mkSpan (mkPtok 42 "Header" 20 6 60) (mkPtok 11 "false" 21 0 62)) (mkPtok 42 "Header" 20 6 60) (mkPtok 4 "=" 20 13 61) (VFalse (mkSpan (mkPtok 11 "false" 21 0 62) (mkPtok 11 "false" 21 0 62)) (mkPtok 11 "false" 21 0 62)) None); (mkOptionDecl (mkSpan (mkPtok 42 "options1" 21 6 63) (mkPtok 41 ";" 21 18 66)) (mkPtok 42 "options1" 21 6 63) (mkPtok 4 "=" 21 15 64) (VDigits (mkSpan (mkPtok 30 "3" 21 17 65) (mkPtok 30 "3" 21 17 65)) (mkPtok 30 "3" 21 17 65)) (Some (mkPtok 41 ";" 21 18 66)))] (mkPtok 3 "}" 21 20 67))); (DPacket (mkPacketDef (mkSpan (mkPtok 35 "packet" 21 21 68) (mkPtok 3 "}" 24 0 79)) None (mkPtok 35 "packet" 21 21 68) (mkPtok 42 "a1" 21 28 69) (mkPtok 2 "{" 21 31 70) [(mkFieldWithAttr (mkSpan (mkPtok 36 "repeat" 22 0 72) (mkPtok 40 "," 23 11 78)) [] (MetaField (mkSpan (mkPtok 36 "repeat" 22 0 72) (mkPtok 40 "," 23 11 78)) (Some (mkPtok 36 "repeat" 22 0 72)) (mkMetaDecl (mkSpan (mkPtok 12 "char[" 22 7 73) (mkPtok 40 "," 23 11 78)) (TyFixed (mkSpan (mkPtok 12 "char[" 22 7 73) (mkPtok 13 "]" 23 0 75)) (mkFixedString (mkSpan (mkPtok 12 "char[" 22 7 73) (mkPtok 13 "]" 23 0 75)) (mkPtok 12 "char[" 22 7 73) (mkPtok 30 "00" 22 13 74) (mkPtok 13 "]" 23 0 75))) (mkPtok 42 "T" 23 2 76) (Some (mkPtok 43 "`it's`" 23 4 77)) (mkPtok 40 "," 23 11 78))))] (mkPtok 3 "}" 24 0 79))); (DMeta (mkMetaDef (mkSpan (mkPtok 37 "MetaData" 25 0 80) (mkPtok 3 "}" 28 4 86)) (mkPtok 37 "MetaData" 25 0 80) (mkPtok 42 "A" 26 0 81) (mkPtok 2 "{" 27 0 82) [(MIRef (mkRefMetaDecl (mkSpan (mkPtok 42 "matchKey" 27 2 83) (mkPtok 40 "," 27 15 85)) (mkPtok 42 "matchKey" 27 2 83) (mkPtok 42 "int" 27 11 84) None (mkPtok 40 "," 27 15 85)))] (mkPtok 3 "}" 28 4 86)))])).
-Eval vm_compute in ("<<<M1963>>>" ++ check (runes_of_ascii "options
-{Z9_ = 255
-repeatCount  =  0 ;u128 =  u32
-; // `tick` ""quote"" 'q'
-f32a = 00 }
-")).
-Eval vm_compute in ("<<<M1995>>>" ++ check (runes_of_ascii "root packet _x {} root packet chars
-    { repeat Packet /// triple
-MetaDataX`two words` ,} packet// @lengthOf(
-_x {@tag( 0123456789// @lengthOf(
-)@calculatedFrom(
-""\n"" ) @lengthOf( options1 ) roots @lengthOf(
-string_ ) , } /// triple")).
-Eval vm_compute in ("<<<M2027>>>" ++ check (runes_of_ascii "options{ i64_ u64 string ; trueish =
-    '\x00'
-    leftPad = ""a\\"" /// triple
-; crc
-    = 255; uint8x
-=
-""abc""
-    ;}")).
-Eval vm_compute in ("<<<M2059>>>" ++ check (runes_of_ascii "options{ i64_ = string ; trueish =
-    '\x00'
-    leftPad  ""a\\"" /// triple
-; crc
-    = 255; uint8x
-=
-""abc""
-    ;}")).
-Eval vm_compute in ("<<<M2091>>>" ++ check (runes_of_ascii "options{ i64_ = string ; trueish =
-    '\x00'
-    leftPad = ""a\\"" /// triple
-; crc
-    = 255 uint8x ;
-=
-""abc""
-    ;}")).
-Eval vm_compute in ("<<<M2123>>>" ++ check (runes_of_ascii "options{ i64_ = string ; trueish =
-    '\x00'
-    leftPad = ""a\\"" /// triple
-; crc
-    = 255; uint8x
-=
-""abc""
-    ;" ++ [127]%N ++ runes_of_ascii " }")).
-Eval vm_compute in ("<<<M2155>>>" ++ check (runes_of_ascii "  packet
-asx
-{
+""" ++ [233]%N ++ runes_of_ascii "t" ++ [233]%N ++ runes_of_ascii """
+    )
+    @calculatedFrom( """ ++ [233]%N ++ runes_of_ascii "t" ++ [233]%N ++ runes_of_ascii """  )
+    calculatedFrom
+lengthOf `doc`	,char len ,match  int as
+Pad{ ""a\\"" : falsey ,	255 :lengthOf ,},	match
+rootA
+as Foo  { 42 :
+zchar [""`tick`""  ,
+""{,}""
 /// triple
 // @lengthOf(
- stringy
-`" ++ [28040; 24687; 31867; 22411]%N ++ runes_of_ascii "` ,} MetaData
-    A {string  _x, zchar Header `a\`
-// @lengthOf(
-// packet A { u8 x, }
-, char[] MetaDataX
-,zchar[ 1 ]
-    matchKey
-    , char[] //
-u,	char[0123456789 ]
-    matchKey
-    `{ , }`, }
-")).
-Eval vm_compute in ("<<<M2187>>>" ++ check (runes_of_ascii "  packet
-asx
-{
-/// triple
-// @lengthOf(
-u32 stringy
-`" ++ [28040; 24687; 31867; 22411]%N ++ runes_of_ascii "` ,} MetaData
-    { A string  _x, zchar Header `a\`
-// @lengthOf(
-// packet A { u8 x, }
-, char[] MetaDataX
-,zchar[ 1 ]
-    matchKey
-    , char[] //
-u,	char[0123456789 ]
-    matchKey
-    `{ , }`, }
-")).
-Eval vm_compute in ("<<<M2219>>>" ++ check (runes_of_ascii "  packet
-asx
-{
-/// triple
-// @lengthOf(
-u32 stringy
-`" ++ [28040; 24687; 31867; 22411]%N ++ runes_of_ascii "` ,} MetaData
-    A {string  _x, zchar")).
-Eval vm_compute in ("<<<M2251>>>" ++ check (runes_of_ascii "  packet
-asx
-{
-/// triple
-// @lengthOf(
-u32 stringy
-`" ++ [28040; 24687; 31867; 22411]%N ++ runes_of_ascii "` ,} MetaData
-    A {string  _x, zchar Header `a\`
-// @lengthOf(
-// packet A { u8 x, }
-, char[] MetaDataX
-,zchar[ 1 1 ]
-    matchKey
-    , char[] //
-u,	char[0123456789 ]
-    matchKey
-    `{ , }`, }
-")).
-Eval vm_compute in ("<<<M2283>>>" ++ check (runes_of_ascii "  packet
-asx
-{
-/// triple
-// @lengthOf(
-u32 stringy
-`" ++ [28040; 24687; 31867; 22411]%N ++ runes_of_ascii "` ,} MetaData
-    A {string  _x, zchar Header `a\`
-// @lengthOf(
-// packet A { u8 x, }
-, char[] MetaDataX
-,zchar[ 1 ]
-    matchKey
-    , char[] //
-u uint16	char[0123456789 ]
-    matchKey
-    `{ , }`, }
-")).
-Eval vm_compute in ("<<<M2315>>>" ++ check (runes_of_ascii "  packet
-asx
-{
-/// triple
-// @lengthOf(
-u32 stringy
-`" ++ [28040; 24687; 31867; 22411]%N ++ runes_of_ascii "` ,} MetaData
-    A {string  _x, zchar Header `a\`
-// @lengthOf(
-// packet A { u8 x, }
-, char[] MetaDataX
-,zchar[ 1 ]
-    matchKey
-    , char[] //
-u,	char[0123456789 ]
-    matchKey
-    `{ , }`, 
-")).
-Eval vm_compute in ("<<<M2347>>>" ++ check (runes_of_ascii "root
-    packet packet
-Packet
-{ // trailing space 
-matchKey `tab	here` ,}")).
-Eval vm_compute in ("<<<M2379>>>" ++ check (runes_of_ascii "root
-    packet
-Packet
-{ // trailing space 
-matchKey `tab	here` ,")).
-Eval vm_compute in ("<<<M2411>>>" ++ check (runes_of_ascii "options")).
-Eval vm_compute in ("<<<M2443>>>" ++ check (runes_of_ascii "options{ falsey // a // b
-=
-    '0' } options { repeatCount repeatCount =
-true ; string_// a // b
-=
-// c
+] : stringy,}
+    , char[ 00 ] int	@lengthOf( u128 )	,	}
+packet T
+{ @leftPad (
 // " ++ [27880; 37322]%N ++ runes_of_ascii "
-int64
-// trailing space 
-/// triple
-; } // @lengthOf(")).
-Eval vm_compute in ("<<<M2475>>>" ++ check (runes_of_ascii "options{ falsey // a // b
-=
-    '0' } options { repeatCount =
-true ; string_// a // b
-=
-// c
-// " ++ [27880; 37322]%N ++ runes_of_ascii "
-]
-// trailing space 
-/// triple
-; } // @lengthOf(")).
-Eval vm_compute in ("<<<M2507>>>" ++ check (runes_of_ascii "options{ a" ++ [769]%N ++ runes_of_ascii "b // a // b
-=
-    '0' } options { repeatCount =
-true ; string_// a // b
-=
-// c
-// " ++ [27880; 37322]%N ++ runes_of_ascii "
-int64
-// trailing space 
-/// triple
-; } // @lengthOf(")).
-Eval vm_compute in ("<<<M2539>>>" ++ check (runes_of_ascii "options{}root packet
-metadata { {
-@lengthOf(x ) float32
-body ``, }
-    MetaData
-Z9_
-    {
-    string string_ , Logon x
-,
-uint32
-    // packet A { u8 x, }
-    Z9_,asx
-_x
-    `tab	here` , }
+// @lengthOf(
+'0'
+)repeat
+pack , }")).
+Eval vm_compute in ("<<<T811>>>" ++ terms [mkTok 35 "packet" 1 0 false; mkTok 42 "zchar" 1 7 false; mkTok 2 "{" 1 12 false; mkTok 12 "char[" 2 4 false; mkTok 30 "7" 3 0 false; mkTok 13 "]" 3 1 false; mkTok 42 "i64_" 3 3 false; mkTok 43 (string_of_bytes [96; 116; 97; 98; 9; 104; 101; 114; 101; 96]%N) 3 8 false; mkTok 40 "," 3 18 false; mkTok 7 "@lengthOf(" 4 4 false; mkTok 42 "u128" 4 15 false; mkTok 6 ")" 5 4 false; mkTok 44 (string_of_bytes [47; 47; 32; 230; 179; 168; 233; 135; 138]%N) 6 4 true; mkTok 5 "@calculatedFrom(" 7 4 false; mkTok 44 "// packet A { u8 x, }" 8 0 true; mkTok 44 "//x" 9 0 true; mkTok 31 (string_of_bytes [34; 195; 169; 116; 195; 169; 34]%N) 10 0 false; mkTok 6 ")" 11 4 false; mkTok 5 "@calculatedFrom(" 12 4 false; mkTok 31 (string_of_bytes [34; 195; 169; 116; 195; 169; 34]%N) 12 21 false; mkTok 6 ")" 12 28 false; mkTok 42 "calculatedFrom" 13 4 false; mkTok 42 "lengthOf" 14 0 false; mkTok 43 "`doc`" 14 9 false; mkTok 40 "," 14 15 false; mkTok 19 "char" 14 16 false; mkTok 42 "len" 14 21 false; mkTok 40 "," 14 25 false; mkTok 38 "match" 14 26 false; mkTok 42 "int" 14 33 false; mkTok 17 "as" 14 37 false; mkTok 42 "Pad" 15 0 false; mkTok 2 "{" 15 3 false; mkTok 31 """a\\""" 15 5 false; mkTok 39 ":" 15 11 false; mkTok 42 "falsey" 15 13 false; mkTok 40 "," 15 20 false; mkTok 30 "255" 15 22 false; mkTok 39 ":" 15 26 false; mkTok 42 "lengthOf" 15 27 false; mkTok 40 "," 15 36 false; mkTok 3 "}" 15 37 false; mkTok 40 "," 15 38 false; mkTok 38 "match" 15 40 false; mkTok 42 "rootA" 16 0 false; mkTok 17 "as" 17 0 false; mkTok 42 "Foo" 17 3 false; mkTok 2 "{" 17 8 false; mkTok 30 "42" 17 10 false; mkTok 39 ":" 17 13 false; mkTok 42 "zchar" 18 0 false; mkTok 18 "[" 18 6 false; mkTok 31 """`tick`""" 18 7 false; mkTok 40 "," 18 17 false; mkTok 31 """{,}""" 19 0 false; mkTok 44 "/// triple" 20 0 true; mkTok 44 "// @lengthOf(" 21 0 true; mkTok 13 "]" 22 0 false; mkTok 39 ":" 22 2 false; mkTok 42 "stringy" 22 4 false; mkTok 40 "," 22 11 false; mkTok 3 "}" 22 12 false; mkTok 40 "," 23 4 false; mkTok 12 "char[" 23 6 false; mkTok 30 "00" 23 12 false; mkTok 13 "]" 23 15 false; mkTok 42 "int" 23 17 false; mkTok 7 "@lengthOf(" 23 21 false; mkTok 42 "u128" 23 32 false; mkTok 6 ")" 23 37 false; mkTok 40 "," 23 39 false; mkTok 3 "}" 23 41 false; mkTok 35 "packet" 24 0 false; mkTok 42 "T" 24 7 false; mkTok 2 "{" 25 0 false; mkTok 32 "@leftPad" 25 2 false; mkTok 8 "(" 25 11 false; mkTok 44 (string_of_bytes [47; 47; 32; 230; 179; 168; 233; 135; 138]%N) 26 0 true; mkTok 44 "// @lengthOf(" 27 0 true; mkTok 33 "'0'" 28 0 false; mkTok 6 ")" 29 0 false; mkTok 36 "repeat" 29 1 false; mkTok 42 "pack" 30 0 false; mkTok 40 "," 30 5 false; mkTok 3 "}" 30 7 false; mkTok 0 "<EOF>" 30 8 false] (mkPacket (mkPtok 35 "packet" 1 0 0) (Some (mkPtok 3 "}" 30 7 84)) [(DPacket (mkPacketDef (mkSpan (mkPtok 35 "packet" 1 0 0) (mkPtok 3 "}" 23 41 71)) None (mkPtok 35 "packet" 1 0 0) (mkPtok 42 "zchar" 1 7 1) (mkPtok 2 "{" 1 12 2) [(mkFieldWithAttr (mkSpan (mkPtok 12 "char[" 2 4 3) (mkPtok 40 "," 3 18 8)) [] (MetaField (mkSpan (mkPtok 12 "char[" 2 4 3) (mkPtok 40 "," 3 18 8)) None (mkMetaDecl (mkSpan (mkPtok 12 "char[" 2 4 3) (mkPtok 40 "," 3 18 8)) (TyFixed (mkSpan (mkPtok 12 "char[" 2 4 3) (mkPtok 13 "]" 3 1 5)) (mkFixedString (mkSpan (mkPtok 12 "char[" 2 4 3) (mkPtok 13 "]" 3 1 5)) (mkPtok 12 "char[" 2 4 3) (mkPtok 30 "7" 3 0 4) (mkPtok 13 "]" 3 1 5))) (mkPtok 42 "i64_" 3 3 6) (Some (mkPtok 43 (string_of_bytes [96; 116; 97; 98; 9; 104; 101; 114; 101; 96]%N) 3 8 7)) (mkPtok 40 "," 3 18 8)))); (mkFieldWithAttr (mkSpan (mkPtok 7 "@lengthOf(" 4 4 9) (mkPtok 40 "," 14 15 24)) [(FALengthOf (mkSpan (mkPtok 7 "@lengthOf(" 4 4 9) (mkPtok 6 ")" 5 4 11)) (mkLengthOf (mkSpan (mkPtok 7 "@lengthOf(" 4 4 9) (mkPtok 6 ")" 5 4 11)) (mkPtok 7 "@lengthOf(" 4 4 9) (mkPtok 42 "u128" 4 15 10) (mkPtok 6 ")" 5 4 11))); (FACalculatedFrom (mkSpan (mkPtok 5 "@calculatedFrom(" 7 4 13) (mkPtok 6 ")" 11 4 17)) (mkCalculatedFrom (mkSpan (mkPtok 5 "@calculatedFrom(" 7 4 13) (mkPtok 6 ")" 11 4 17)) (mkPtok 5 "@calculatedFrom(" 7 4 13) (mkPtok 31 (string_of_bytes [34; 195; 169; 116; 195; 169; 34]%N) 10 0 16) (mkPtok 6 ")" 11 4 17))); (FACalculatedFrom (mkSpan (mkPtok 5 "@calculatedFrom(" 12 4 18) (mkPtok 6 ")" 12 28 20)) (mkCalculatedFrom (mkSpan (mkPtok 5 "@calculatedFrom(" 12 4 18) (mkPtok 6 ")" 12 28 20)) (mkPtok 5 "@calculatedFrom(" 12 4 18) (mkPtok 31 (string_of_bytes [34; 195; 169; 116; 195; 169; 34]%N) 12 21 19) (mkPtok 6 ")" 12 28 20)))] (ObjectField (mkSpan (mkPtok 42 "calculatedFrom" 13 4 21) (mkPtok 40 "," 14 15 24)) None (mkPtok 42 "calculatedFrom" 13 4 21) (Some (mkPtok 42 "lengthOf" 14 0 22)) (Some (mkPtok 43 "`doc`" 14 9 23)) (mkPtok 40 "," 14 15 24))); (mkFieldWithAttr (mkSpan (mkPtok 19 "char" 14 16 25) (mkPtok 40 "," 14 25 27)) [] (MetaField (mkSpan (mkPtok 19 "char" 14 16 25) (mkPtok 40 "," 14 25 27)) None (mkMetaDecl (mkSpan (mkPtok 19 "char" 14 16 25) (mkPtok 40 "," 14 25 27)) (TyBasic (mkSpan (mkPtok 19 "char" 14 16 25) (mkPtok 19 "char" 14 16 25)) (mkBasicType (mkSpan (mkPtok 19 "char" 14 16 25) (mkPtok 19 "char" 14 16 25)) (mkPtok 19 "char" 14 16 25))) (mkPtok 42 "len" 14 21 26) None (mkPtok 40 "," 14 25 27)))); (mkFieldWithAttr (mkSpan (mkPtok 38 "match" 14 26 28) (mkPtok 40 "," 15 38 42)) [] (MatchField (mkSpan (mkPtok 38 "match" 14 26 28) (mkPtok 40 "," 15 38 42)) (mkMatchFieldDecl (mkSpan (mkPtok 38 "match" 14 26 28) (mkPtok 3 "}" 15 37 41)) (mkPtok 38 "match" 14 26 28) (mkPtok 42 "int" 14 33 29) (mkPtok 17 "as" 14 37 30) (mkPtok 42 "Pad" 15 0 31) (mkPtok 2 "{" 15 3 32) [(mkMatchPair (mkSpan (mkPtok 31 """a\\""" 15 5 33) (mkPtok 40 "," 15 20 36)) (MKString (mkPtok 31 """a\\""" 15 5 33)) (mkPtok 39 ":" 15 11 34) (mkPtok 42 "falsey" 15 13 35) (Some (mkPtok 40 "," 15 20 36))); (mkMatchPair (mkSpan (mkPtok 30 "255" 15 22 37) (mkPtok 40 "," 15 36 40)) (MKDigits (mkPtok 30 "255" 15 22 37)) (mkPtok 39 ":" 15 26 38) (mkPtok 42 "lengthOf" 15 27 39) (Some (mkPtok 40 "," 15 36 40)))] (mkPtok 3 "}" 15 37 41)) (mkPtok 40 "," 15 38 42))); (mkFieldWithAttr (mkSpan (mkPtok 38 "match" 15 40 43) (mkPtok 40 "," 23 4 62)) [] (MatchField (mkSpan (mkPtok 38 "match" 15 40 43) (mkPtok 40 "," 23 4 62)) (mkMatchFieldDecl (mkSpan (mkPtok 38 "match" 15 40 43) (mkPtok 3 "}" 22 12 61)) (mkPtok 38 "match" 15 40 43) (mkPtok 42 "rootA" 16 0 44) (mkPtok 17 "as" 17 0 45) (mkPtok 42 "Foo" 17 3 46) (mkPtok 2 "{" 17 8 47) [(mkMatchPair (mkSpan (mkPtok 30 "42" 17 10 48) (mkPtok 42 "zchar" 18 0 50)) (MKDigits (mkPtok 30 "42" 17 10 48)) (mkPtok 39 ":" 17 13 49) (mkPtok 42 "zchar" 18 0 50) None); (mkMatchPair (mkSpan (mkPtok 18 "[" 18 6 51) (mkPtok 40 "," 22 11 60)) (MKList (mkKeyList (mkSpan (mkPtok 18 "[" 18 6 51) (mkPtok 13 "]" 22 0 57)) (mkPtok 18 "[" 18 6 51) (mkPtok 31 """`tick`""" 18 7 52) [((mkPtok 40 "," 18 17 53), (mkPtok 31 """{,}""" 19 0 54))] (mkPtok 13 "]" 22 0 57))) (mkPtok 39 ":" 22 2 58) (mkPtok 42 "stringy" 22 4 59) (Some (mkPtok 40 "," 22 11 60)))] (mkPtok 3 "}" 22 12 61)) (mkPtok 40 "," 23 4 62))); (mkFieldWithAttr (mkSpan (mkPtok 12 "char[" 23 6 63) (mkPtok 40 "," 23 39 70)) [] (LengthField (mkSpan (mkPtok 12 "char[" 23 6 63) (mkPtok 40 "," 23 39 70)) (mkLengthFieldDecl (mkSpan (mkPtok 12 "char[" 23 6 63) (mkPtok 40 "," 23 39 70)) (Some (TyFixed (mkSpan (mkPtok 12 "char[" 23 6 63) (mkPtok 13 "]" 23 15 65)) (mkFixedString (mkSpan (mkPtok 12 "char[" 23 6 63) (mkPtok 13 "]" 23 15 65)) (mkPtok 12 "char[" 23 6 63) (mkPtok 30 "00" 23 12 64) (mkPtok 13 "]" 23 15 65)))) (mkPtok 42 "int" 23 17 66) (mkLengthOf (mkSpan (mkPtok 7 "@lengthOf(" 23 21 67) (mkPtok 6 ")" 23 37 69)) (mkPtok 7 "@lengthOf(" 23 21 67) (mkPtok 42 "u128" 23 32 68) (mkPtok 6 ")" 23 37 69)) None (mkPtok 40 "," 23 39 70))))] (mkPtok 3 "}" 23 41 71))); (DPacket (mkPacketDef (mkSpan (mkPtok 35 "packet" 24 0 72) (mkPtok 3 "}" 30 7 84)) None (mkPtok 35 "packet" 24 0 72) (mkPtok 42 "T" 24 7 73) (mkPtok 2 "{" 25 0 74) [(mkFieldWithAttr (mkSpan (mkPtok 32 "@leftPad" 25 2 75) (mkPtok 40 "," 30 5 83)) [(FAPadding (mkSpan (mkPtok 32 "@leftPad" 25 2 75) (mkPtok 6 ")" 29 0 80)) (mkPaddingAttr (mkSpan (mkPtok 32 "@leftPad" 25 2 75) (mkPtok 6 ")" 29 0 80)) (mkPtok 32 "@leftPad" 25 2 75) (mkPtok 8 "(" 25 11 76) (Some (mkPtok 33 "'0'" 28 0 79)) (mkPtok 6 ")" 29 0 80)))] (ObjectField (mkSpan (mkPtok 36 "repeat" 29 1 81) (mkPtok 40 "," 30 5 83)) (Some (mkPtok 36 "repeat" 29 1 81)) (mkPtok 42 "pack" 30 0 82) None None (mkPtok 40 "," 30 5 83)))] (mkPtok 3 "}" 30 7 84)))])).
+Eval vm_compute in ("<<<M843>>>" ++ check (runes_of_ascii "packet crc {}
 ")).
-Eval vm_compute in ("<<<M2571>>>" ++ check (runes_of_ascii "options{}root packet
-metadata {
-@lengthOf(x ) float32
-body :, }
-    MetaData
-Z9_
-    {
-    string string_ , Logon x
-,
-uint32
-    // packet A { u8 x, }
-    Z9_,asx
-_x
-    `tab	here` , }
-")).
-Eval vm_compute in ("<<<M2603>>>" ++ check (runes_of_ascii "options{}root packet
-metadata {
-@lengthOf(x ) float32
-body ``, }
-    MetaData
-Z9_
-    {
-    string  , Logon x
-,
-uint32
-    // packet A { u8 x, }
-    Z9_,asx
-_x
-    `tab	here` , }
-")).
-Eval vm_compute in ("<<<M2635>>>" ++ check (runes_of_ascii "options{}root packet
-metadata {
-@lengthOf(x ) float32
-body ``, }
-    MetaData
-Z9_
-    {
-    string string_ , Logon x
-,
-uint32
-    // packet A { u8 x, }
-    ,Z9_ asx
-_x
-    `tab	here` , }
-")).
-Eval vm_compute in ("<<<M2667>>>" ++ check (runes_of_ascii "options{}root packet
-metadata {
-@length")).
-Eval vm_compute in ("<<<M2699>>>" ++ check (runes_of_ascii "options {
+Eval vm_compute in ("<<<M875>>>" ++ check (runes_of_ascii "options
+    {	pack= ""`tick`"" ; pack
     =
-""a\\"" ; }")).
-Eval vm_compute in ("<<<M2731>>>" ++ check (runes_of_ascii "op" ++ [0]%N ++ runes_of_ascii "tions {
-    falsey=
-""a\\"" ; }")).
-Eval vm_compute in ("<<<M2763>>>" ++ check (runes_of_ascii "MetaData f32a
-{
-    //	t
-    string root
-    packet tag  {
-}
+    0123456789 i64_ = // `tick` ""quote"" 'q'
+zchar[ 42]}
 ")).
-Eval vm_compute in ("<<<M2795>>>" ++ check (runes_of_ascii "MetaData f32a$
-{
-    //	t
-    }root
-    packet tag  {
-}
+Eval vm_compute in ("<<<M907>>>" ++ check (runes_of_ascii "packet
+    //
+    calculatedFrom {/// triple
+pack matchKey `` , int8 MetaDataX
+`a\` ,
+    @lengthOf(crc  )
+    int16 T , zchar[1]
+    Logon @lengthOf(T )`line1
+line2` ,
+@rightPad ( ) Packet`u8 x,` ,}
+packet pack /// triple
+{ } packet
+Z9_ {
+Pad @lengthOf( _x )  `say ""hi""`
+, @lengthOf(
+matchKey
+)@calculatedFrom(  """ ++ [128512]%N ++ runes_of_ascii """ ) f32	matchKey @calculatedFrom(  ""{,}""  ) `// not a comment`	,  } options
+    {
+    u
+=
+char[  65535 ]; rootA
+=
+3 leftPad = ' '
+;repeatCount =
+    // " ++ [128512]%N ++ runes_of_ascii " emoji
+    '\x00' ;
+}")).
+Eval vm_compute in ("<<<M939>>>" ++ check (runes_of_ascii "MetaData stringy { char[]	u, u16	o , roots
+T ,
+string Pad ,falsey
+msg_type
+,
+    zchar[ 7 ] Logon, }MetaData int {	u64
+u8x
+    `" ++ [28040; 24687; 31867; 22411]%N ++ runes_of_ascii "` ,}
 ")).
-Eval vm_compute in ("<<<M2827>>>" ++ check (runes_of_ascii "
+Eval vm_compute in ("<<<M971>>>" ++ check (runes_of_ascii "packet Pad{ zchar[
+    00	]	crc ,@rightPad ( '\x00' ) uint16 crc `" ++ [233]%N ++ runes_of_ascii "`,} options { _x = string ; }// 50% %s
 options
-    {msg_type = =
-    float32  }root
-packet Z9_{ char /// triple
-crc @lengthOf(
-options1 ) //
-,} MetaData a1{}
-")).
-Eval vm_compute in ("<<<M2859>>>" ++ check (runes_of_ascii "
-options
-    {msg_type =
-    float32  }root
-packet Z9_[ char /// triple
-crc @lengthOf(
-options1 ) //
-,} MetaData a1{}
-")).
-Eval vm_compute in ("<<<M2891>>>" ++ check (runes_of_ascii "
-options
-    {msg_type =
-    float32  }root
-packet Z9_{ char /// triple
-crc @lengthOf(
-options1 ) //
-, MetaData a1{}
-")).
-Eval vm_compute in ("<<<M2923>>>" ++ check (runes_of_ascii "
-options" ++ [0]%N ++ runes_of_ascii "
-    {msg_type =
-    float32  }root
-packet Z9_{ char /// triple
-crc @lengthOf(
-options1 ) //
-,} MetaData a1{}
-")).
-Eval vm_compute in ("<<<M2955>>>" ++ check (runes_of_ascii "packet crc{ // " ++ [128512]%N ++ runes_of_ascii " emoji
-i8 string i8i8
-`a\`, }
-")).
-Eval vm_compute in ("<<<M2987>>>" ++ check (runes_of_ascii "packet crc{ // " ++ [128512]%N ++ runes_of_ascii " emoji
-repeat string i8i8%
-`a\`, }
-")).
-Eval vm_compute in ("<<<M3019>>>" ++ check (runes_of_ascii "packet BodyLength {} } MetaData zchar{ zchar[// @lengthOf(
-42 ]
-    pack , string_
-A , char[]crc , _x trueish ,
 // " ++ [27880; 37322]%N ++ runes_of_ascii "
-// " ++ [128512]%N ++ runes_of_ascii " emoji
-zchar[
-    3 ]	T // trailing space 
-, } packet body
+/// triple
+{ Foo=  10 }options
+{ Foo = '\x00'	; }
+")).
+Eval vm_compute in ("<<<M1003>>>" ++ check (runes_of_ascii "MetaData falsey { } root packet
+trueish /// triple
 {
-    }
-")).
-Eval vm_compute in ("<<<M3051>>>" ++ check (runes_of_ascii "packet BodyLength {} MetaData zchar{ zchar[// @lengthOf(
-42 uint64
-    pack , string_
-A , char[]crc , _x trueish ,
-// " ++ [27880; 37322]%N ++ runes_of_ascii "
+repeat uint32 leftPad ,
+    char[ 4294967296 ]len
+@calculatedFrom( """ ++ [128512]%N ++ runes_of_ascii """ )`doc`  , @lengthOf(
+packetx)	repeat int16 // `tick` ""quote"" 'q'
+roots `u8 x,`
+,@rightPad(  ' '/// triple
+) repeat char[ 00 ]
+MetaDataX , x
+    @calculatedFrom(
+""`tick`""
+    ),float64
+    lengthOf `{ , }` // trailing space 
+,
+@lengthOf(i64_ )int16 calculatedFrom // c
+@lengthOf( u	), } packet stringy
+{ i64_
+`tab	here`
+,
+rootA
+    Z9_ ,
+string
+    Pad
+@calculatedFrom(// `tick` ""quote"" 'q'
+""// no comment""
+    )	`a\`, @rightPad ( '\x00') @calculatedFrom(""{,}"" ) @calculatedFrom( ""CRC32"" ) falsey
+    `doc`,  match Logon as tag	{3: f32a, ""abc""  : o,255: A
+""abc"" : leftPad , },
+@calculatedFrom(
+// @lengthOf(
 // " ++ [128512]%N ++ runes_of_ascii " emoji
-zchar[
-    3 ]	T // trailing space 
-, } packet body
-{
-    }
-")).
-Eval vm_compute in ("<<<M3083>>>" ++ check (runes_of_ascii "packet BodyLength {} MetaData zchar{ zchar[// @lengthOf(
-42 ]
-    pack , string_
-A , char[] , _x trueish ,
+""" ++ [233]%N ++ runes_of_ascii "t" ++ [233]%N ++ runes_of_ascii """ // packet A { u8 x, }
+)repeat
+u32
+//
 // " ++ [27880; 37322]%N ++ runes_of_ascii "
-// " ++ [128512]%N ++ runes_of_ascii " emoji
-zchar[
-    3 ]	T // trailing space 
-, } packet body
-{
-    }
+_x
+`100% of %d`
+    , zchar[ 42 ] body `{ , }`,
+    zchar[
+//x
+// a // b
+10//x
+]	u128	`u8 x,`	, int @calculatedFrom(
+    /// triple
+    ""abc""  ) ,repeat
+    options1
+    // trailing space 
+    , }
 ")).
-Eval vm_compute in ("<<<M3115>>>" ++ check (runes_of_ascii "packet BodyLength {} MetaData zchar{ zchar[// @lengthOf(
-42 ]
-    pack , string_
-A , char[]crc , _x trueish ,
-// " ++ [27880; 37322]%N ++ runes_of_ascii "
-// " ++ [128512]%N ++ runes_of_ascii " emoji
-zchar[
-    ] 3	T // trailing space 
-, } packet body
-{
-    }
+Eval vm_compute in ("<<<M1035>>>" ++ check (@nil rune)).
+Eval vm_compute in ("<<<T1035>>>" ++ terms [mkTok 0 "<EOF>" 1 0 false] (mkPacket (mkPtok 0 "<EOF>" 1 0 0) None [])).
+Eval vm_compute in ("<<<M1067>>>" ++ check (runes_of_ascii "
 ")).
-Eval vm_compute in ("<<<M3147>>>" ++ check (runes_of_ascii "packet BodyLength {} MetaData zchar{ zchar[// @lengthOf(
-42 ]
-    pack , string_
-A , char[]crc , _x trueish ,
-// " ++ [27880; 37322]%N ++ runes_of_ascii "
-// " ++ [128512]%N ++ runes_of_ascii " emoji
-zchar[
-    3 ]	T // trailing space 
-, } packet")).
-Eval vm_compute in ("<<<M3179>>>" ++ check (runes_of_ascii "
-string_ {@lengthOf( int ) match packetx as f32a {
-    1 :	calculatedFrom , }  ,
-    } packet len
-    //	t
-    { @calculatedFrom( """ ++ [233]%N ++ runes_of_ascii "t" ++ [233]%N ++ runes_of_ascii """ ) body Header , char[] lengthOf  `two words` ,chars{repeat string_ matchKey ,
-    } ,
-    }
-")).
-Eval vm_compute in ("<<<M3211>>>" ++ check (runes_of_ascii "packet
-string_ {@lengthOf( int ) packetx match as f32a {
-    1 :	calculatedFrom , }  ,
-    } packet len
-    //	t
-    { @calculatedFrom( """ ++ [233]%N ++ runes_of_ascii "t" ++ [233]%N ++ runes_of_ascii """ ) body Header , char[] lengthOf  `two words` ,chars{repeat string_ matchKey ,
-    } ,
-    }
-")).
-Eval vm_compute in ("<<<M3243>>>" ++ check (runes_of_ascii "packet
-string_ {@lengthOf( int ) match packetx as f32a {
-    1")).
-Eval vm_compute in ("<<<M3275>>>" ++ check (runes_of_ascii "packet
-string_ {@lengthOf( int ) match packetx as f32a {
-    1 :	calculatedFrom , }  ,
-    } packet len len
-    //	t
-    { @calculatedFrom( """ ++ [233]%N ++ runes_of_ascii "t" ++ [233]%N ++ runes_of_ascii """ ) body Header , char[] lengthOf  `two words` ,chars{repeat string_ matchKey ,
-    } ,
-    }
-")).
-Eval vm_compute in ("<<<M3307>>>" ++ check (runes_of_ascii "packet
-string_ {@lengthOf( int ) match packetx as f32a {
-    1 :	calculatedFrom , }  ,
-    } packet len
-    //	t
-    { @calculatedFrom( """ ++ [233]%N ++ runes_of_ascii "t" ++ [233]%N ++ runes_of_ascii """ ) body uint16 , char[] lengthOf  `two words` ,chars{repeat string_ matchKey ,
-    } ,
-    }
-")).
-Eval vm_compute in ("<<<M3339>>>" ++ check (runes_of_ascii "packet
-string_ {@lengthOf( int ) match packetx as f32a {
-    1 :	calculatedFrom , }  ,
-    } packet len
-    //	t
-    { @calculatedFrom( """ ++ [233]%N ++ runes_of_ascii "t" ++ [233]%N ++ runes_of_ascii """ ) body Header , char[] lengthOf  `two words` ,chars repeat string_ matchKey ,
-    } ,
-    }
-")).
-Eval vm_compute in ("<<<M3371>>>" ++ check (runes_of_ascii "packet
-string_ {@lengthOf( int ) match packetx as f32a {
-    1 :	calculatedFrom , }  ,
-    } packet len
-    //	t
-    { @calculatedFrom( """ ++ [233]%N ++ runes_of_ascii "t" ++ [233]%N ++ runes_of_ascii """ ) body Header , char[] lengthOf  `two words` ,chars{repeat string_ matchKey ,
-    } }
+Eval vm_compute in ("<<<M1099>>>" ++ check (runes_of_ascii "root
+    packet len
+    {// a // b
+char[ 0123456789 // " ++ [27880; 37322]%N ++ runes_of_ascii "
+] pack @calculatedFrom(""a\\"") `say ""hi""` , match Header
+    as
+    trueish {[ ""a\\"" ,
+255 ,007 ] :	asx
+    , } ,
+match Pad as
+    Foo // `tick` ""quote"" 'q'
+{""\n"" : uint8x	1: lengthOf
+    , 65535
+    : u128,
+},
+} packet
+    tag  { o
+rootA``
+, }root
+packet tag {
+uint8x,
+    @lengthOf( int ) // 50% %s
+@tag(0 ) Pad ,
+// packet A { u8 x, }
+// 50% %s
+u8 x , @lengthOf(
+Z9_) f32 BodyLength
+`tab	here` ,
+    repeat
+    char[
+255
+] f32a
+    , repeat
+msg_type lengthOf ,	@leftPad ( '\x00' ) repeat	int32 asx,
+repeat string f32a , @leftPad ( )
+len Foo ,
+} // trailing space 
+packet uint8x {  calculatedFrom
+    // 50% %s
     ,
+/// triple
+// trailing space 
+} MetaData asx{ // c
+}
 ")).
-Eval vm_compute in ("<<<M3403>>>" ++ check (runes_of_ascii "/// triple
-root
-packet // packet A { u8 x, }
-chars { @lengthOf(charz )
-stringy,  @tag(  0 ) // a // b
-asx
-    As
+Eval vm_compute in ("<<<M1131>>>" ++ check (runes_of_ascii "options { } root packet _x
+    { }")).
+Eval vm_compute in ("<<<M1163>>>" ++ check (runes_of_ascii "root packet BodyLength{ zchar[ 3 ] u8x `" ++ [28040; 24687; 31867; 22411]%N ++ runes_of_ascii "` ,	}
+")).
+Eval vm_compute in ("<<<M1195>>>" ++ check (runes_of_ascii "MetaData o{ char[] a1 `// not a comment` , metadata rootA `// not a comment` ,	int8
+    matchKey
+// @lengthOf(
+// c
+`{ , }`
+    , i64
+    Packet , i16  pack
+, len trueish ,}// @lengthOf(
+packet  Packet{// 50% %s
+@calculatedFrom(  ""// no comment"" ) char[0
+]  zchar @calculatedFrom(""x y"" )	`100% of %d` ,	@lengthOf( o )@rightPad(
+    '0') @calculatedFrom( ""\" ++ [233]%N ++ runes_of_ascii """  )match lengthOf as
+Packet { // trailing space 
+[ 00
+    ,
+    4294967296 //	t
+, ""a\\"" , ""{,}"" ] :	_x , } ,
+@leftPad (
+    '0' ) @lengthOf(
+matchKey ) x	repeatCount  , string_  `line1
+line2` ,} // " ++ [27880; 37322]%N)).
+Eval vm_compute in ("<<<M1227>>>" ++ check (runes_of_ascii " // a // b")).
+Eval vm_compute in ("<<<M1259>>>" ++ check (runes_of_ascii "MetaData Z9_	{ BodyLength _x,}")).
+Eval vm_compute in ("<<<T1259>>>" ++ terms [mkTok 37 "MetaData" 1 0 false; mkTok 42 "Z9_" 1 9 false; mkTok 2 "{" 1 13 false; mkTok 42 "BodyLength" 1 15 false; mkTok 42 "_x" 1 26 false; mkTok 40 "," 1 28 false; mkTok 3 "}" 1 29 false; mkTok 0 "<EOF>" 1 30 false] (mkPacket (mkPtok 37 "MetaData" 1 0 0) (Some (mkPtok 3 "}" 1 29 6)) [(DMeta (mkMetaDef (mkSpan (mkPtok 37 "MetaData" 1 0 0) (mkPtok 3 "}" 1 29 6)) (mkPtok 37 "MetaData" 1 0 0) (mkPtok 42 "Z9_" 1 9 1) (mkPtok 2 "{" 1 13 2) [(MIRef (mkRefMetaDecl (mkSpan (mkPtok 42 "BodyLength" 1 15 3) (mkPtok 40 "," 1 28 5)) (mkPtok 42 "BodyLength" 1 15 3) (mkPtok 42 "_x" 1 26 4) None (mkPtok 40 "," 1 28 5)))] (mkPtok 3 "}" 1 29 6)))])).
+Eval vm_compute in ("<<<M1291>>>" ++ check (runes_of_ascii "//	t
+MetaData o /// triple
+{BodyLength // " ++ [128512]%N ++ runes_of_ascii " emoji
+Z9_ , char
+Foo ,zchar[ 1
+]
+u `" ++ [28040; 24687; 31867; 22411]%N ++ runes_of_ascii "` ,
+    char[]  Logon `100% of %d`
 ,
-// trailing space 
-// trailing space 
-x_y_z {
-repeat % i16 charz , } ,	int16  crc ,}
-")).
-Eval vm_compute in ("<<<M3435>>>" ++ check (runes_of_ascii "/// triple
-")).
-Eval vm_compute in ("<<<M3467>>>" ++ check (runes_of_ascii "/// triple
-root
-packet // packet A { u8 x, }
-chars { @lengthOf(charz )
-stringy,  @tag(  0 ) // a // b
-asx
-    As
+    // " ++ [27880; 37322]%N ++ runes_of_ascii "
+    }
+    /// triple
+    MetaData u { uint32  pack , matchKey
+    calculatedFrom // `tick` ""quote"" 'q'
+`crlf
+line`,
+string
+    roots , char[42
+] calculatedFrom,}
+packet trueish
+    { @lengthOf( u128 ) chars {
+    stringy
+    {repeat Foo{ asx @lengthOf(
+// " ++ [27880; 37322]%N ++ runes_of_ascii "
+//x
+uint8x)// " ++ [128512]%N ++ runes_of_ascii " emoji
+`
+` ,
+    uint64 Header@lengthOf( calculatedFrom)
+    ,uint16 Foo`
+`
+    ,calculatedFrom , } , Pad msg_type
+`{ , }` , repeat zchar[ 4294967296] tag , match stringy as
+    A {
+0123456789 :body
+[
+    //	t
+    ""1"" , """ ++ [28040; 24687]%N ++ runes_of_ascii """ ,
+3
+    ] :stringy ,[	""" ++ [233]%N ++ runes_of_ascii "t" ++ [233]%N ++ runes_of_ascii """ ,""\n""// 50% %s
+]
+    // packet A { u8 x, }
+    : Header	,
+} ,
+},
+    char
+    asx
 ,
-// trailing space 
-// trailing space 
-x_y_z {
-repeat i16 charz , } ,	int16  crc , ,}
+} , }")).
+Eval vm_compute in ("<<<M1323>>>" ++ check (runes_of_ascii "MetaData body
+// c
+// packet A { u8 x, }
+{tag
+    A `
+`	, i8
+    leftPad, charz roots// `tick` ""quote"" 'q'
+`a\` , }
 ")).
+Eval vm_compute in ("<<<M1355>>>" ++ check (runes_of_ascii "options
+{ Foo = ' ' }")).
+Eval vm_compute in ("<<<M1387>>>" ++ check (runes_of_ascii "packet T { @tag(
+    00 ) uint8 MetaDataX ,}
+")).
+Eval vm_compute in ("<<<M1419>>>" ++ check (runes_of_ascii "// " ++ [27880; 37322]%N ++ runes_of_ascii "
+root	packet
+packetx {@rightPad (
+'0' )
+float @calculatedFrom(//
+""CRC32"" ) `" ++ [28040; 24687; 31867; 22411]%N ++ runes_of_ascii "` , @calculatedFrom( """" ) repeat	f32 calculatedFrom, } //	t")).
+Eval vm_compute in ("<<<M1451>>>" ++ check (runes_of_ascii "root packet
+    uint8x {
+    } packet
+uint8x {} options // " ++ [128512]%N ++ runes_of_ascii " emoji
+{ Foo = ' ' u =
+char[]
+}
+// c
+// `tick` ""quote"" 'q'
+packet charz { char[] zchar
+`" ++ [233]%N ++ runes_of_ascii "`	, @calculatedFrom(
+    ""x y"" )
+string Logon , char[ 0
+// 50% %s
+//
+] crc @lengthOf(  float)`" ++ [233]%N ++ runes_of_ascii "` // @lengthOf(
+,// " ++ [27880; 37322]%N ++ runes_of_ascii "
+} root packet Header{i8 // trailing space 
+calculatedFrom
+@lengthOf( u128 ) , @tag(
+    //x
+    65535 )
+    repeat// `tick` ""quote"" 'q'
+zchar[	4294967296 ] tag
+//	t
+//x
+,@leftPad// " ++ [128512]%N ++ runes_of_ascii " emoji
+( '\x00'// packet A { u8 x, }
+) tag { match
+    // c
+    repeatCount
+as charz{ 0123456789  :
+asx , }
+,
+f32	string_/// triple
+`
+` //
+,
+}, uint32 matchKey, i32// c
+leftPad	@calculatedFrom(""1"") `it's` , _x
+{f32a @calculatedFrom(
+""`tick`"") , char metadata
+    `a\`
+    , repeat uint16// a // b
+float
+    `" ++ [233]%N ++ runes_of_ascii "`// " ++ [128512]%N ++ runes_of_ascii " emoji
+, } ,@lengthOf( A ) zchar[ 0123456789 ]
+Header@lengthOf(o )`
+` ,	}
+")).
+Eval vm_compute in ("<<<M1483>>>" ++ check (runes_of_ascii "
+root
+packet
+    MetaDataX {  } //x
+MetaData
+//
+//
+_x {
+// `tick` ""quote"" 'q'
+//x
+char[]
+    x
+//x
+// c
+,
+MetaDataX zchar ,  }
+")).
+Eval vm_compute in ("<<<T1483>>>" ++ terms [mkTok 34 "root" 2 0 false; mkTok 35 "packet" 3 0 false; mkTok 42 "MetaDataX" 4 4 false; mkTok 2 "{" 4 14 false; mkTok 3 "}" 4 17 false; mkTok 44 "//x" 4 19 true; mkTok 37 "MetaData" 5 0 false; mkTok 44 "//" 6 0 true; mkTok 44 "//" 7 0 true; mkTok 42 "_x" 8 0 false; mkTok 2 "{" 8 3 false; mkTok 44 "// `tick` ""quote"" 'q'" 9 0 true; mkTok 44 "//x" 10 0 true; mkTok 16 "char[]" 11 0 false; mkTok 42 "x" 12 4 false; mkTok 44 "//x" 13 0 true; mkTok 44 "// c" 14 0 true; mkTok 40 "," 15 0 false; mkTok 42 "MetaDataX" 16 0 false; mkTok 42 "zchar" 16 10 false; mkTok 40 "," 16 16 false; mkTok 3 "}" 16 19 false; mkTok 0 "<EOF>" 17 0 false] (mkPacket (mkPtok 34 "root" 2 0 0) (Some (mkPtok 3 "}" 16 19 21)) [(DPacket (mkPacketDef (mkSpan (mkPtok 34 "root" 2 0 0) (mkPtok 3 "}" 4 17 4)) (Some (mkPtok 34 "root" 2 0 0)) (mkPtok 35 "packet" 3 0 1) (mkPtok 42 "MetaDataX" 4 4 2) (mkPtok 2 "{" 4 14 3) [] (mkPtok 3 "}" 4 17 4))); (DMeta (mkMetaDef (mkSpan (mkPtok 37 "MetaData" 5 0 6) (mkPtok 3 "}" 16 19 21)) (mkPtok 37 "MetaData" 5 0 6) (mkPtok 42 "_x" 8 0 9) (mkPtok 2 "{" 8 3 10) [(MIDecl (mkMetaDecl (mkSpan (mkPtok 16 "char[]" 11 0 13) (mkPtok 40 "," 15 0 17)) (TyDynamic (mkSpan (mkPtok 16 "char[]" 11 0 13) (mkPtok 16 "char[]" 11 0 13)) (mkDynamicString (mkSpan (mkPtok 16 "char[]" 11 0 13) (mkPtok 16 "char[]" 11 0 13)) (mkPtok 16 "char[]" 11 0 13))) (mkPtok 42 "x" 12 4 14) None (mkPtok 40 "," 15 0 17))); (MIRef (mkRefMetaDecl (mkSpan (mkPtok 42 "MetaDataX" 16 0 18) (mkPtok 40 "," 16 16 20)) (mkPtok 42 "MetaDataX" 16 0 18) (mkPtok 42 "zchar" 16 10 19) None (mkPtok 40 "," 16 16 20)))] (mkPtok 3 "}" 16 19 21)))])).
+Eval vm_compute in ("<<<M1515>>>" ++ check (runes_of_ascii "root packet rootA {
+repeat
+    trueish o , } 	 ")).
+Eval vm_compute in ("<<<M1547>>>" ++ check (runes_of_ascii "root packet i64_ { // trailing space 
+char[ 1
+    ]
+pack @calculatedFrom( ""x y"" )
+,}// trailing space 
+packet
+MetaDataX {
+} MetaData zchar { // " ++ [128512]%N ++ runes_of_ascii " emoji
+string x_y_z
+`" ++ [28040; 24687; 31867; 22411]%N ++ runes_of_ascii "` , }
+/// triple
+")).
+Eval vm_compute in ("<<<M1579>>>" ++ check (runes_of_ascii "packet As { @calculatedFrom(
+    //	t
+    ""a\""b"" ) char[007 ]
+calculatedFrom ,}
+packet lengthOf { u16 charz
+    @lengthOf(
+    float )  , @calculatedFrom(
+""it's"" )options1 @lengthOf(
+    body) `doc` ,	}
+")).
+Eval vm_compute in ("<<<M1611>>>" ++ check (runes_of_ascii "
+")).
+Eval vm_compute in ("<<<M1643>>>" ++ check (runes_of_ascii "root packet roots { @tag( 0
+)  leftPad { Pad u128
+`` , }
+    , // " ++ [27880; 37322]%N ++ runes_of_ascii "
+repeat
+char[// trailing space 
+3 // " ++ [128512]%N ++ runes_of_ascii " emoji
+]len // @lengthOf(
+,  @lengthOf(_x
+    // trailing space 
+    )  x @calculatedFrom( ""1"" // `tick` ""quote"" 'q'
+) , int16 Z9_  ,// `tick` ""quote"" 'q'
+u8 charz, char Logon ,
+}options { Pad = '0' ; msg_type // " ++ [128512]%N ++ runes_of_ascii " emoji
+= 7 Packet =  string chars = i32 ; u8x =
+    """ ++ [28040; 24687]%N ++ runes_of_ascii """ ;  }
+packet pack	{}
+
+")).
+Eval vm_compute in ("<<<M1675>>>" ++ check (runes_of_ascii "
+")).
+Eval vm_compute in ("<<<M1707>>>" ++ check (runes_of_ascii "packet f32a { match Pad as
+    MetaDataX {  255 : zchar ,""{,}"" : Foo, [ ""// no comment""
+    , """" ] :a1  , [ ""\n""	,	0123456789
+, ""`tick`"" ,
+3 ,
+""a	b""
+    ] : Foo// 50% %s
+,} ,
+    match _x as
+    o//
+{ //
+""" ++ [28040; 24687]%N ++ runes_of_ascii """ : f32a ,
+[ ""`tick`"" //	t
+,""x y"",""a\\"" ] :
+chars	, 00: len , """ ++ [128512]%N ++ runes_of_ascii """:i64_, },char[
+007 ] Packet @lengthOf( chars
+    ),
+uint64
+o ,}
+")).
+Eval vm_compute in ("<<<T1707>>>" ++ terms [mkTok 35 "packet" 1 0 false; mkTok 42 "f32a" 1 7 false; mkTok 2 "{" 1 12 false; mkTok 38 "match" 1 14 false; mkTok 42 "Pad" 1 20 false; mkTok 17 "as" 1 24 false; mkTok 42 "MetaDataX" 2 4 false; mkTok 2 "{" 2 14 false; mkTok 30 "255" 2 17 false; mkTok 39 ":" 2 21 false; mkTok 42 "zchar" 2 23 false; mkTok 40 "," 2 29 false; mkTok 31 """{,}""" 2 30 false; mkTok 39 ":" 2 36 false; mkTok 42 "Foo" 2 38 false; mkTok 40 "," 2 41 false; mkTok 18 "[" 2 43 false; mkTok 31 """// no comment""" 2 45 false; mkTok 40 "," 3 4 false; mkTok 31 """""" 3 6 false; mkTok 13 "]" 3 9 false; mkTok 39 ":" 3 11 false; mkTok 42 "a1" 3 12 false; mkTok 40 "," 3 16 false; mkTok 18 "[" 3 18 false; mkTok 31 """\n""" 3 20 false; mkTok 40 "," 3 25 false; mkTok 30 "0123456789" 3 27 false; mkTok 40 "," 4 0 false; mkTok 31 """`tick`""" 4 2 false; mkTok 40 "," 4 11 false; mkTok 30 "3" 5 0 false; mkTok 40 "," 5 2 false; mkTok 31 (string_of_bytes [34; 97; 9; 98; 34]%N) 6 0 false; mkTok 13 "]" 7 4 false; mkTok 39 ":" 7 6 false; mkTok 42 "Foo" 7 8 false; mkTok 44 "// 50% %s" 7 11 true; mkTok 40 "," 8 0 false; mkTok 3 "}" 8 1 false; mkTok 40 "," 8 3 false; mkTok 38 "match" 9 4 false; mkTok 42 "_x" 9 10 false; mkTok 17 "as" 9 13 false; mkTok 42 "o" 10 4 false; mkTok 44 "//" 10 5 true; mkTok 2 "{" 11 0 false; mkTok 44 "//" 11 2 true; mkTok 31 (string_of_bytes [34; 230; 182; 136; 230; 129; 175; 34]%N) 12 0 false; mkTok 39 ":" 12 5 false; mkTok 42 "f32a" 12 7 false; mkTok 40 "," 12 12 false; mkTok 18 "[" 13 0 false; mkTok 31 """`tick`""" 13 2 false; mkTok 44 (string_of_bytes [47; 47; 9; 116]%N) 13 11 true; mkTok 40 "," 14 0 false; mkTok 31 """x y""" 14 1 false; mkTok 40 "," 14 6 false; mkTok 31 """a\\""" 14 7 false; mkTok 13 "]" 14 13 false; mkTok 39 ":" 14 15 false; mkTok 42 "chars" 15 0 false; mkTok 40 "," 15 6 false; mkTok 30 "00" 15 8 false; mkTok 39 ":" 15 10 false; mkTok 42 "len" 15 12 false; mkTok 40 "," 15 16 false; mkTok 31 (string_of_bytes [34; 240; 159; 152; 128; 34]%N) 15 18 false; mkTok 39 ":" 15 21 false; mkTok 42 "i64_" 15 22 false; mkTok 40 "," 15 26 false; mkTok 3 "}" 15 28 false; mkTok 40 "," 15 29 false; mkTok 12 "char[" 15 30 false; mkTok 30 "007" 16 0 false; mkTok 13 "]" 16 4 false; mkTok 42 "Packet" 16 6 false; mkTok 7 "@lengthOf(" 16 13 false; mkTok 42 "chars" 16 24 false; mkTok 6 ")" 17 4 false; mkTok 40 "," 17 5 false; mkTok 23 "uint64" 18 0 false; mkTok 42 "o" 19 0 false; mkTok 40 "," 19 2 false; mkTok 3 "}" 19 3 false; mkTok 0 "<EOF>" 20 0 false] (mkPacket (mkPtok 35 "packet" 1 0 0) (Some (mkPtok 3 "}" 19 3 84)) [(DPacket (mkPacketDef (mkSpan (mkPtok 35 "packet" 1 0 0) (mkPtok 3 "}" 19 3 84)) None (mkPtok 35 "packet" 1 0 0) (mkPtok 42 "f32a" 1 7 1) (mkPtok 2 "{" 1 12 2) [(mkFieldWithAttr (mkSpan (mkPtok 38 "match" 1 14 3) (mkPtok 40 "," 8 3 40)) [] (MatchField (mkSpan (mkPtok 38 "match" 1 14 3) (mkPtok 40 "," 8 3 40)) (mkMatchFieldDecl (mkSpan (mkPtok 38 "match" 1 14 3) (mkPtok 3 "}" 8 1 39)) (mkPtok 38 "match" 1 14 3) (mkPtok 42 "Pad" 1 20 4) (mkPtok 17 "as" 1 24 5) (mkPtok 42 "MetaDataX" 2 4 6) (mkPtok 2 "{" 2 14 7) [(mkMatchPair (mkSpan (mkPtok 30 "255" 2 17 8) (mkPtok 40 "," 2 29 11)) (MKDigits (mkPtok 30 "255" 2 17 8)) (mkPtok 39 ":" 2 21 9) (mkPtok 42 "zchar" 2 23 10) (Some (mkPtok 40 "," 2 29 11))); (mkMatchPair (mkSpan (mkPtok 31 """{,}""" 2 30 12) (mkPtok 40 "," 2 41 15)) (MKString (mkPtok 31 """{,}""" 2 30 12)) (mkPtok 39 ":" 2 36 13) (mkPtok 42 "Foo" 2 38 14) (Some (mkPtok 40 "," 2 41 15))); (mkMatchPair (mkSpan (mkPtok 18 "[" 2 43 16) (mkPtok 40 "," 3 16 23)) (MKList (mkKeyList (mkSpan (mkPtok 18 "[" 2 43 16) (mkPtok 13 "]" 3 9 20)) (mkPtok 18 "[" 2 43 16) (mkPtok 31 """// no comment""" 2 45 17) [((mkPtok 40 "," 3 4 18), (mkPtok 31 """""" 3 6 19))] (mkPtok 13 "]" 3 9 20))) (mkPtok 39 ":" 3 11 21) (mkPtok 42 "a1" 3 12 22) (Some (mkPtok 40 "," 3 16 23))); (mkMatchPair (mkSpan (mkPtok 18 "[" 3 18 24) (mkPtok 40 "," 8 0 38)) (MKList (mkKeyList (mkSpan (mkPtok 18 "[" 3 18 24) (mkPtok 13 "]" 7 4 34)) (mkPtok 18 "[" 3 18 24) (mkPtok 31 """\n""" 3 20 25) [((mkPtok 40 "," 3 25 26), (mkPtok 30 "0123456789" 3 27 27)); ((mkPtok 40 "," 4 0 28), (mkPtok 31 """`tick`""" 4 2 29)); ((mkPtok 40 "," 4 11 30), (mkPtok 30 "3" 5 0 31)); ((mkPtok 40 "," 5 2 32), (mkPtok 31 (string_of_bytes [34; 97; 9; 98; 34]%N) 6 0 33))] (mkPtok 13 "]" 7 4 34))) (mkPtok 39 ":" 7 6 35) (mkPtok 42 "Foo" 7 8 36) (Some (mkPtok 40 "," 8 0 38)))] (mkPtok 3 "}" 8 1 39)) (mkPtok 40 "," 8 3 40))); (mkFieldWithAttr (mkSpan (mkPtok 38 "match" 9 4 41) (mkPtok 40 "," 15 29 72)) [] (MatchField (mkSpan (mkPtok 38 "match" 9 4 41) (mkPtok 40 "," 15 29 72)) (mkMatchFieldDecl (mkSpan (mkPtok 38 "match" 9 4 41) (mkPtok 3 "}" 15 28 71)) (mkPtok 38 "match" 9 4 41) (mkPtok 42 "_x" 9 10 42) (mkPtok 17 "as" 9 13 43) (mkPtok 42 "o" 10 4 44) (mkPtok 2 "{" 11 0 46) [(mkMatchPair (mkSpan (mkPtok 31 (string_of_bytes [34; 230; 182; 136; 230; 129; 175; 34]%N) 12 0 48) (mkPtok 40 "," 12 12 51)) (MKString (mkPtok 31 (string_of_bytes [34; 230; 182; 136; 230; 129; 175; 34]%N) 12 0 48)) (mkPtok 39 ":" 12 5 49) (mkPtok 42 "f32a" 12 7 50) (Some (mkPtok 40 "," 12 12 51))); (mkMatchPair (mkSpan (mkPtok 18 "[" 13 0 52) (mkPtok 40 "," 15 6 62)) (MKList (mkKeyList (mkSpan (mkPtok 18 "[" 13 0 52) (mkPtok 13 "]" 14 13 59)) (mkPtok 18 "[" 13 0 52) (mkPtok 31 """`tick`""" 13 2 53) [((mkPtok 40 "," 14 0 55), (mkPtok 31 """x y""" 14 1 56)); ((mkPtok 40 "," 14 6 57), (mkPtok 31 """a\\""" 14 7 58))] (mkPtok 13 "]" 14 13 59))) (mkPtok 39 ":" 14 15 60) (mkPtok 42 "chars" 15 0 61) (Some (mkPtok 40 "," 15 6 62))); (mkMatchPair (mkSpan (mkPtok 30 "00" 15 8 63) (mkPtok 40 "," 15 16 66)) (MKDigits (mkPtok 30 "00" 15 8 63)) (mkPtok 39 ":" 15 10 64) (mkPtok 42 "len" 15 12 65) (Some (mkPtok 40 "," 15 16 66))); (mkMatchPair (mkSpan (mkPtok 31 (string_of_bytes [34; 240; 159; 152; 128; 34]%N) 15 18 67) (mkPtok 40 "," 15 26 70)) (MKString (mkPtok 31 (string_of_bytes [34; 240; 159; 152; 128; 34]%N) 15 18 67)) (mkPtok 39 ":" 15 21 68) (mkPtok 42 "i64_" 15 22 69) (Some (mkPtok 40 "," 15 26 70)))] (mkPtok 3 "}" 15 28 71)) (mkPtok 40 "," 15 29 72))); (mkFieldWithAttr (mkSpan (mkPtok 12 "char[" 15 30 73) (mkPtok 40 "," 17 5 80)) [] (LengthField (mkSpan (mkPtok 12 "char[" 15 30 73) (mkPtok 40 "," 17 5 80)) (mkLengthFieldDecl (mkSpan (mkPtok 12 "char[" 15 30 73) (mkPtok 40 "," 17 5 80)) (Some (TyFixed (mkSpan (mkPtok 12 "char[" 15 30 73) (mkPtok 13 "]" 16 4 75)) (mkFixedString (mkSpan (mkPtok 12 "char[" 15 30 73) (mkPtok 13 "]" 16 4 75)) (mkPtok 12 "char[" 15 30 73) (mkPtok 30 "007" 16 0 74) (mkPtok 13 "]" 16 4 75)))) (mkPtok 42 "Packet" 16 6 76) (mkLengthOf (mkSpan (mkPtok 7 "@lengthOf(" 16 13 77) (mkPtok 6 ")" 17 4 79)) (mkPtok 7 "@lengthOf(" 16 13 77) (mkPtok 42 "chars" 16 24 78) (mkPtok 6 ")" 17 4 79)) None (mkPtok 40 "," 17 5 80)))); (mkFieldWithAttr (mkSpan (mkPtok 23 "uint64" 18 0 81) (mkPtok 40 "," 19 2 83)) [] (MetaField (mkSpan (mkPtok 23 "uint64" 18 0 81) (mkPtok 40 "," 19 2 83)) None (mkMetaDecl (mkSpan (mkPtok 23 "uint64" 18 0 81) (mkPtok 40 "," 19 2 83)) (TyBasic (mkSpan (mkPtok 23 "uint64" 18 0 81) (mkPtok 23 "uint64" 18 0 81)) (mkBasicType (mkSpan (mkPtok 23 "uint64" 18 0 81) (mkPtok 23 "uint64" 18 0 81)) (mkPtok 23 "uint64" 18 0 81))) (mkPtok 42 "o" 19 0 82) None (mkPtok 40 "," 19 2 83))))] (mkPtok 3 "}" 19 3 84)))])).
+Eval vm_compute in ("<<<M1739>>>" ++ check (runes_of_ascii "// @lengthOf(
+root packet BodyLength
+{
+repeat zchar[
+1 ]
+u128 , body @calculatedFrom(
+""\n"")
+    `100% of %d` ,
+    repeat lengthOf { char[ // " ++ [128512]%N ++ runes_of_ascii " emoji
+1
+] float @calculatedFrom(	""x y"" ) ,
+    }
+,	Logon  @calculatedFrom( ""a	b""
+) /// triple
+,crc@calculatedFrom( ""\" ++ [233]%N ++ runes_of_ascii """), @calculatedFrom( ""a\""b"" ) @lengthOf(
+charz
+)	_x @calculatedFrom(""it's""	) , } MetaData
+options1
+{charz i8i8
+, }")).
+Eval vm_compute in ("<<<M1771>>>" ++ check (runes_of_ascii "packet Packet {
+    match	Z9_ as
+    _x{ 10 :
+    msg_type , // @lengthOf(
+[ ""1"" ,007
+    ,""a	b""	,
+65535 ]
+: int , }
+, options1 ,
+}
+    MetaData leftPad { int8 chars,
+o
+    tag
+`say ""hi""` , char[] leftPad`{ , }`, }root // 50% %s
+packet Pad
+    { @leftPad( '\x00') zchar[ // trailing space 
+255 ]
+i64_
+`" ++ [28040; 24687; 31867; 22411]%N ++ runes_of_ascii "` , // 50% %s
+@lengthOf( a1  )
+u8	pack@calculatedFrom(""packet"" ) ,float64
+    options1`{ , }`
+    ,// " ++ [128512]%N ++ runes_of_ascii " emoji
+float32 Foo `say ""hi""` ,
+} MetaData
+zchar { } packet	roots{
+@lengthOf( //
+metadata // " ++ [27880; 37322]%N ++ runes_of_ascii "
+) match
+Packet	as	repeatCount  {[
+    ""\n""
+// c
+//
+,
+""" ++ [28040; 24687]%N ++ runes_of_ascii """ , 3, ""a\""b""	, 007 // a // b
+,42
+,""\n"" ,// " ++ [128512]%N ++ runes_of_ascii " emoji
+""abc""] :falsey	65535 : u8x , // 50% %s
+1 :body, } , @rightPad (
+'0' )
+match msg_type as stringy
+{00 // packet A { u8 x, }
+:
+string_ , 007 : Z9_
+    10: zchar , 255 : leftPad, } , @lengthOf( crc
+    )
+@calculatedFrom( ""1""
+) packetx	{
+    A u `it's` ,
+uint32 Packet@lengthOf(
+    leftPad
+) `
+` , repeat u128 Pad , },
+@lengthOf( f32a) @tag(
+10)repeat  u8 Header
+, T@lengthOf( Foo ) ,zchar[
+//
+// " ++ [27880; 37322]%N ++ runes_of_ascii "
+0123456789] crc @calculatedFrom( ""it's""
+    // c
+    )
+, char[4294967296 ]// trailing space 
+lengthOf @calculatedFrom( ""a\\"" ) `say ""hi""` , }
+//
+")).
+Eval vm_compute in ("<<<M1803>>>" ++ check (runes_of_ascii "
+packet i8i8 {Foo
+{char[]
+    // 50% %s
+    a1 @calculatedFrom( """ ++ [233]%N ++ runes_of_ascii "t" ++ [233]%N ++ runes_of_ascii """// @lengthOf(
+) ,  float @calculatedFrom( ""{,}"") ,repeat u8 Foo // trailing space 
+`` ,i64_ , } , string i64_`` ,	} options {	Z9_ = ' ' ; } options { u = // trailing space 
+""packet""
+    ;
+stringy =
+42 ; calculatedFrom =
+i32 ;uint8x
+    =
+    true string_= true  ; // " ++ [27880; 37322]%N ++ runes_of_ascii "
+}")).
+Eval vm_compute in ("<<<M1835>>>" ++ check (runes_of_ascii "root packet
+//x
+//x
+uint8x
+{ @calculatedFrom(
+    ""\" ++ [233]%N ++ runes_of_ascii """)
+uint16 tag  `
+` ,  @calculatedFrom(
+""a\""b"") float32 lengthOf
+`// not a comment` ,
+    //	t
+    metadata@calculatedFrom(""1""
+    ) ,	@calculatedFrom( """ ++ [233]%N ++ runes_of_ascii "t" ++ [233]%N ++ runes_of_ascii """
+    )@tag( 007 ) Z9_
+// `tick` ""quote"" 'q'
+//
+`" ++ [28040; 24687; 31867; 22411]%N ++ runes_of_ascii "` , u32 roots
+`say ""hi""` ,  repeat // " ++ [128512]%N ++ runes_of_ascii " emoji
+float32 roots
+, @calculatedFrom( ""abc"") repeat char[ 00 ]matchKey
+, @leftPad ( ) string
+msg_type @calculatedFrom(
+    // a // b
+    ""a\""b"" )  , x MetaDataX , @rightPad ( ' '
+) u8x @lengthOf( u) //	t
+,  }packet
+    u8x// `tick` ""quote"" 'q'
+{
+    Pad Z9_
+`` , // trailing space 
+} MetaData falsey { calculatedFrom
+BodyLength `
+`,
+/// triple
+// `tick` ""quote"" 'q'
+o body ,
+}options { }	packet len//	t
+{
+}
+
+")).
+Eval vm_compute in ("<<<M1867>>>" ++ check (runes_of_ascii "packet matchKey { @lengthOf(
+    int
+// c
+// a // b
+)string_  T `{ , }` // @lengthOf(
+, }
+MetaData
+    T { uint64 options1 `100% of %d`
+,	zchar[7
+] As ,} packet u128{	@calculatedFrom(
+    // c
+    ""packet"" ) @tag( 7
+)@lengthOf( charz
+//x
+// trailing space 
+) match body
+    as
+/// triple
+//
+stringy
+{
+    //
+    ""\n""
+    //x
+    : metadata """" :crc,	[ 42 ] :	rootA , } , }
+")).
+Eval vm_compute in ("<<<M1899>>>" ++ check (runes_of_ascii "MetaData
+Packet{
+u16 chars , }
+
+")).
+Eval vm_compute in ("<<<M1931>>>" ++ check (runes_of_ascii "options { i8i8 =0123456789 len=char[] //	t
+i8i8
+= '0'
+    matchKey=
+""CRC32""
+    // `tick` ""quote"" 'q'
+    o
+    ='0' }root //	t
+packet len { }
+root  packet tag {  repeat int8
+msg_type  `{ , }`
+    ,}")).
+Eval vm_compute in ("<<<T1931>>>" ++ terms [mkTok 1 "options" 1 0 false; mkTok 2 "{" 1 8 false; mkTok 42 "i8i8" 1 10 false; mkTok 4 "=" 1 15 false; mkTok 30 "0123456789" 1 16 false; mkTok 42 "len" 1 27 false; mkTok 4 "=" 1 30 false; mkTok 16 "char[]" 1 31 false; mkTok 44 (string_of_bytes [47; 47; 9; 116]%N) 1 38 true; mkTok 42 "i8i8" 2 0 false; mkTok 4 "=" 3 0 false; mkTok 33 "'0'" 3 2 false; mkTok 42 "matchKey" 4 4 false; mkTok 4 "=" 4 12 false; mkTok 31 """CRC32""" 5 0 false; mkTok 44 "// `tick` ""quote"" 'q'" 6 4 true; mkTok 42 "o" 7 4 false; mkTok 4 "=" 8 4 false; mkTok 33 "'0'" 8 5 false; mkTok 3 "}" 8 9 false; mkTok 34 "root" 8 10 false; mkTok 44 (string_of_bytes [47; 47; 9; 116]%N) 8 15 true; mkTok 35 "packet" 9 0 false; mkTok 42 "len" 9 7 false; mkTok 2 "{" 9 11 false; mkTok 3 "}" 9 13 false; mkTok 34 "root" 10 0 false; mkTok 35 "packet" 10 6 false; mkTok 42 "tag" 10 13 false; mkTok 2 "{" 10 17 false; mkTok 36 "repeat" 10 20 false; mkTok 24 "int8" 10 27 false; mkTok 42 "msg_type" 11 0 false; mkTok 43 "`{ , }`" 11 10 false; mkTok 40 "," 12 4 false; mkTok 3 "}" 12 5 false; mkTok 0 "<EOF>" 12 6 false] (mkPacket (mkPtok 1 "options" 1 0 0) (Some (mkPtok 3 "}" 12 5 35)) [(DOption (mkOptionDef (mkSpan (mkPtok 1 "options" 1 0 0) (mkPtok 3 "}" 8 9 19)) (mkPtok 1 "options" 1 0 0) (mkPtok 2 "{" 1 8 1) [(mkOptionDecl (mkSpan (mkPtok 42 "i8i8" 1 10 2) (mkPtok 30 "0123456789" 1 16 4)) (mkPtok 42 "i8i8" 1 10 2) (mkPtok 4 "=" 1 15 3) (VDigits (mkSpan (mkPtok 30 "0123456789" 1 16 4) (mkPtok 30 "0123456789" 1 16 4)) (mkPtok 30 "0123456789" 1 16 4)) None); (mkOptionDecl (mkSpan (mkPtok 42 "len" 1 27 5) (mkPtok 16 "char[]" 1 31 7)) (mkPtok 42 "len" 1 27 5) (mkPtok 4 "=" 1 30 6) (VType (mkSpan (mkPtok 16 "char[]" 1 31 7) (mkPtok 16 "char[]" 1 31 7)) (TyDynamic (mkSpan (mkPtok 16 "char[]" 1 31 7) (mkPtok 16 "char[]" 1 31 7)) (mkDynamicString (mkSpan (mkPtok 16 "char[]" 1 31 7) (mkPtok 16 "char[]" 1 31 7)) (mkPtok 16 "char[]" 1 31 7)))) None); (mkOptionDecl (mkSpan (mkPtok 42 "i8i8" 2 0 9) (mkPtok 33 "'0'" 3 2 11)) (mkPtok 42 "i8i8" 2 0 9) (mkPtok 4 "=" 3 0 10) (VPaddingChar (mkSpan (mkPtok 33 "'0'" 3 2 11) (mkPtok 33 "'0'" 3 2 11)) (mkPtok 33 "'0'" 3 2 11)) None); (mkOptionDecl (mkSpan (mkPtok 42 "matchKey" 4 4 12) (mkPtok 31 """CRC32""" 5 0 14)) (mkPtok 42 "matchKey" 4 4 12) (mkPtok 4 "=" 4 12 13) (VString (mkSpan (mkPtok 31 """CRC32""" 5 0 14) (mkPtok 31 """CRC32""" 5 0 14)) (mkPtok 31 """CRC32""" 5 0 14)) None); (mkOptionDecl (mkSpan (mkPtok 42 "o" 7 4 16) (mkPtok 33 "'0'" 8 5 18)) (mkPtok 42 "o" 7 4 16) (mkPtok 4 "=" 8 4 17) (VPaddingChar (mkSpan (mkPtok 33 "'0'" 8 5 18) (mkPtok 33 "'0'" 8 5 18)) (mkPtok 33 "'0'" 8 5 18)) None)] (mkPtok 3 "}" 8 9 19))); (DPacket (mkPacketDef (mkSpan (mkPtok 34 "root" 8 10 20) (mkPtok 3 "}" 9 13 25)) (Some (mkPtok 34 "root" 8 10 20)) (mkPtok 35 "packet" 9 0 22) (mkPtok 42 "len" 9 7 23) (mkPtok 2 "{" 9 11 24) [] (mkPtok 3 "}" 9 13 25))); (DPacket (mkPacketDef (mkSpan (mkPtok 34 "root" 10 0 26) (mkPtok 3 "}" 12 5 35)) (Some (mkPtok 34 "root" 10 0 26)) (mkPtok 35 "packet" 10 6 27) (mkPtok 42 "tag" 10 13 28) (mkPtok 2 "{" 10 17 29) [(mkFieldWithAttr (mkSpan (mkPtok 36 "repeat" 10 20 30) (mkPtok 40 "," 12 4 34)) [] (MetaField (mkSpan (mkPtok 36 "repeat" 10 20 30) (mkPtok 40 "," 12 4 34)) (Some (mkPtok 36 "repeat" 10 20 30)) (mkMetaDecl (mkSpan (mkPtok 24 "int8" 10 27 31) (mkPtok 40 "," 12 4 34)) (TyBasic (mkSpan (mkPtok 24 "int8" 10 27 31) (mkPtok 24 "int8" 10 27 31)) (mkBasicType (mkSpan (mkPtok 24 "int8" 10 27 31) (mkPtok 24 "int8" 10 27 31)) (mkPtok 24 "int8" 10 27 31))) (mkPtok 42 "msg_type" 11 0 32) (Some (mkPtok 43 "`{ , }`" 11 10 33)) (mkPtok 40 "," 12 4 34))))] (mkPtok 3 "}" 12 5 35)))])).
+Eval vm_compute in ("<<<M1963>>>" ++ check (runes_of_ascii "options // c
+{ roots
+=// @lengthOf(
+""x y"" ; T =""it's""
+    i8i8=
+    4294967296 ; o
+= f32 ;
+float =' ' ;} root
+packet
+As{ match packetx
+as calculatedFrom {00	: // a // b
+zchar , ""{,}"" : msg_type
+    //x
+    , """ ++ [233]%N ++ runes_of_ascii "t" ++ [233]%N ++ runes_of_ascii """	: packetx , ""// no comment""  : len ,
+[ // " ++ [27880; 37322]%N ++ runes_of_ascii "
+1 , 1 , 255 , ""a\""b"" ,""" ++ [128512]%N ++ runes_of_ascii """, 255 , ""// no comment"" ]
+    :  string_ , }
+,	} // c
+MetaData packetx {
+    f32 packetx `u8 x,` , As
+    i8i8`two words` ,Pad pack ,
+    i8i8	Header `two words`
+,  }
+    // `tick` ""quote"" 'q'
+    root  packet T {
+repeatCount, @tag( 3 )
+char[
+    // `tick` ""quote"" 'q'
+    7 ]
+roots ,@calculatedFrom( """ ++ [233]%N ++ runes_of_ascii "t" ++ [233]%N ++ runes_of_ascii """
+) pack {
+    stringy zchar `tab	here` , char[] Header
+    // " ++ [27880; 37322]%N ++ runes_of_ascii "
+    `a\`,	Foo metadata `line1
+line2` , f64 stringy @lengthOf(
+    As )
+    , } , }//
+options { trueish =	'0' ;	packetx = ""`tick`""
+//	t
+// " ++ [128512]%N ++ runes_of_ascii " emoji
+; // @lengthOf(
+Header
+= i8
+; int =false ; o = char[ 00
+    ]
+    }")).
+Eval vm_compute in ("<<<M1995>>>" ++ check (runes_of_ascii "packet x { repeat
+string lengthOf
+    `line1
+line2`
+, } // " ++ [128512]%N ++ runes_of_ascii " emoji")).
+Eval vm_compute in ("<<<M2027>>>" ++ check (runes_of_ascii "MetaData repeatCount { `100% of %d` packetx,
+} root packet  metadata {
+char _x @lengthOf( trueish ), @leftPad
+( ' '// " ++ [27880; 37322]%N ++ runes_of_ascii "
+)/// triple
+char[] len`doc` , // packet A { u8 x, }
+repeatCount , }
+")).
+Eval vm_compute in ("<<<M2059>>>" ++ check (runes_of_ascii "MetaData repeatCount { float64 packetx,
+} root packet  metadata 
+char _x @lengthOf( trueish ), @leftPad
+( ' '// " ++ [27880; 37322]%N ++ runes_of_ascii "
+)/// triple
+char[] len`doc` , // packet A { u8 x, }
+repeatCount , }
+")).
+Eval vm_compute in ("<<<M2091>>>" ++ check (runes_of_ascii "MetaData repeatCount { float64 packetx,
+} root packet  metadata {
+char _x @lengthOf( trueish )@leftPad ,
+( ' '// " ++ [27880; 37322]%N ++ runes_of_ascii "
+)/// triple
+char[] len`doc` , // packet A { u8 x, }
+repeatCount , }
+")).
+Eval vm_compute in ("<<<M2123>>>" ++ check (runes_of_ascii "MetaData repeatCount { float64 packetx,
+} root packet  metadata {
+char _x @lengthOf( trueish ), @leftPad
+( ' '// " ++ [27880; 37322]%N ++ runes_of_ascii "
+)/// triple
+char[]")).
+Eval vm_compute in ("<<<M2155>>>" ++ check (runes_of_ascii "MetaData repeatCount { float64 packetx,
+} root packet  @tag metadata {
+char _x @lengthOf( trueish ), @leftPad
+( ' '// " ++ [27880; 37322]%N ++ runes_of_ascii "
+)/// triple
+char[] len`doc` , // packet A { u8 x, }
+repeatCount , }
+")).
+Eval vm_compute in ("<<<M2187>>>" ++ check (runes_of_ascii "options{
+leftPad
+    65535=
+;
+a1 = true ; packetx=  '\x00' ; packetx
+=  """ ++ [28040; 24687]%N ++ runes_of_ascii """MetaDataX= // " ++ [27880; 37322]%N ++ runes_of_ascii "
+false }root // c
+packet // packet A { u8 x, }
+Pad { repeat
+u8 Header
+// packet A { u8 x, }
+//	t
+`{ , }`
+// a // b
+//x
+, }
+")).
+Eval vm_compute in ("<<<M2219>>>" ++ check (runes_of_ascii "options{
+leftPad
+    =65535
+;
+a1 = true")).
+Eval vm_compute in ("<<<M2251>>>" ++ check (runes_of_ascii "options{
+leftPad
+    =65535
+;
+a1 = true ; packetx=  '\x00' ; packetx
+=  """ ++ [28040; 24687]%N ++ runes_of_ascii """ """ ++ [28040; 24687]%N ++ runes_of_ascii """MetaDataX= // " ++ [27880; 37322]%N ++ runes_of_ascii "
+false }root // c
+packet // packet A { u8 x, }
+Pad { repeat
+u8 Header
+// packet A { u8 x, }
+//	t
+`{ , }`
+// a // b
+//x
+, }
+")).
+Eval vm_compute in ("<<<M2283>>>" ++ check (runes_of_ascii "options{
+leftPad
+    =65535
+;
+a1 = true ; packetx=  '\x00' ; packetx
+=  """ ++ [28040; 24687]%N ++ runes_of_ascii """MetaDataX= // " ++ [27880; 37322]%N ++ runes_of_ascii "
+false }root // c
+zchar[ // packet A { u8 x, }
+Pad { repeat
+u8 Header
+// packet A { u8 x, }
+//	t
+`{ , }`
+// a // b
+//x
+, }
+")).
+Eval vm_compute in ("<<<M2315>>>" ++ check (runes_of_ascii "options{
+leftPad
+    =65535
+;
+a1 = true ; packetx=  '\x00' ; packetx
+=  """ ++ [28040; 24687]%N ++ runes_of_ascii """MetaDataX= // " ++ [27880; 37322]%N ++ runes_of_ascii "
+false }root // c
+packet // packet A { u8 x, }
+Pad { repeat
+u8 Header
+// packet A { u8 x, }
+//	t
+`{ , }`
+// a // b
+//x
+ }
+")).
+Eval vm_compute in ("<<<M2347>>>" ++ check (runes_of_ascii "
+packet packet float
+{	@calculatedFrom( """ ++ [233]%N ++ runes_of_ascii "t" ++ [233]%N ++ runes_of_ascii """ )
+@rightPad ( '\x00' )
+    @calculatedFrom( ""x y"" ) string chars  ,
+    // a // b
+    char[0 ]
+    u	@lengthOf( i8i8 ) `{ , }` ,repeat char[] o //x
+`// not a comment`, } // c")).
+Eval vm_compute in ("<<<M2379>>>" ++ check (runes_of_ascii "
+packet float
+{	@calculatedFrom( """ ++ [233]%N ++ runes_of_ascii "t" ++ [233]%N ++ runes_of_ascii """ )
+zchar[ ( '\x00' )
+    @calculatedFrom( ""x y"" ) string chars  ,
+    // a // b
+    char[0 ]
+    u	@lengthOf( i8i8 ) `{ , }` ,repeat char[] o //x
+`// not a comment`, } // c")).
+Eval vm_compute in ("<<<M2411>>>" ++ check (runes_of_ascii "
+packet float
+{	@calculatedFrom( """ ++ [233]%N ++ runes_of_ascii "t" ++ [233]%N ++ runes_of_ascii """ )
+@rightPad ( '\x00' )
+    @calculatedFrom( ""x y"" )  chars  ,
+    // a // b
+    char[0 ]
+    u	@lengthOf( i8i8 ) `{ , }` ,repeat char[] o //x
+`// not a comment`, } // c")).
+Eval vm_compute in ("<<<M2443>>>" ++ check (runes_of_ascii "
+packet float
+{	@calculatedFrom( """ ++ [233]%N ++ runes_of_ascii "t" ++ [233]%N ++ runes_of_ascii """ )
+@rightPad ( '\x00' )
+    @calculatedFrom( ""x y"" ) string chars  ,
+    // a // b
+    char[0 ]
+    @lengthOf(	u i8i8 ) `{ , }` ,repeat char[] o //x
+`// not a comment`, } // c")).
+Eval vm_compute in ("<<<M2475>>>" ++ check (runes_of_ascii "
+packet float
+{	@calculatedFrom( """ ++ [233]%N ++ runes_of_ascii "t" ++ [233]%N ++ runes_of_ascii """ )
+@rightPad ( '\x00' )
+    @calculatedFrom( ""x y"" ) string chars  ,
+    // a // b
+    char[0 ]
+    u	@lengthOf( i8i8 ) `{ , }` ,")).
+Eval vm_compute in ("<<<M2507>>>" ++ check (runes_of_ascii "
+packet float
+{	@calculatedFrom( """ ++ [233]%N ++ runes_of_ascii "t" ++ [233]%N ++ runes_of_ascii """ @tag)
+@rightPad ( '\x00' )
+    @calculatedFrom( ""x y"" ) string chars  ,
+    // a // b
+    char[0 ]
+    u	@lengthOf( i8i8 ) `{ , }` ,repeat char[] o //x
+`// not a comment`, } // c")).
+Eval vm_compute in ("<<<M2539>>>" ++ check (runes_of_ascii "root packet u128 repeat
+    {
+    zchar[ 65535 ] u `" ++ [28040; 24687; 31867; 22411]%N ++ runes_of_ascii "` ,// `tick` ""quote"" 'q'
+} packet i64_ {repeatCount
+    `
+` ,	} // " ++ [128512]%N ++ runes_of_ascii " emoji")).
+Eval vm_compute in ("<<<M2571>>>" ++ check (runes_of_ascii "root packet u128{
+    repeat
+    zchar[ 65535 ] u")).
+Eval vm_compute in ("<<<M2603>>>" ++ check (runes_of_ascii "root packet u128{
+    repeat
+    zchar[ 65535 ] u `" ++ [28040; 24687; 31867; 22411]%N ++ runes_of_ascii "` ,// `tick` ""quote"" 'q'
+} packet i64_ {repeatCount
+    `
+` `
+` ,	} // " ++ [128512]%N ++ runes_of_ascii " emoji")).
+Eval vm_compute in ("<<<M2635>>>" ++ check (runes_of_ascii "root packet u128{
+    repeat
+    zchar[ 65535 ] u `" ++ [28040; 24687; 31867; 22411]%N ++ runes_of_ascii "` ,// `tick` ""quote"" 'q'
+} packet i64_ {" ++ [252]%N ++ runes_of_ascii "ber
+    `
+` ,	} // " ++ [128512]%N ++ runes_of_ascii " emoji")).
+Eval vm_compute in ("<<<M2667>>>" ++ check (runes_of_ascii "
+MetaData
+roots { int8
+    BodyLength")).
+Eval vm_compute in ("<<<M2699>>>" ++ check (runes_of_ascii "options Packet = ""CRC32""i8i8 = false; leftPad =
+    '\x00'
+    // `tick` ""quote"" 'q'
+    ; o=255  ;
+    // packet A { u8 x, }
+    }")).
+Eval vm_compute in ("<<<M2731>>>" ++ check (runes_of_ascii "options {Packet = ""CRC32""i8i8 = ;false leftPad =
+    '\x00'
+    // `tick` ""quote"" 'q'
+    ; o=255  ;
+    // packet A { u8 x, }
+    }")).
+Eval vm_compute in ("<<<M2763>>>" ++ check (runes_of_ascii "options {Packet = ""CRC32""i8i8 = false; leftPad =
+    '\x00'
+    // `tick` ""quote"" 'q'
+    ;")).
+Eval vm_compute in ("<<<M2795>>>" ++ check (runes_of_ascii "options {Packet = ""CRC32""i8i8 = false; leftPad" ++ [65279]%N ++ runes_of_ascii " =
+    '\x00'
+    // `tick` ""quote"" 'q'
+    ; o=255  ;
+    // packet A { u8 x, }
+    }")).
+Eval vm_compute in ("<<<M2827>>>" ++ check (runes_of_ascii "
+packet metadata { @rightPad ' '
+    // packet A { u8 x, }
+    ( ) repeat u32	A
+,matchKey ,
+    @lengthOf( string_ ) @lengthOf( body )
+    // a // b
+    @lengthOf(float  )	repeat
+int32 u8x
+    // c
+    `tab	here`
+, } // a // b")).
+Eval vm_compute in ("<<<M2859>>>" ++ check (runes_of_ascii "
+packet metadata { @rightPad (
+    // packet A { u8 x, }
+    ' ' ) repeat u32	A")).
+Eval vm_compute in ("<<<M2891>>>" ++ check (runes_of_ascii "
+packet metadata { @rightPad (
+    // packet A { u8 x, }
+    ' ' ) repeat u32	A
+,matchKey ,
+    @lengthOf( string_ ) @lengthOf( body body )
+    // a // b
+    @lengthOf(float  )	repeat
+int32 u8x
+    // c
+    `tab	here`
+, } // a // b")).
+Eval vm_compute in ("<<<M2923>>>" ++ check (runes_of_ascii "
+packet metadata { @rightPad (
+    // packet A { u8 x, }
+    ' ' ) repeat u32	A
+,matchKey ,
+    @lengthOf( string_ ) @lengthOf( body )
+    // a // b
+    @lengthOf(float  )	repeat
+] u8x
+    // c
+    `tab	here`
+, } // a // b")).
+Eval vm_compute in ("<<<M2955>>>" ++ check (runes_of_ascii "
+packet metadata ?{ @rightPad (
+    // packet A { u8 x, }
+    ' ' ) repeat u32	A
+,matchKey ,
+    @lengthOf( string_ ) @lengthOf( body )
+    // a // b
+    @lengthOf(float  )	repeat
+int32 u8x
+    // c
+    `tab	here`
+, } // a // b")).
+Eval vm_compute in ("<<<M2987>>>" ++ check (runes_of_ascii "packet x{
+string
+zchar zchar , //	t
+}
+")).
+Eval vm_compute in ("<<<M3019>>>" ++ check (runes_of_ascii "packet a" ++ [769]%N ++ runes_of_ascii "b{
+string
+zchar , //	t
+}
+")).
+Eval vm_compute in ("<<<M3051>>>" ++ check (runes_of_ascii "
+MetaData Logon
+{ // c
+}root")).
+Eval vm_compute in ("<<<M3083>>>" ++ check (runes_of_ascii "
+MetaData Logon
+{ // c
+}root packet
+    Pad {
+    } options
+{
+u
+    = =
+    ""CRC32""
+    // " ++ [128512]%N ++ runes_of_ascii " emoji
+    i64_ = u16;
+T =65535 x = ' '
+    ; u128
+= true ; }")).
+Eval vm_compute in ("<<<M3115>>>" ++ check (runes_of_ascii "
+MetaData Logon
+{ // c
+}root packet
+    Pad {
+    } options
+{
+u
+    =
+    ""CRC32""
+    // " ++ [128512]%N ++ runes_of_ascii " emoji
+    i64_ = u16;
+string =65535 x = ' '
+    ; u128
+= true ; }")).
+Eval vm_compute in ("<<<M3147>>>" ++ check (runes_of_ascii "
+MetaData Logon
+{ // c
+}root packet
+    Pad {
+    } options
+{
+u
+    =
+    ""CRC32""
+    // " ++ [128512]%N ++ runes_of_ascii " emoji
+    i64_ = u16;
+T =65535 x = ' '
+    ; 
+= true ; }")).
+Eval vm_compute in ("<<<M3179>>>" ++ check (runes_of_ascii "
+MetaData Logon
+{ // c
+}root packet
+    Pad {
+    } options
+{
+u
+    =
+    ""CRC32""
+    //\ " ++ [128512]%N ++ runes_of_ascii " emoji
+    i64_ = u16;
+T =65535 x = ' '
+    ; u128
+= true ; }")).
+Eval vm_compute in ("<<<T3179>>>" ++ terms [mkTok 37 "MetaData" 2 0 false; mkTok 42 "Logon" 2 9 false; mkTok 2 "{" 3 0 false; mkTok 44 "// c" 3 2 true; mkTok 3 "}" 4 0 false; mkTok 34 "root" 4 1 false; mkTok 35 "packet" 4 6 false; mkTok 42 "Pad" 5 4 false; mkTok 2 "{" 5 8 false; mkTok 3 "}" 6 4 false; mkTok 1 "options" 6 6 false; mkTok 2 "{" 7 0 false; mkTok 42 "u" 8 0 false; mkTok 4 "=" 9 4 false; mkTok 31 """CRC32""" 10 4 false; mkTok 44 (string_of_bytes [47; 47; 92; 32; 240; 159; 152; 128; 32; 101; 109; 111; 106; 105]%N) 11 4 true; mkTok 42 "i64_" 12 4 false; mkTok 4 "=" 12 9 false; mkTok 21 "u16" 12 11 false; mkTok 41 ";" 12 14 false; mkTok 42 "T" 13 0 false; mkTok 4 "=" 13 2 false; mkTok 30 "65535" 13 3 false; mkTok 42 "x" 13 9 false; mkTok 4 "=" 13 11 false; mkTok 33 "' '" 13 13 false; mkTok 41 ";" 14 4 false; mkTok 42 "u128" 14 6 false; mkTok 4 "=" 15 0 false; mkTok 10 "true" 15 2 false; mkTok 41 ";" 15 7 false; mkTok 3 "}" 15 9 false; mkTok 0 "<EOF>" 15 10 false] (mkPacket (mkPtok 37 "MetaData" 2 0 0) (Some (mkPtok 3 "}" 15 9 31)) [(DMeta (mkMetaDef (mkSpan (mkPtok 37 "MetaData" 2 0 0) (mkPtok 3 "}" 4 0 4)) (mkPtok 37 "MetaData" 2 0 0) (mkPtok 42 "Logon" 2 9 1) (mkPtok 2 "{" 3 0 2) [] (mkPtok 3 "}" 4 0 4))); (DPacket (mkPacketDef (mkSpan (mkPtok 34 "root" 4 1 5) (mkPtok 3 "}" 6 4 9)) (Some (mkPtok 34 "root" 4 1 5)) (mkPtok 35 "packet" 4 6 6) (mkPtok 42 "Pad" 5 4 7) (mkPtok 2 "{" 5 8 8) [] (mkPtok 3 "}" 6 4 9))); (DOption (mkOptionDef (mkSpan (mkPtok 1 "options" 6 6 10) (mkPtok 3 "}" 15 9 31)) (mkPtok 1 "options" 6 6 10) (mkPtok 2 "{" 7 0 11) [(mkOptionDecl (mkSpan (mkPtok 42 "u" 8 0 12) (mkPtok 31 """CRC32""" 10 4 14)) (mkPtok 42 "u" 8 0 12) (mkPtok 4 "=" 9 4 13) (VString (mkSpan (mkPtok 31 """CRC32""" 10 4 14) (mkPtok 31 """CRC32""" 10 4 14)) (mkPtok 31 """CRC32""" 10 4 14)) None); (mkOptionDecl (mkSpan (mkPtok 42 "i64_" 12 4 16) (mkPtok 41 ";" 12 14 19)) (mkPtok 42 "i64_" 12 4 16) (mkPtok 4 "=" 12 9 17) (VType (mkSpan (mkPtok 21 "u16" 12 11 18) (mkPtok 21 "u16" 12 11 18)) (TyBasic (mkSpan (mkPtok 21 "u16" 12 11 18) (mkPtok 21 "u16" 12 11 18)) (mkBasicType (mkSpan (mkPtok 21 "u16" 12 11 18) (mkPtok 21 "u16" 12 11 18)) (mkPtok 21 "u16" 12 11 18)))) (Some (mkPtok 41 ";" 12 14 19))); (mkOptionDecl (mkSpan (mkPtok 42 "T" 13 0 20) (mkPtok 30 "65535" 13 3 22)) (mkPtok 42 "T" 13 0 20) (mkPtok 4 "=" 13 2 21) (VDigits (mkSpan (mkPtok 30 "65535" 13 3 22) (mkPtok 30 "65535" 13 3 22)) (mkPtok 30 "65535" 13 3 22)) None); (mkOptionDecl (mkSpan (mkPtok 42 "x" 13 9 23) (mkPtok 41 ";" 14 4 26)) (mkPtok 42 "x" 13 9 23) (mkPtok 4 "=" 13 11 24) (VPaddingChar (mkSpan (mkPtok 33 "' '" 13 13 25) (mkPtok 33 "' '" 13 13 25)) (mkPtok 33 "' '" 13 13 25)) (Some (mkPtok 41 ";" 14 4 26))); (mkOptionDecl (mkSpan (mkPtok 42 "u128" 14 6 27) (mkPtok 41 ";" 15 7 30)) (mkPtok 42 "u128" 14 6 27) (mkPtok 4 "=" 15 0 28) (VTrue (mkSpan (mkPtok 10 "true" 15 2 29) (mkPtok 10 "true" 15 2 29)) (mkPtok 10 "true" 15 2 29)) (Some (mkPtok 41 ";" 15 7 30)))] (mkPtok 3 "}" 15 9 31)))])).
+Eval vm_compute in ("<<<M3211>>>" ++ check (runes_of_ascii "MetaData body{(
+packet	Packet { x_y_z @calculatedFrom(  ""a\\"")// `tick` ""quote"" 'q'
+, }
+")).
+Eval vm_compute in ("<<<M3243>>>" ++ check (runes_of_ascii "MetaData body{}
+packet	Packet { x_y_z @calculatedFrom(  ""a\\""// `tick` ""quote"" 'q'
+, }
+")).
+Eval vm_compute in ("<<<M3275>>>" ++ check (runes_of_ascii "MetaData body{}
+packet	Packet { x_y_z @calculatedFrom(  ""a\\""|)// `tick` ""quote"" 'q'
+, }
+")).
+Eval vm_compute in ("<<<M3307>>>" ++ check (runes_of_ascii "packet f32a {} root options len {repeat u // " ++ [128512]%N ++ runes_of_ascii " emoji
+`{ , }` , }
+")).
+Eval vm_compute in ("<<<M3339>>>" ++ check (runes_of_ascii "packet f32a {} root packet len {repeat u // " ++ [128512]%N ++ runes_of_ascii " emoji
+`{ , }` , 
+")).
+Eval vm_compute in ("<<<M3371>>>" ++ check (runes_of_ascii "options{ _x=""\" ++ [233]%N ++ runes_of_ascii """;
+    Logon = 10	; Foo= 7;
+i64_= char[]} options {
+matchKey = ""// no comment"" // a // b
+falsey = string
+; trueish =
+    4294967296
+options1=
+    ""it's"" s" ++ [0]%N ++ runes_of_ascii "tring_	= true } options {
+    /// triple
+    }")).
+Eval vm_compute in ("<<<M3403>>>" ++ check (runes_of_ascii "options{ _x=""\" ++ [233]%N ++ runes_of_ascii """;
+    Logon = 10	; Foo= 7;
+i64_= char[]} options {
+matchKey = ""// no comment"" // a // b
+falsey = string
+; trueish =
+    4294967296
+options1 options1=
+    ""it's"" string_	= true } options {
+    /// triple
+    }")).
+Eval vm_compute in ("<<<M3435>>>" ++ check (runes_of_ascii "options{ _x=""\" ++ [233]%N ++ runes_of_ascii """;
+    Logon = 10	;")).
+Eval vm_compute in ("<<<M3467>>>" ++ check (runes_of_ascii "options{ _x=""\" ++ [233]%N ++ runes_of_ascii """;
+    Logon = 10	; Foo= 7;
+i64_= char[]} { options
+matchKey = ""// no comment"" // a // b
+falsey = string
+; trueish =
+    4294967296
+options1=
+    ""it's"" string_	= true } options {
+    /// triple
+    }")).
 Eval vm_compute in ("<<<M3499>>>" ++ check (runes_of_ascii "zchar")).
 Eval vm_compute in ("<<<M3531>>>" ++ check (runes_of_ascii "Metadata")).
 Eval vm_compute in ("<<<M3563>>>" ++ check (runes_of_ascii "/")).
@@ -1638,11 +1634,10 @@ Eval vm_compute in ("<<<M3659>>>" ++ check (runes_of_ascii "packet A { x @tag(1)
 Eval vm_compute in ("<<<M3691>>>" ++ check (runes_of_ascii "packet A { @leftPad('0' u8 x, }")).
 Eval vm_compute in ("<<<M3723>>>" ++ check (runes_of_ascii "MetaData M { match k as n { 1 : B }, }")).
 Eval vm_compute in ("<<<M3755>>>" ++ check (runes_of_ascii "		")).
-Eval vm_compute in ("<<<M3787>>>" ++ check (runes_of_ascii "as repeat @calculatedFrom( { root char")).
-Eval vm_compute in ("<<<M3819>>>" ++ check (runes_of_ascii "'\x00' as zchar[")).
-Eval vm_compute in ("<<<M3851>>>" ++ check (runes_of_ascii "i16 { 42 char[ = root char[] : '0' , repeat ; )")).
-Eval vm_compute in ("<<<M3883>>>" ++ check (runes_of_ascii "uint32 @lengthOf( ) as @calculatedFrom( ' ' i8 } @calculatedFrom(")).
-Eval vm_compute in ("<<<M3915>>>" ++ check (runes_of_ascii "i16 @rightPad ) `crlf
-line` = calculatedFrom ""`tick`"" char : @leftPad ]")).
-Eval vm_compute in ("<<<M3947>>>" ++ check (runes_of_ascii "uint8x u32 packet @lengthOf( { false float32 repeat ] = ; `" ++ [233]%N ++ runes_of_ascii "` [")).
-Eval vm_compute in ("<<<M3979>>>" ++ check (runes_of_ascii ": options")).
+Eval vm_compute in ("<<<M3787>>>" ++ check (runes_of_ascii "options char[ uint8 char[ '0' [ match :")).
+Eval vm_compute in ("<<<M3819>>>" ++ check (runes_of_ascii ", u8 match int16 zchar[")).
+Eval vm_compute in ("<<<M3851>>>" ++ check (runes_of_ascii "zchar[ ' ' string @rightPad , char[] false @leftPad { u64 match uint64 string")).
+Eval vm_compute in ("<<<M3883>>>" ++ check (runes_of_ascii "i8 @lengthOf( repeat ) f64 , u64 zchar[ char[ int64")).
+Eval vm_compute in ("<<<M3915>>>" ++ check (runes_of_ascii "u32 false , as :")).
+Eval vm_compute in ("<<<M3947>>>" ++ check (runes_of_ascii "@lengthOf( true string '0' } char[ Header root")).
+Eval vm_compute in ("<<<M3979>>>" ++ check (runes_of_ascii "7 @tag( u16 ; @tag( repeat root ) ; options")).
